@@ -52,6 +52,8 @@ T0 == BuildTree(1, [live |-> [n \in Notes |-> "none"], notified |-> [n \in Notes
     cq = <<>>,                                \* c->waiters
     clk = 0,                                  \* holder of c->counter_mu
     nwc = [t \in Threads |-> 0],              \* waiting flag of t's nsync_wait_n record for the counter
+    cmu = 0,                                  \* holder of the client's mutex, the one a "waitn" with x = 2 passes to nsync_wait_n
+    badmu = FALSE,                            \* an nsync_wait_n that was given the mutex returned without holding it
     cz = (CV0 = 0),                           \* ghost: the counter has been zero
     now = 0,
     ip = [t \in Threads |-> 1],
@@ -226,15 +228,15 @@ T0 == BuildTree(1, [live |-> [n \in Notes |-> "none"], notified |-> [n \in Notes
 
   \* ------------------------------------------------------------------ nsync_wait_n (NULL, .., adl, Len(objs), objs) on notes (wait.c:28-100
   \* with note_ready_time / note_enqueue / note_dequeue, note.c:262-294); nsync_note_wait (n, dl) is the call with one object
-  procedure nwaitn(objs, adl, single)
-    variables k = 1, rt = 0, cnt = 0, rdy = 0, enq = FALSE, wq = FALSE;
+  procedure nwaitn(objs, adl, single, wm)
+    variables k = 1, rt = 0, cnt = 0, rdy = 0, enq = FALSE, wq = FALSE, unl = FALSE;
   {
    ws_1_l:   if (k > Len(objs)) { k := 1; goto we_1_l; }
              else if (objs[k] = CTR) { call cready(); }
              else { call ndeadline(objs[k]); };    \* wait.c:34-38 note_ready_time (v, NULL)
    ws_2_l:   if (dres[self] = ZERO) { ret[self] := IF single THEN 1 ELSE k - 1; return; }      \* an object is ready at once
              else { k := k + 1; goto ws_1_l; };
-   we_1_l:   if (k > Len(objs)) { goto wl_0_l; };                             \* wait.c:50-57 enqueue loop
+   we_1_l:   if (k > Len(objs)) { goto wu_0_l; };                             \* wait.c:50-57 enqueue loop
    wn_1_st:  if (objs[k] = CTR) { nwc[self] := 0; goto ce_1_lk; }
              else { nww[self][objs[k]] := 0; };                              \* wait.c:54 ATM_STORE
    ne_1_lk:  await lk[objs[k]] = 0; lk[objs[k]] := self; uaf := uaf \/ Touch(objs[k]);   \* note.c:267 note_enqueue
@@ -244,13 +246,15 @@ T0 == BuildTree(1, [live |-> [n \in Notes |-> "none"], notified |-> [n \in Notes
    ne_4_ul:  lk[objs[k]] := 0;
    ne_5_l:   cnt := k;
              if (enq) { k := k + 1; goto we_1_l; }
-             else if (k = Len(objs)) { goto wl_0_l; }                         \* wait.c:59: i == count although the last enqueue found it ready
+             else if (k = Len(objs)) { goto wu_0_l; }                         \* wait.c:59: i == count although the last enqueue found it ready
              else { goto wd_0_l; };
    ce_1_lk:  await clk = 0; clk := self;                                     \* counter.c:119 counter_enqueue
    ce_2_ld:  enq := cval # 0;                                                \* counter.c:120
              if (cval # 0) { cq := Append(cq, self); };
    ce_3_st:  nwc[self] := IF enq THEN 1 ELSE 0;                              \* counter.c:123 / 125
    ce_4_ul:  clk := 0; goto ne_5_l;                                          \* counter.c:127
+   wu_0_l:   if (~wm) { goto wl_0_l; };                                       \* wait.c:59-64: every object was offered: release the caller's mutex for the sleep
+   wu_1_ul:  cmu := 0; unl := TRUE;                                           \* wait.c:62 unlock (mu)
    wl_0_l:   k := 1; rt := adl;                                               \* wait.c:65-77
    wl_1_l:   if (k > Len(objs)) { goto wl_3_l; }
              else if (objs[k] = CTR) { call cready(); }
@@ -260,7 +264,7 @@ T0 == BuildTree(1, [live |-> [n \in Notes |-> "none"], notified |-> [n \in Notes
    wn_7_pd:  await sem[self] > 0 \/ (rt < NONE /\ now >= rt);                \* wait.c:76 nsync_mu_semaphore_p_with_deadline
              if (sem[self] > 0) { sem[self] := sem[self] - 1; goto wl_0_l; };
    wd_0_l:   k := 1; rdy := 0;                                                \* wait.c:80-89 dequeue loop over the objects registered
-   wd_1_l:   if (k > cnt) { goto wd_9_l; }
+   wd_1_l:   if (k > cnt) { goto wd_8_l; }
              else if (objs[k] = CTR) { goto cd_1_lk; }
              else { call ndeadline(objs[k]); }; \* note.c:285 note_dequeue
    nq_2_lk:  await lk[objs[k]] = 0; lk[objs[k]] := self; uaf := uaf \/ Touch(objs[k]);   \* note.c:286
@@ -276,7 +280,10 @@ T0 == BuildTree(1, [live |-> [n \in Notes |-> "none"], notified |-> [n \in Notes
    cd_3_ld:  if (nwc[self] # 0) { cq := Without(cq, self); } else { goto cd_5_ul; };   \* counter.c:135-136
    cd_4_st:  nwc[self] := 0;                                                 \* counter.c:137
    cd_5_ul:  clk := 0; goto nq_6_l;                                          \* counter.c:139
-   wd_9_l:   badret := badret \/ (rdy # 0 /\ (IF objs[rdy] = CTR THEN ~cz ELSE ~Cause(objs[rdy]))) \/ (rdy = 0 /\ ~(adl < NONE /\ adl <= now));
+   wd_8_l:   if (~unl) { goto wd_9_l; };
+   wu_2_lk:  await cmu = 0; cmu := self;                                      \* wait.c:96 lock (mu)
+   wd_9_l:   badmu := badmu \/ (wm /\ cmu # self);
+             badret := badret \/ (rdy # 0 /\ (IF objs[rdy] = CTR THEN ~cz ELSE ~Cause(objs[rdy]))) \/ (rdy = 0 /\ ~(adl < NONE /\ adl <= now));
              ret[self] := IF single THEN (IF rdy = 0 THEN 0 ELSE 1) ELSE (IF rdy = 0 THEN Len(objs) ELSE rdy - 1);
              return;
   }
@@ -318,6 +325,16 @@ T0 == BuildTree(1, [live |-> [n \in Notes |-> "none"], notified |-> [n \in Notes
    sv_1_v:   sem[st] := sem[st] + 1; vcount[st] := vcount[st] + 1; ret[self] := 0; return;
   }
 
+  \* the client's own mutex (ideal): lock / unlock around a "waitn" that passes it to nsync_wait_n
+  procedure mlock()
+  {
+   ml_1_lk:  await cmu = 0; cmu := self; ret[self] := 0; return;
+  }
+  procedure munlock()
+  {
+   ml_2_ul:  cmu := 0; ret[self] := 0; return;
+  }
+
   procedure npoll(pn)
   {
    np_0_l:   call ndeadline(pn);
@@ -331,8 +348,10 @@ T0 == BuildTree(1, [live |-> [n \in Notes |-> "none"], notified |-> [n \in Notes
          else if (CurOp(self).op = "poll") { ip[self] := ip[self] + 1; call npoll(CurOp(self).a); }
          else if (CurOp(self).op = "new") { ip[self] := ip[self] + 1; call nnew(CurOp(self).a, CurOp(self).b, CurOp(self).dl, CurOp(self).x = 1); }
          else if (CurOp(self).op = "free") { ip[self] := ip[self] + 1; call nfree(CurOp(self).a); }
-         else if (CurOp(self).op = "wait") { ip[self] := ip[self] + 1; call nwaitn(<<CurOp(self).a>>, CurOp(self).dl, TRUE); }
-         else if (CurOp(self).op = "waitn") { ip[self] := ip[self] + 1; call nwaitn(CurOp(self).objs, CurOp(self).dl, FALSE); }
+         else if (CurOp(self).op = "wait") { ip[self] := ip[self] + 1; call nwaitn(<<CurOp(self).a>>, CurOp(self).dl, TRUE, FALSE); }
+         else if (CurOp(self).op = "waitn") { ip[self] := ip[self] + 1; call nwaitn(CurOp(self).objs, CurOp(self).dl, FALSE, CurOp(self).x = 2); }
+         else if (CurOp(self).op = "mlock") { ip[self] := ip[self] + 1; call mlock(); }
+         else if (CurOp(self).op = "munlock") { ip[self] := ip[self] + 1; call munlock(); }
          else if (CurOp(self).op = "cadd") { ip[self] := ip[self] + 1; call cadd(CurOp(self).a); }
          else if (CurOp(self).op = "swc") { ip[self] := ip[self] + 1; call swc(CurOp(self).dl, CurOp(self).a); }
          else if (CurOp(self).op = "semv") { ip[self] := ip[self] + 1; call semv(CurOp(self).a); }
@@ -343,8 +362,9 @@ T0 == BuildTree(1, [live |-> [n \in Notes |-> "none"], notified |-> [n \in Notes
 \* BEGIN TRANSLATION
 CONSTANT defaultInitValue
 VARIABLES pc, live, notified, exp, par, kids, wts, disc, lk, nww, sem, cval, 
-          cwaited, cq, clk, nwc, cz, now, ip, ret, dres, called, dl0, lpar, 
-          wfor, freeing, badret, vcount, uaf, taint4, taint5, stack
+          cwaited, cq, clk, nwc, cmu, badmu, cz, now, ip, ret, dres, called, 
+          dl0, lpar, wfor, freeing, badret, vcount, uaf, taint4, taint5, 
+          stack
 
 (* define statement *)
 CurOp(t) == Prog[t][ip[t]]
@@ -357,15 +377,15 @@ ECANCELED == 125
 ETIMEDOUT == 110
 
 VARIABLES cn, cp, i, klist, w, tn, p, dn, nt, xn, xcl, wn, wp, wdl, fail, fn, 
-          fp, fi, fk, cdl, cv, cwk, objs, adl, single, k, rt, cnt, rdy, enq, 
-          wq, sdl, scn, sct, sldl, snear, sso, st, pn
+          fp, fi, fk, cdl, cv, cwk, objs, adl, single, wm, k, rt, cnt, rdy, 
+          enq, wq, unl, sdl, scn, sct, sldl, snear, sso, st, pn
 
 vars == << pc, live, notified, exp, par, kids, wts, disc, lk, nww, sem, cval, 
-           cwaited, cq, clk, nwc, cz, now, ip, ret, dres, called, dl0, lpar, 
-           wfor, freeing, badret, vcount, uaf, taint4, taint5, stack, cn, cp, 
-           i, klist, w, tn, p, dn, nt, xn, xcl, wn, wp, wdl, fail, fn, fp, fi, 
-           fk, cdl, cv, cwk, objs, adl, single, k, rt, cnt, rdy, enq, wq, sdl, 
-           scn, sct, sldl, snear, sso, st, pn >>
+           cwaited, cq, clk, nwc, cmu, badmu, cz, now, ip, ret, dres, called, 
+           dl0, lpar, wfor, freeing, badret, vcount, uaf, taint4, taint5, 
+           stack, cn, cp, i, klist, w, tn, p, dn, nt, xn, xcl, wn, wp, wdl, 
+           fail, fn, fp, fi, fk, cdl, cv, cwk, objs, adl, single, wm, k, rt, 
+           cnt, rdy, enq, wq, unl, sdl, scn, sct, sldl, snear, sso, st, pn >>
 
 ProcSet == (Threads)
 
@@ -385,6 +405,8 @@ Init == (* Global variables *)
         /\ cq = <<>>
         /\ clk = 0
         /\ nwc = [t \in Threads |-> 0]
+        /\ cmu = 0
+        /\ badmu = FALSE
         /\ cz = (CV0 = 0)
         /\ now = 0
         /\ ip = [t \in Threads |-> 1]
@@ -433,12 +455,14 @@ Init == (* Global variables *)
         /\ objs = [ self \in ProcSet |-> defaultInitValue]
         /\ adl = [ self \in ProcSet |-> defaultInitValue]
         /\ single = [ self \in ProcSet |-> defaultInitValue]
+        /\ wm = [ self \in ProcSet |-> defaultInitValue]
         /\ k = [ self \in ProcSet |-> 1]
         /\ rt = [ self \in ProcSet |-> 0]
         /\ cnt = [ self \in ProcSet |-> 0]
         /\ rdy = [ self \in ProcSet |-> 0]
         /\ enq = [ self \in ProcSet |-> FALSE]
         /\ wq = [ self \in ProcSet |-> FALSE]
+        /\ unl = [ self \in ProcSet |-> FALSE]
         (* Procedure swc *)
         /\ sdl = [ self \in ProcSet |-> defaultInitValue]
         /\ scn = [ self \in ProcSet |-> defaultInitValue]
@@ -466,25 +490,26 @@ nc_1_ld(self) == /\ pc[self] = "nc_1_ld"
                        ELSE /\ pc' = [pc EXCEPT ![self] = "nc_2_st"]
                             /\ UNCHANGED << stack, cn, cp, i, klist, w >>
                  /\ UNCHANGED << live, notified, exp, par, kids, wts, disc, lk, 
-                                 nww, sem, cval, cwaited, cq, clk, nwc, cz, 
-                                 now, ip, ret, dres, called, dl0, lpar, wfor, 
-                                 freeing, badret, vcount, taint4, taint5, tn, 
-                                 p, dn, nt, xn, xcl, wn, wp, wdl, fail, fn, fp, 
-                                 fi, fk, cdl, cv, cwk, objs, adl, single, k, 
-                                 rt, cnt, rdy, enq, wq, sdl, scn, sct, sldl, 
-                                 snear, sso, st, pn >>
+                                 nww, sem, cval, cwaited, cq, clk, nwc, cmu, 
+                                 badmu, cz, now, ip, ret, dres, called, dl0, 
+                                 lpar, wfor, freeing, badret, vcount, taint4, 
+                                 taint5, tn, p, dn, nt, xn, xcl, wn, wp, wdl, 
+                                 fail, fn, fp, fi, fk, cdl, cv, cwk, objs, adl, 
+                                 single, wm, k, rt, cnt, rdy, enq, wq, unl, 
+                                 sdl, scn, sct, sldl, snear, sso, st, pn >>
 
 nc_2_st(self) == /\ pc[self] = "nc_2_st"
                  /\ notified' = [notified EXCEPT ![cn[self]] = 1]
                  /\ pc' = [pc EXCEPT ![self] = "nc_w_l"]
                  /\ UNCHANGED << live, exp, par, kids, wts, disc, lk, nww, sem, 
-                                 cval, cwaited, cq, clk, nwc, cz, now, ip, ret, 
-                                 dres, called, dl0, lpar, wfor, freeing, 
-                                 badret, vcount, uaf, taint4, taint5, stack, 
-                                 cn, cp, i, klist, w, tn, p, dn, nt, xn, xcl, 
-                                 wn, wp, wdl, fail, fn, fp, fi, fk, cdl, cv, 
-                                 cwk, objs, adl, single, k, rt, cnt, rdy, enq, 
-                                 wq, sdl, scn, sct, sldl, snear, sso, st, pn >>
+                                 cval, cwaited, cq, clk, nwc, cmu, badmu, cz, 
+                                 now, ip, ret, dres, called, dl0, lpar, wfor, 
+                                 freeing, badret, vcount, uaf, taint4, taint5, 
+                                 stack, cn, cp, i, klist, w, tn, p, dn, nt, xn, 
+                                 xcl, wn, wp, wdl, fail, fn, fp, fi, fk, cdl, 
+                                 cv, cwk, objs, adl, single, wm, k, rt, cnt, 
+                                 rdy, enq, wq, unl, sdl, scn, sct, sldl, snear, 
+                                 sso, st, pn >>
 
 nc_w_l(self) == /\ pc[self] = "nc_w_l"
                 /\ IF wts[cn[self]] = <<>>
@@ -497,38 +522,41 @@ nc_w_l(self) == /\ pc[self] = "nc_w_l"
                            /\ pc' = [pc EXCEPT ![self] = "nc_3_st"]
                            /\ UNCHANGED << i, klist >>
                 /\ UNCHANGED << live, notified, exp, par, kids, disc, lk, nww, 
-                                sem, cval, cwaited, cq, clk, nwc, cz, now, ip, 
-                                ret, dres, called, dl0, lpar, wfor, freeing, 
-                                badret, vcount, uaf, taint4, taint5, stack, cn, 
-                                cp, tn, p, dn, nt, xn, xcl, wn, wp, wdl, fail, 
-                                fn, fp, fi, fk, cdl, cv, cwk, objs, adl, 
-                                single, k, rt, cnt, rdy, enq, wq, sdl, scn, 
-                                sct, sldl, snear, sso, st, pn >>
+                                sem, cval, cwaited, cq, clk, nwc, cmu, badmu, 
+                                cz, now, ip, ret, dres, called, dl0, lpar, 
+                                wfor, freeing, badret, vcount, uaf, taint4, 
+                                taint5, stack, cn, cp, tn, p, dn, nt, xn, xcl, 
+                                wn, wp, wdl, fail, fn, fp, fi, fk, cdl, cv, 
+                                cwk, objs, adl, single, wm, k, rt, cnt, rdy, 
+                                enq, wq, unl, sdl, scn, sct, sldl, snear, sso, 
+                                st, pn >>
 
 nc_3_st(self) == /\ pc[self] = "nc_3_st"
                  /\ nww' = [nww EXCEPT ![w[self]][cn[self]] = 0]
                  /\ pc' = [pc EXCEPT ![self] = "nc_4_v"]
                  /\ UNCHANGED << live, notified, exp, par, kids, wts, disc, lk, 
-                                 sem, cval, cwaited, cq, clk, nwc, cz, now, ip, 
-                                 ret, dres, called, dl0, lpar, wfor, freeing, 
-                                 badret, vcount, uaf, taint4, taint5, stack, 
-                                 cn, cp, i, klist, w, tn, p, dn, nt, xn, xcl, 
-                                 wn, wp, wdl, fail, fn, fp, fi, fk, cdl, cv, 
-                                 cwk, objs, adl, single, k, rt, cnt, rdy, enq, 
-                                 wq, sdl, scn, sct, sldl, snear, sso, st, pn >>
+                                 sem, cval, cwaited, cq, clk, nwc, cmu, badmu, 
+                                 cz, now, ip, ret, dres, called, dl0, lpar, 
+                                 wfor, freeing, badret, vcount, uaf, taint4, 
+                                 taint5, stack, cn, cp, i, klist, w, tn, p, dn, 
+                                 nt, xn, xcl, wn, wp, wdl, fail, fn, fp, fi, 
+                                 fk, cdl, cv, cwk, objs, adl, single, wm, k, 
+                                 rt, cnt, rdy, enq, wq, unl, sdl, scn, sct, 
+                                 sldl, snear, sso, st, pn >>
 
 nc_4_v(self) == /\ pc[self] = "nc_4_v"
                 /\ sem' = [sem EXCEPT ![w[self]] = sem[w[self]] + 1]
                 /\ vcount' = [vcount EXCEPT ![w[self]] = vcount[w[self]] + 1]
                 /\ pc' = [pc EXCEPT ![self] = "nc_w_l"]
                 /\ UNCHANGED << live, notified, exp, par, kids, wts, disc, lk, 
-                                nww, cval, cwaited, cq, clk, nwc, cz, now, ip, 
-                                ret, dres, called, dl0, lpar, wfor, freeing, 
-                                badret, uaf, taint4, taint5, stack, cn, cp, i, 
-                                klist, w, tn, p, dn, nt, xn, xcl, wn, wp, wdl, 
-                                fail, fn, fp, fi, fk, cdl, cv, cwk, objs, adl, 
-                                single, k, rt, cnt, rdy, enq, wq, sdl, scn, 
-                                sct, sldl, snear, sso, st, pn >>
+                                nww, cval, cwaited, cq, clk, nwc, cmu, badmu, 
+                                cz, now, ip, ret, dres, called, dl0, lpar, 
+                                wfor, freeing, badret, uaf, taint4, taint5, 
+                                stack, cn, cp, i, klist, w, tn, p, dn, nt, xn, 
+                                xcl, wn, wp, wdl, fail, fn, fp, fi, fk, cdl, 
+                                cv, cwk, objs, adl, single, wm, k, rt, cnt, 
+                                rdy, enq, wq, unl, sdl, scn, sct, sldl, snear, 
+                                sso, st, pn >>
 
 nc_k_l(self) == /\ pc[self] = "nc_k_l"
                 /\ IF i[self] > Len(klist[self])
@@ -537,13 +565,14 @@ nc_k_l(self) == /\ pc[self] = "nc_k_l"
                       ELSE /\ pc' = [pc EXCEPT ![self] = "nc_5_lk"]
                            /\ wfor' = wfor
                 /\ UNCHANGED << live, notified, exp, par, kids, wts, disc, lk, 
-                                nww, sem, cval, cwaited, cq, clk, nwc, cz, now, 
-                                ip, ret, dres, called, dl0, lpar, freeing, 
-                                badret, vcount, uaf, taint4, taint5, stack, cn, 
-                                cp, i, klist, w, tn, p, dn, nt, xn, xcl, wn, 
-                                wp, wdl, fail, fn, fp, fi, fk, cdl, cv, cwk, 
-                                objs, adl, single, k, rt, cnt, rdy, enq, wq, 
-                                sdl, scn, sct, sldl, snear, sso, st, pn >>
+                                nww, sem, cval, cwaited, cq, clk, nwc, cmu, 
+                                badmu, cz, now, ip, ret, dres, called, dl0, 
+                                lpar, freeing, badret, vcount, uaf, taint4, 
+                                taint5, stack, cn, cp, i, klist, w, tn, p, dn, 
+                                nt, xn, xcl, wn, wp, wdl, fail, fn, fp, fi, fk, 
+                                cdl, cv, cwk, objs, adl, single, wm, k, rt, 
+                                cnt, rdy, enq, wq, unl, sdl, scn, sct, sldl, 
+                                snear, sso, st, pn >>
 
 nc_5_lk(self) == /\ pc[self] = "nc_5_lk"
                  /\ lk[klist[self][i[self]]] = 0
@@ -551,14 +580,14 @@ nc_5_lk(self) == /\ pc[self] = "nc_5_lk"
                  /\ uaf' = (uaf \/ Touch(klist[self][i[self]]))
                  /\ pc' = [pc EXCEPT ![self] = "nc_5_l"]
                  /\ UNCHANGED << live, notified, exp, par, kids, wts, disc, 
-                                 nww, sem, cval, cwaited, cq, clk, nwc, cz, 
-                                 now, ip, ret, dres, called, dl0, lpar, wfor, 
-                                 freeing, badret, vcount, taint4, taint5, 
-                                 stack, cn, cp, i, klist, w, tn, p, dn, nt, xn, 
-                                 xcl, wn, wp, wdl, fail, fn, fp, fi, fk, cdl, 
-                                 cv, cwk, objs, adl, single, k, rt, cnt, rdy, 
-                                 enq, wq, sdl, scn, sct, sldl, snear, sso, st, 
-                                 pn >>
+                                 nww, sem, cval, cwaited, cq, clk, nwc, cmu, 
+                                 badmu, cz, now, ip, ret, dres, called, dl0, 
+                                 lpar, wfor, freeing, badret, vcount, taint4, 
+                                 taint5, stack, cn, cp, i, klist, w, tn, p, dn, 
+                                 nt, xn, xcl, wn, wp, wdl, fail, fn, fp, fi, 
+                                 fk, cdl, cv, cwk, objs, adl, single, wm, k, 
+                                 rt, cnt, rdy, enq, wq, unl, sdl, scn, sct, 
+                                 sldl, snear, sso, st, pn >>
 
 nc_5_l(self) == /\ pc[self] = "nc_5_l"
                 /\ IF disc[klist[self][i[self]]] = 0
@@ -579,27 +608,27 @@ nc_5_l(self) == /\ pc[self] = "nc_5_l"
                       ELSE /\ pc' = [pc EXCEPT ![self] = "nc_6_ul"]
                            /\ UNCHANGED << stack, cn, cp, i, klist, w >>
                 /\ UNCHANGED << live, notified, exp, par, kids, wts, disc, lk, 
-                                nww, sem, cval, cwaited, cq, clk, nwc, cz, now, 
-                                ip, ret, dres, called, dl0, lpar, wfor, 
-                                freeing, badret, vcount, uaf, taint4, taint5, 
-                                tn, p, dn, nt, xn, xcl, wn, wp, wdl, fail, fn, 
-                                fp, fi, fk, cdl, cv, cwk, objs, adl, single, k, 
-                                rt, cnt, rdy, enq, wq, sdl, scn, sct, sldl, 
-                                snear, sso, st, pn >>
+                                nww, sem, cval, cwaited, cq, clk, nwc, cmu, 
+                                badmu, cz, now, ip, ret, dres, called, dl0, 
+                                lpar, wfor, freeing, badret, vcount, uaf, 
+                                taint4, taint5, tn, p, dn, nt, xn, xcl, wn, wp, 
+                                wdl, fail, fn, fp, fi, fk, cdl, cv, cwk, objs, 
+                                adl, single, wm, k, rt, cnt, rdy, enq, wq, unl, 
+                                sdl, scn, sct, sldl, snear, sso, st, pn >>
 
 nc_6_ul(self) == /\ pc[self] = "nc_6_ul"
                  /\ lk' = [lk EXCEPT ![klist[self][i[self]]] = 0]
                  /\ i' = [i EXCEPT ![self] = i[self] + 1]
                  /\ pc' = [pc EXCEPT ![self] = "nc_k_l"]
                  /\ UNCHANGED << live, notified, exp, par, kids, wts, disc, 
-                                 nww, sem, cval, cwaited, cq, clk, nwc, cz, 
-                                 now, ip, ret, dres, called, dl0, lpar, wfor, 
-                                 freeing, badret, vcount, uaf, taint4, taint5, 
-                                 stack, cn, cp, klist, w, tn, p, dn, nt, xn, 
-                                 xcl, wn, wp, wdl, fail, fn, fp, fi, fk, cdl, 
-                                 cv, cwk, objs, adl, single, k, rt, cnt, rdy, 
-                                 enq, wq, sdl, scn, sct, sldl, snear, sso, st, 
-                                 pn >>
+                                 nww, sem, cval, cwaited, cq, clk, nwc, cmu, 
+                                 badmu, cz, now, ip, ret, dres, called, dl0, 
+                                 lpar, wfor, freeing, badret, vcount, uaf, 
+                                 taint4, taint5, stack, cn, cp, klist, w, tn, 
+                                 p, dn, nt, xn, xcl, wn, wp, wdl, fail, fn, fp, 
+                                 fi, fk, cdl, cv, cwk, objs, adl, single, wm, 
+                                 k, rt, cnt, rdy, enq, wq, unl, sdl, scn, sct, 
+                                 sldl, snear, sso, st, pn >>
 
 nc_7_r(self) == /\ pc[self] = "nc_7_r"
                 /\ IF kids[cn[self]] # <<>>
@@ -608,27 +637,28 @@ nc_7_r(self) == /\ pc[self] = "nc_7_r"
                       ELSE /\ pc' = [pc EXCEPT ![self] = "nc_9_l"]
                            /\ lk' = lk
                 /\ UNCHANGED << live, notified, exp, par, kids, wts, disc, nww, 
-                                sem, cval, cwaited, cq, clk, nwc, cz, now, ip, 
-                                ret, dres, called, dl0, lpar, wfor, freeing, 
-                                badret, vcount, uaf, taint4, taint5, stack, cn, 
-                                cp, i, klist, w, tn, p, dn, nt, xn, xcl, wn, 
-                                wp, wdl, fail, fn, fp, fi, fk, cdl, cv, cwk, 
-                                objs, adl, single, k, rt, cnt, rdy, enq, wq, 
-                                sdl, scn, sct, sldl, snear, sso, st, pn >>
+                                sem, cval, cwaited, cq, clk, nwc, cmu, badmu, 
+                                cz, now, ip, ret, dres, called, dl0, lpar, 
+                                wfor, freeing, badret, vcount, uaf, taint4, 
+                                taint5, stack, cn, cp, i, klist, w, tn, p, dn, 
+                                nt, xn, xcl, wn, wp, wdl, fail, fn, fp, fi, fk, 
+                                cdl, cv, cwk, objs, adl, single, wm, k, rt, 
+                                cnt, rdy, enq, wq, unl, sdl, scn, sct, sldl, 
+                                snear, sso, st, pn >>
 
 nc_8_lk(self) == /\ pc[self] = "nc_8_lk"
                  /\ lk[cn[self]] = 0 /\ kids[cn[self]] = <<>>
                  /\ lk' = [lk EXCEPT ![cn[self]] = self]
                  /\ pc' = [pc EXCEPT ![self] = "nc_9_l"]
                  /\ UNCHANGED << live, notified, exp, par, kids, wts, disc, 
-                                 nww, sem, cval, cwaited, cq, clk, nwc, cz, 
-                                 now, ip, ret, dres, called, dl0, lpar, wfor, 
-                                 freeing, badret, vcount, uaf, taint4, taint5, 
-                                 stack, cn, cp, i, klist, w, tn, p, dn, nt, xn, 
-                                 xcl, wn, wp, wdl, fail, fn, fp, fi, fk, cdl, 
-                                 cv, cwk, objs, adl, single, k, rt, cnt, rdy, 
-                                 enq, wq, sdl, scn, sct, sldl, snear, sso, st, 
-                                 pn >>
+                                 nww, sem, cval, cwaited, cq, clk, nwc, cmu, 
+                                 badmu, cz, now, ip, ret, dres, called, dl0, 
+                                 lpar, wfor, freeing, badret, vcount, uaf, 
+                                 taint4, taint5, stack, cn, cp, i, klist, w, 
+                                 tn, p, dn, nt, xn, xcl, wn, wp, wdl, fail, fn, 
+                                 fp, fi, fk, cdl, cv, cwk, objs, adl, single, 
+                                 wm, k, rt, cnt, rdy, enq, wq, unl, sdl, scn, 
+                                 sct, sldl, snear, sso, st, pn >>
 
 nc_9_l(self) == /\ pc[self] = "nc_9_l"
                 /\ IF cp[self] # 0
@@ -646,12 +676,13 @@ nc_9_l(self) == /\ pc[self] = "nc_9_l"
                 /\ cp' = [cp EXCEPT ![self] = Head(stack[self]).cp]
                 /\ stack' = [stack EXCEPT ![self] = Tail(stack[self])]
                 /\ UNCHANGED << live, notified, exp, wts, disc, lk, nww, sem, 
-                                cval, cwaited, cq, clk, nwc, cz, now, ip, ret, 
-                                dres, called, dl0, lpar, freeing, badret, 
-                                vcount, taint4, taint5, tn, p, dn, nt, xn, xcl, 
-                                wn, wp, wdl, fail, fn, fp, fi, fk, cdl, cv, 
-                                cwk, objs, adl, single, k, rt, cnt, rdy, enq, 
-                                wq, sdl, scn, sct, sldl, snear, sso, st, pn >>
+                                cval, cwaited, cq, clk, nwc, cmu, badmu, cz, 
+                                now, ip, ret, dres, called, dl0, lpar, freeing, 
+                                badret, vcount, taint4, taint5, tn, p, dn, nt, 
+                                xn, xcl, wn, wp, wdl, fail, fn, fp, fi, fk, 
+                                cdl, cv, cwk, objs, adl, single, wm, k, rt, 
+                                cnt, rdy, enq, wq, unl, sdl, scn, sct, sldl, 
+                                snear, sso, st, pn >>
 
 notify_child(self) == nc_1_ld(self) \/ nc_2_st(self) \/ nc_w_l(self)
                          \/ nc_3_st(self) \/ nc_4_v(self) \/ nc_k_l(self)
@@ -664,14 +695,14 @@ nt_1_lk(self) == /\ pc[self] = "nt_1_lk"
                  /\ uaf' = (uaf \/ Touch(tn[self]))
                  /\ pc' = [pc EXCEPT ![self] = "nt_2_ld"]
                  /\ UNCHANGED << live, notified, exp, par, kids, wts, disc, 
-                                 nww, sem, cval, cwaited, cq, clk, nwc, cz, 
-                                 now, ip, ret, dres, called, dl0, lpar, wfor, 
-                                 freeing, badret, vcount, taint4, taint5, 
-                                 stack, cn, cp, i, klist, w, tn, p, dn, nt, xn, 
-                                 xcl, wn, wp, wdl, fail, fn, fp, fi, fk, cdl, 
-                                 cv, cwk, objs, adl, single, k, rt, cnt, rdy, 
-                                 enq, wq, sdl, scn, sct, sldl, snear, sso, st, 
-                                 pn >>
+                                 nww, sem, cval, cwaited, cq, clk, nwc, cmu, 
+                                 badmu, cz, now, ip, ret, dres, called, dl0, 
+                                 lpar, wfor, freeing, badret, vcount, taint4, 
+                                 taint5, stack, cn, cp, i, klist, w, tn, p, dn, 
+                                 nt, xn, xcl, wn, wp, wdl, fail, fn, fp, fi, 
+                                 fk, cdl, cv, cwk, objs, adl, single, wm, k, 
+                                 rt, cnt, rdy, enq, wq, unl, sdl, scn, sct, 
+                                 sldl, snear, sso, st, pn >>
 
 nt_2_ld(self) == /\ pc[self] = "nt_2_ld"
                  /\ IF NTime(tn[self]) = ZERO
@@ -681,27 +712,28 @@ nt_2_ld(self) == /\ pc[self] = "nt_2_ld"
                             /\ p' = [p EXCEPT ![self] = par[tn[self]]]
                             /\ pc' = [pc EXCEPT ![self] = "nt_2_l"]
                  /\ UNCHANGED << live, notified, exp, par, kids, wts, lk, nww, 
-                                 sem, cval, cwaited, cq, clk, nwc, cz, now, ip, 
-                                 ret, dres, called, dl0, lpar, wfor, freeing, 
-                                 badret, vcount, uaf, taint4, taint5, stack, 
-                                 cn, cp, i, klist, w, tn, dn, nt, xn, xcl, wn, 
-                                 wp, wdl, fail, fn, fp, fi, fk, cdl, cv, cwk, 
-                                 objs, adl, single, k, rt, cnt, rdy, enq, wq, 
-                                 sdl, scn, sct, sldl, snear, sso, st, pn >>
+                                 sem, cval, cwaited, cq, clk, nwc, cmu, badmu, 
+                                 cz, now, ip, ret, dres, called, dl0, lpar, 
+                                 wfor, freeing, badret, vcount, uaf, taint4, 
+                                 taint5, stack, cn, cp, i, klist, w, tn, dn, 
+                                 nt, xn, xcl, wn, wp, wdl, fail, fn, fp, fi, 
+                                 fk, cdl, cv, cwk, objs, adl, single, wm, k, 
+                                 rt, cnt, rdy, enq, wq, unl, sdl, scn, sct, 
+                                 sldl, snear, sso, st, pn >>
 
 nt_2_l(self) == /\ pc[self] = "nt_2_l"
                 /\ IF p[self] = 0
                       THEN /\ pc' = [pc EXCEPT ![self] = "nt_7_l"]
                       ELSE /\ pc' = [pc EXCEPT ![self] = "nt_3_r"]
                 /\ UNCHANGED << live, notified, exp, par, kids, wts, disc, lk, 
-                                nww, sem, cval, cwaited, cq, clk, nwc, cz, now, 
-                                ip, ret, dres, called, dl0, lpar, wfor, 
-                                freeing, badret, vcount, uaf, taint4, taint5, 
-                                stack, cn, cp, i, klist, w, tn, p, dn, nt, xn, 
-                                xcl, wn, wp, wdl, fail, fn, fp, fi, fk, cdl, 
-                                cv, cwk, objs, adl, single, k, rt, cnt, rdy, 
-                                enq, wq, sdl, scn, sct, sldl, snear, sso, st, 
-                                pn >>
+                                nww, sem, cval, cwaited, cq, clk, nwc, cmu, 
+                                badmu, cz, now, ip, ret, dres, called, dl0, 
+                                lpar, wfor, freeing, badret, vcount, uaf, 
+                                taint4, taint5, stack, cn, cp, i, klist, w, tn, 
+                                p, dn, nt, xn, xcl, wn, wp, wdl, fail, fn, fp, 
+                                fi, fk, cdl, cv, cwk, objs, adl, single, wm, k, 
+                                rt, cnt, rdy, enq, wq, unl, sdl, scn, sct, 
+                                sldl, snear, sso, st, pn >>
 
 nt_3_r(self) == /\ pc[self] = "nt_3_r"
                 /\ uaf' = (uaf \/ Touch(p[self]))
@@ -711,26 +743,27 @@ nt_3_r(self) == /\ pc[self] = "nt_3_r"
                       ELSE /\ pc' = [pc EXCEPT ![self] = "nt_4_ul"]
                            /\ lk' = lk
                 /\ UNCHANGED << live, notified, exp, par, kids, wts, disc, nww, 
-                                sem, cval, cwaited, cq, clk, nwc, cz, now, ip, 
-                                ret, dres, called, dl0, lpar, wfor, freeing, 
-                                badret, vcount, taint4, taint5, stack, cn, cp, 
-                                i, klist, w, tn, p, dn, nt, xn, xcl, wn, wp, 
-                                wdl, fail, fn, fp, fi, fk, cdl, cv, cwk, objs, 
-                                adl, single, k, rt, cnt, rdy, enq, wq, sdl, 
-                                scn, sct, sldl, snear, sso, st, pn >>
+                                sem, cval, cwaited, cq, clk, nwc, cmu, badmu, 
+                                cz, now, ip, ret, dres, called, dl0, lpar, 
+                                wfor, freeing, badret, vcount, taint4, taint5, 
+                                stack, cn, cp, i, klist, w, tn, p, dn, nt, xn, 
+                                xcl, wn, wp, wdl, fail, fn, fp, fi, fk, cdl, 
+                                cv, cwk, objs, adl, single, wm, k, rt, cnt, 
+                                rdy, enq, wq, unl, sdl, scn, sct, sldl, snear, 
+                                sso, st, pn >>
 
 nt_4_ul(self) == /\ pc[self] = "nt_4_ul"
                  /\ lk' = [lk EXCEPT ![tn[self]] = 0]
                  /\ pc' = [pc EXCEPT ![self] = "nt_5_lk"]
                  /\ UNCHANGED << live, notified, exp, par, kids, wts, disc, 
-                                 nww, sem, cval, cwaited, cq, clk, nwc, cz, 
-                                 now, ip, ret, dres, called, dl0, lpar, wfor, 
-                                 freeing, badret, vcount, uaf, taint4, taint5, 
-                                 stack, cn, cp, i, klist, w, tn, p, dn, nt, xn, 
-                                 xcl, wn, wp, wdl, fail, fn, fp, fi, fk, cdl, 
-                                 cv, cwk, objs, adl, single, k, rt, cnt, rdy, 
-                                 enq, wq, sdl, scn, sct, sldl, snear, sso, st, 
-                                 pn >>
+                                 nww, sem, cval, cwaited, cq, clk, nwc, cmu, 
+                                 badmu, cz, now, ip, ret, dres, called, dl0, 
+                                 lpar, wfor, freeing, badret, vcount, uaf, 
+                                 taint4, taint5, stack, cn, cp, i, klist, w, 
+                                 tn, p, dn, nt, xn, xcl, wn, wp, wdl, fail, fn, 
+                                 fp, fi, fk, cdl, cv, cwk, objs, adl, single, 
+                                 wm, k, rt, cnt, rdy, enq, wq, unl, sdl, scn, 
+                                 sct, sldl, snear, sso, st, pn >>
 
 nt_5_lk(self) == /\ pc[self] = "nt_5_lk"
                  /\ lk[p[self]] = 0
@@ -739,27 +772,28 @@ nt_5_lk(self) == /\ pc[self] = "nt_5_lk"
                  /\ taint5' = (taint5 \/ (par[tn[self]] # p[self]))
                  /\ pc' = [pc EXCEPT ![self] = "nt_6_lk"]
                  /\ UNCHANGED << live, notified, exp, par, kids, wts, disc, 
-                                 nww, sem, cval, cwaited, cq, clk, nwc, cz, 
-                                 now, ip, ret, dres, called, dl0, lpar, wfor, 
-                                 freeing, badret, vcount, taint4, stack, cn, 
-                                 cp, i, klist, w, tn, p, dn, nt, xn, xcl, wn, 
-                                 wp, wdl, fail, fn, fp, fi, fk, cdl, cv, cwk, 
-                                 objs, adl, single, k, rt, cnt, rdy, enq, wq, 
-                                 sdl, scn, sct, sldl, snear, sso, st, pn >>
+                                 nww, sem, cval, cwaited, cq, clk, nwc, cmu, 
+                                 badmu, cz, now, ip, ret, dres, called, dl0, 
+                                 lpar, wfor, freeing, badret, vcount, taint4, 
+                                 stack, cn, cp, i, klist, w, tn, p, dn, nt, xn, 
+                                 xcl, wn, wp, wdl, fail, fn, fp, fi, fk, cdl, 
+                                 cv, cwk, objs, adl, single, wm, k, rt, cnt, 
+                                 rdy, enq, wq, unl, sdl, scn, sct, sldl, snear, 
+                                 sso, st, pn >>
 
 nt_6_lk(self) == /\ pc[self] = "nt_6_lk"
                  /\ lk[tn[self]] = 0
                  /\ lk' = [lk EXCEPT ![tn[self]] = self]
                  /\ pc' = [pc EXCEPT ![self] = "nt_7_l"]
                  /\ UNCHANGED << live, notified, exp, par, kids, wts, disc, 
-                                 nww, sem, cval, cwaited, cq, clk, nwc, cz, 
-                                 now, ip, ret, dres, called, dl0, lpar, wfor, 
-                                 freeing, badret, vcount, uaf, taint4, taint5, 
-                                 stack, cn, cp, i, klist, w, tn, p, dn, nt, xn, 
-                                 xcl, wn, wp, wdl, fail, fn, fp, fi, fk, cdl, 
-                                 cv, cwk, objs, adl, single, k, rt, cnt, rdy, 
-                                 enq, wq, sdl, scn, sct, sldl, snear, sso, st, 
-                                 pn >>
+                                 nww, sem, cval, cwaited, cq, clk, nwc, cmu, 
+                                 badmu, cz, now, ip, ret, dres, called, dl0, 
+                                 lpar, wfor, freeing, badret, vcount, uaf, 
+                                 taint4, taint5, stack, cn, cp, i, klist, w, 
+                                 tn, p, dn, nt, xn, xcl, wn, wp, wdl, fail, fn, 
+                                 fp, fi, fk, cdl, cv, cwk, objs, adl, single, 
+                                 wm, k, rt, cnt, rdy, enq, wq, unl, sdl, scn, 
+                                 sct, sldl, snear, sso, st, pn >>
 
 nt_7_l(self) == /\ pc[self] = "nt_7_l"
                 /\ /\ cn' = [cn EXCEPT ![self] = tn[self]]
@@ -777,53 +811,54 @@ nt_7_l(self) == /\ pc[self] = "nt_7_l"
                 /\ w' = [w EXCEPT ![self] = 0]
                 /\ pc' = [pc EXCEPT ![self] = "nc_1_ld"]
                 /\ UNCHANGED << live, notified, exp, par, kids, wts, disc, lk, 
-                                nww, sem, cval, cwaited, cq, clk, nwc, cz, now, 
-                                ip, ret, dres, called, dl0, lpar, wfor, 
-                                freeing, badret, vcount, uaf, taint4, taint5, 
-                                tn, p, dn, nt, xn, xcl, wn, wp, wdl, fail, fn, 
-                                fp, fi, fk, cdl, cv, cwk, objs, adl, single, k, 
-                                rt, cnt, rdy, enq, wq, sdl, scn, sct, sldl, 
-                                snear, sso, st, pn >>
+                                nww, sem, cval, cwaited, cq, clk, nwc, cmu, 
+                                badmu, cz, now, ip, ret, dres, called, dl0, 
+                                lpar, wfor, freeing, badret, vcount, uaf, 
+                                taint4, taint5, tn, p, dn, nt, xn, xcl, wn, wp, 
+                                wdl, fail, fn, fp, fi, fk, cdl, cv, cwk, objs, 
+                                adl, single, wm, k, rt, cnt, rdy, enq, wq, unl, 
+                                sdl, scn, sct, sldl, snear, sso, st, pn >>
 
 nt_7b_l(self) == /\ pc[self] = "nt_7b_l"
                  /\ IF p[self] = 0
                        THEN /\ pc' = [pc EXCEPT ![self] = "nt_7c_l"]
                        ELSE /\ pc' = [pc EXCEPT ![self] = "nt_7_ul"]
                  /\ UNCHANGED << live, notified, exp, par, kids, wts, disc, lk, 
-                                 nww, sem, cval, cwaited, cq, clk, nwc, cz, 
-                                 now, ip, ret, dres, called, dl0, lpar, wfor, 
-                                 freeing, badret, vcount, uaf, taint4, taint5, 
-                                 stack, cn, cp, i, klist, w, tn, p, dn, nt, xn, 
-                                 xcl, wn, wp, wdl, fail, fn, fp, fi, fk, cdl, 
-                                 cv, cwk, objs, adl, single, k, rt, cnt, rdy, 
-                                 enq, wq, sdl, scn, sct, sldl, snear, sso, st, 
-                                 pn >>
+                                 nww, sem, cval, cwaited, cq, clk, nwc, cmu, 
+                                 badmu, cz, now, ip, ret, dres, called, dl0, 
+                                 lpar, wfor, freeing, badret, vcount, uaf, 
+                                 taint4, taint5, stack, cn, cp, i, klist, w, 
+                                 tn, p, dn, nt, xn, xcl, wn, wp, wdl, fail, fn, 
+                                 fp, fi, fk, cdl, cv, cwk, objs, adl, single, 
+                                 wm, k, rt, cnt, rdy, enq, wq, unl, sdl, scn, 
+                                 sct, sldl, snear, sso, st, pn >>
 
 nt_7_ul(self) == /\ pc[self] = "nt_7_ul"
                  /\ lk' = [lk EXCEPT ![p[self]] = 0]
                  /\ uaf' = (uaf \/ Touch(p[self]))
                  /\ pc' = [pc EXCEPT ![self] = "nt_7c_l"]
                  /\ UNCHANGED << live, notified, exp, par, kids, wts, disc, 
-                                 nww, sem, cval, cwaited, cq, clk, nwc, cz, 
-                                 now, ip, ret, dres, called, dl0, lpar, wfor, 
-                                 freeing, badret, vcount, taint4, taint5, 
-                                 stack, cn, cp, i, klist, w, tn, p, dn, nt, xn, 
-                                 xcl, wn, wp, wdl, fail, fn, fp, fi, fk, cdl, 
-                                 cv, cwk, objs, adl, single, k, rt, cnt, rdy, 
-                                 enq, wq, sdl, scn, sct, sldl, snear, sso, st, 
-                                 pn >>
+                                 nww, sem, cval, cwaited, cq, clk, nwc, cmu, 
+                                 badmu, cz, now, ip, ret, dres, called, dl0, 
+                                 lpar, wfor, freeing, badret, vcount, taint4, 
+                                 taint5, stack, cn, cp, i, klist, w, tn, p, dn, 
+                                 nt, xn, xcl, wn, wp, wdl, fail, fn, fp, fi, 
+                                 fk, cdl, cv, cwk, objs, adl, single, wm, k, 
+                                 rt, cnt, rdy, enq, wq, unl, sdl, scn, sct, 
+                                 sldl, snear, sso, st, pn >>
 
 nt_7c_l(self) == /\ pc[self] = "nt_7c_l"
                  /\ disc' = [disc EXCEPT ![tn[self]] = disc[tn[self]] - 1]
                  /\ pc' = [pc EXCEPT ![self] = "nt_8_ul"]
                  /\ UNCHANGED << live, notified, exp, par, kids, wts, lk, nww, 
-                                 sem, cval, cwaited, cq, clk, nwc, cz, now, ip, 
-                                 ret, dres, called, dl0, lpar, wfor, freeing, 
-                                 badret, vcount, uaf, taint4, taint5, stack, 
-                                 cn, cp, i, klist, w, tn, p, dn, nt, xn, xcl, 
-                                 wn, wp, wdl, fail, fn, fp, fi, fk, cdl, cv, 
-                                 cwk, objs, adl, single, k, rt, cnt, rdy, enq, 
-                                 wq, sdl, scn, sct, sldl, snear, sso, st, pn >>
+                                 sem, cval, cwaited, cq, clk, nwc, cmu, badmu, 
+                                 cz, now, ip, ret, dres, called, dl0, lpar, 
+                                 wfor, freeing, badret, vcount, uaf, taint4, 
+                                 taint5, stack, cn, cp, i, klist, w, tn, p, dn, 
+                                 nt, xn, xcl, wn, wp, wdl, fail, fn, fp, fi, 
+                                 fk, cdl, cv, cwk, objs, adl, single, wm, k, 
+                                 rt, cnt, rdy, enq, wq, unl, sdl, scn, sct, 
+                                 sldl, snear, sso, st, pn >>
 
 nt_8_ul(self) == /\ pc[self] = "nt_8_ul"
                  /\ lk' = [lk EXCEPT ![tn[self]] = 0]
@@ -832,13 +867,14 @@ nt_8_ul(self) == /\ pc[self] = "nt_8_ul"
                  /\ tn' = [tn EXCEPT ![self] = Head(stack[self]).tn]
                  /\ stack' = [stack EXCEPT ![self] = Tail(stack[self])]
                  /\ UNCHANGED << live, notified, exp, par, kids, wts, disc, 
-                                 nww, sem, cval, cwaited, cq, clk, nwc, cz, 
-                                 now, ip, ret, dres, called, dl0, lpar, wfor, 
-                                 freeing, badret, vcount, uaf, taint4, taint5, 
-                                 cn, cp, i, klist, w, dn, nt, xn, xcl, wn, wp, 
-                                 wdl, fail, fn, fp, fi, fk, cdl, cv, cwk, objs, 
-                                 adl, single, k, rt, cnt, rdy, enq, wq, sdl, 
-                                 scn, sct, sldl, snear, sso, st, pn >>
+                                 nww, sem, cval, cwaited, cq, clk, nwc, cmu, 
+                                 badmu, cz, now, ip, ret, dres, called, dl0, 
+                                 lpar, wfor, freeing, badret, vcount, uaf, 
+                                 taint4, taint5, cn, cp, i, klist, w, dn, nt, 
+                                 xn, xcl, wn, wp, wdl, fail, fn, fp, fi, fk, 
+                                 cdl, cv, cwk, objs, adl, single, wm, k, rt, 
+                                 cnt, rdy, enq, wq, unl, sdl, scn, sct, sldl, 
+                                 snear, sso, st, pn >>
 
 notify(self) == nt_1_lk(self) \/ nt_2_ld(self) \/ nt_2_l(self)
                    \/ nt_3_r(self) \/ nt_4_ul(self) \/ nt_5_lk(self)
@@ -856,40 +892,40 @@ nd_1_ld(self) == /\ pc[self] = "nd_1_ld"
                        ELSE /\ pc' = [pc EXCEPT ![self] = "nd_2_lk"]
                             /\ UNCHANGED << dres, stack, dn, nt >>
                  /\ UNCHANGED << live, notified, exp, par, kids, wts, disc, lk, 
-                                 nww, sem, cval, cwaited, cq, clk, nwc, cz, 
-                                 now, ip, ret, called, dl0, lpar, wfor, 
-                                 freeing, badret, vcount, taint4, taint5, cn, 
-                                 cp, i, klist, w, tn, p, xn, xcl, wn, wp, wdl, 
-                                 fail, fn, fp, fi, fk, cdl, cv, cwk, objs, adl, 
-                                 single, k, rt, cnt, rdy, enq, wq, sdl, scn, 
-                                 sct, sldl, snear, sso, st, pn >>
+                                 nww, sem, cval, cwaited, cq, clk, nwc, cmu, 
+                                 badmu, cz, now, ip, ret, called, dl0, lpar, 
+                                 wfor, freeing, badret, vcount, taint4, taint5, 
+                                 cn, cp, i, klist, w, tn, p, xn, xcl, wn, wp, 
+                                 wdl, fail, fn, fp, fi, fk, cdl, cv, cwk, objs, 
+                                 adl, single, wm, k, rt, cnt, rdy, enq, wq, 
+                                 unl, sdl, scn, sct, sldl, snear, sso, st, pn >>
 
 nd_2_lk(self) == /\ pc[self] = "nd_2_lk"
                  /\ lk[dn[self]] = 0
                  /\ lk' = [lk EXCEPT ![dn[self]] = self]
                  /\ pc' = [pc EXCEPT ![self] = "nd_3_ld"]
                  /\ UNCHANGED << live, notified, exp, par, kids, wts, disc, 
-                                 nww, sem, cval, cwaited, cq, clk, nwc, cz, 
-                                 now, ip, ret, dres, called, dl0, lpar, wfor, 
-                                 freeing, badret, vcount, uaf, taint4, taint5, 
-                                 stack, cn, cp, i, klist, w, tn, p, dn, nt, xn, 
-                                 xcl, wn, wp, wdl, fail, fn, fp, fi, fk, cdl, 
-                                 cv, cwk, objs, adl, single, k, rt, cnt, rdy, 
-                                 enq, wq, sdl, scn, sct, sldl, snear, sso, st, 
-                                 pn >>
+                                 nww, sem, cval, cwaited, cq, clk, nwc, cmu, 
+                                 badmu, cz, now, ip, ret, dres, called, dl0, 
+                                 lpar, wfor, freeing, badret, vcount, uaf, 
+                                 taint4, taint5, stack, cn, cp, i, klist, w, 
+                                 tn, p, dn, nt, xn, xcl, wn, wp, wdl, fail, fn, 
+                                 fp, fi, fk, cdl, cv, cwk, objs, adl, single, 
+                                 wm, k, rt, cnt, rdy, enq, wq, unl, sdl, scn, 
+                                 sct, sldl, snear, sso, st, pn >>
 
 nd_3_ld(self) == /\ pc[self] = "nd_3_ld"
                  /\ nt' = [nt EXCEPT ![self] = NTime(dn[self])]
                  /\ pc' = [pc EXCEPT ![self] = "nd_4_ul"]
                  /\ UNCHANGED << live, notified, exp, par, kids, wts, disc, lk, 
-                                 nww, sem, cval, cwaited, cq, clk, nwc, cz, 
-                                 now, ip, ret, dres, called, dl0, lpar, wfor, 
-                                 freeing, badret, vcount, uaf, taint4, taint5, 
-                                 stack, cn, cp, i, klist, w, tn, p, dn, xn, 
-                                 xcl, wn, wp, wdl, fail, fn, fp, fi, fk, cdl, 
-                                 cv, cwk, objs, adl, single, k, rt, cnt, rdy, 
-                                 enq, wq, sdl, scn, sct, sldl, snear, sso, st, 
-                                 pn >>
+                                 nww, sem, cval, cwaited, cq, clk, nwc, cmu, 
+                                 badmu, cz, now, ip, ret, dres, called, dl0, 
+                                 lpar, wfor, freeing, badret, vcount, uaf, 
+                                 taint4, taint5, stack, cn, cp, i, klist, w, 
+                                 tn, p, dn, xn, xcl, wn, wp, wdl, fail, fn, fp, 
+                                 fi, fk, cdl, cv, cwk, objs, adl, single, wm, 
+                                 k, rt, cnt, rdy, enq, wq, unl, sdl, scn, sct, 
+                                 sldl, snear, sso, st, pn >>
 
 nd_4_ul(self) == /\ pc[self] = "nd_4_ul"
                  /\ lk' = [lk EXCEPT ![dn[self]] = 0]
@@ -910,13 +946,13 @@ nd_4_ul(self) == /\ pc[self] = "nd_4_ul"
                             /\ stack' = [stack EXCEPT ![self] = Tail(stack[self])]
                             /\ UNCHANGED << tn, p >>
                  /\ UNCHANGED << live, notified, exp, par, kids, wts, disc, 
-                                 nww, sem, cval, cwaited, cq, clk, nwc, cz, 
-                                 now, ip, ret, called, dl0, lpar, wfor, 
-                                 freeing, badret, vcount, uaf, taint4, taint5, 
-                                 cn, cp, i, klist, w, xn, xcl, wn, wp, wdl, 
-                                 fail, fn, fp, fi, fk, cdl, cv, cwk, objs, adl, 
-                                 single, k, rt, cnt, rdy, enq, wq, sdl, scn, 
-                                 sct, sldl, snear, sso, st, pn >>
+                                 nww, sem, cval, cwaited, cq, clk, nwc, cmu, 
+                                 badmu, cz, now, ip, ret, called, dl0, lpar, 
+                                 wfor, freeing, badret, vcount, uaf, taint4, 
+                                 taint5, cn, cp, i, klist, w, xn, xcl, wn, wp, 
+                                 wdl, fail, fn, fp, fi, fk, cdl, cv, cwk, objs, 
+                                 adl, single, wm, k, rt, cnt, rdy, enq, wq, 
+                                 unl, sdl, scn, sct, sldl, snear, sso, st, pn >>
 
 nd_5_l(self) == /\ pc[self] = "nd_5_l"
                 /\ dres' = [dres EXCEPT ![self] = ZERO]
@@ -925,13 +961,14 @@ nd_5_l(self) == /\ pc[self] = "nd_5_l"
                 /\ dn' = [dn EXCEPT ![self] = Head(stack[self]).dn]
                 /\ stack' = [stack EXCEPT ![self] = Tail(stack[self])]
                 /\ UNCHANGED << live, notified, exp, par, kids, wts, disc, lk, 
-                                nww, sem, cval, cwaited, cq, clk, nwc, cz, now, 
-                                ip, ret, called, dl0, lpar, wfor, freeing, 
-                                badret, vcount, uaf, taint4, taint5, cn, cp, i, 
-                                klist, w, tn, p, xn, xcl, wn, wp, wdl, fail, 
-                                fn, fp, fi, fk, cdl, cv, cwk, objs, adl, 
-                                single, k, rt, cnt, rdy, enq, wq, sdl, scn, 
-                                sct, sldl, snear, sso, st, pn >>
+                                nww, sem, cval, cwaited, cq, clk, nwc, cmu, 
+                                badmu, cz, now, ip, ret, called, dl0, lpar, 
+                                wfor, freeing, badret, vcount, uaf, taint4, 
+                                taint5, cn, cp, i, klist, w, tn, p, xn, xcl, 
+                                wn, wp, wdl, fail, fn, fp, fi, fk, cdl, cv, 
+                                cwk, objs, adl, single, wm, k, rt, cnt, rdy, 
+                                enq, wq, unl, sdl, scn, sct, sldl, snear, sso, 
+                                st, pn >>
 
 ndeadline(self) == nd_1_ld(self) \/ nd_2_lk(self) \/ nd_3_ld(self)
                       \/ nd_4_ul(self) \/ nd_5_l(self)
@@ -947,13 +984,13 @@ nx_0_l(self) == /\ pc[self] = "nx_0_l"
                 /\ nt' = [nt EXCEPT ![self] = 0]
                 /\ pc' = [pc EXCEPT ![self] = "nd_1_ld"]
                 /\ UNCHANGED << live, notified, exp, par, kids, wts, disc, lk, 
-                                nww, sem, cval, cwaited, cq, clk, nwc, cz, now, 
-                                ip, ret, dres, dl0, lpar, wfor, freeing, 
-                                badret, vcount, uaf, taint4, taint5, cn, cp, i, 
-                                klist, w, tn, p, xn, xcl, wn, wp, wdl, fail, 
-                                fn, fp, fi, fk, cdl, cv, cwk, objs, adl, 
-                                single, k, rt, cnt, rdy, enq, wq, sdl, scn, 
-                                sct, sldl, snear, sso, st, pn >>
+                                nww, sem, cval, cwaited, cq, clk, nwc, cmu, 
+                                badmu, cz, now, ip, ret, dres, dl0, lpar, wfor, 
+                                freeing, badret, vcount, uaf, taint4, taint5, 
+                                cn, cp, i, klist, w, tn, p, xn, xcl, wn, wp, 
+                                wdl, fail, fn, fp, fi, fk, cdl, cv, cwk, objs, 
+                                adl, single, wm, k, rt, cnt, rdy, enq, wq, unl, 
+                                sdl, scn, sct, sldl, snear, sso, st, pn >>
 
 nx_1_l(self) == /\ pc[self] = "nx_1_l"
                 /\ IF dres[self] > ZERO
@@ -968,13 +1005,14 @@ nx_1_l(self) == /\ pc[self] = "nx_1_l"
                       ELSE /\ pc' = [pc EXCEPT ![self] = "nx_2_l"]
                            /\ UNCHANGED << stack, tn, p >>
                 /\ UNCHANGED << live, notified, exp, par, kids, wts, disc, lk, 
-                                nww, sem, cval, cwaited, cq, clk, nwc, cz, now, 
-                                ip, ret, dres, called, dl0, lpar, wfor, 
-                                freeing, badret, vcount, uaf, taint4, taint5, 
-                                cn, cp, i, klist, w, dn, nt, xn, xcl, wn, wp, 
-                                wdl, fail, fn, fp, fi, fk, cdl, cv, cwk, objs, 
-                                adl, single, k, rt, cnt, rdy, enq, wq, sdl, 
-                                scn, sct, sldl, snear, sso, st, pn >>
+                                nww, sem, cval, cwaited, cq, clk, nwc, cmu, 
+                                badmu, cz, now, ip, ret, dres, called, dl0, 
+                                lpar, wfor, freeing, badret, vcount, uaf, 
+                                taint4, taint5, cn, cp, i, klist, w, dn, nt, 
+                                xn, xcl, wn, wp, wdl, fail, fn, fp, fi, fk, 
+                                cdl, cv, cwk, objs, adl, single, wm, k, rt, 
+                                cnt, rdy, enq, wq, unl, sdl, scn, sct, sldl, 
+                                snear, sso, st, pn >>
 
 nx_2_l(self) == /\ pc[self] = "nx_2_l"
                 /\ IF xcl[self]
@@ -986,13 +1024,14 @@ nx_2_l(self) == /\ pc[self] = "nx_2_l"
                 /\ xcl' = [xcl EXCEPT ![self] = Head(stack[self]).xcl]
                 /\ stack' = [stack EXCEPT ![self] = Tail(stack[self])]
                 /\ UNCHANGED << live, notified, exp, par, kids, wts, disc, lk, 
-                                nww, sem, cval, cwaited, cq, clk, nwc, cz, now, 
-                                ip, dres, called, dl0, lpar, wfor, freeing, 
-                                badret, vcount, uaf, taint4, taint5, cn, cp, i, 
-                                klist, w, tn, p, dn, nt, wn, wp, wdl, fail, fn, 
-                                fp, fi, fk, cdl, cv, cwk, objs, adl, single, k, 
-                                rt, cnt, rdy, enq, wq, sdl, scn, sct, sldl, 
-                                snear, sso, st, pn >>
+                                nww, sem, cval, cwaited, cq, clk, nwc, cmu, 
+                                badmu, cz, now, ip, dres, called, dl0, lpar, 
+                                wfor, freeing, badret, vcount, uaf, taint4, 
+                                taint5, cn, cp, i, klist, w, tn, p, dn, nt, wn, 
+                                wp, wdl, fail, fn, fp, fi, fk, cdl, cv, cwk, 
+                                objs, adl, single, wm, k, rt, cnt, rdy, enq, 
+                                wq, unl, sdl, scn, sct, sldl, snear, sso, st, 
+                                pn >>
 
 nnotify(self) == nx_0_l(self) \/ nx_1_l(self) \/ nx_2_l(self)
 
@@ -1013,12 +1052,13 @@ nn_0_l(self) == /\ pc[self] = "nn_0_l"
                            /\ pc' = [pc EXCEPT ![self] = "nn_1_l"]
                            /\ UNCHANGED << ret, stack, wn, wp, wdl, fail >>
                 /\ UNCHANGED << notified, par, kids, wts, disc, lk, nww, sem, 
-                                cval, cwaited, cq, clk, nwc, cz, now, ip, dres, 
-                                called, wfor, freeing, badret, vcount, uaf, 
-                                taint4, taint5, cn, cp, i, klist, w, tn, p, dn, 
-                                nt, xn, xcl, fn, fp, fi, fk, cdl, cv, cwk, 
-                                objs, adl, single, k, rt, cnt, rdy, enq, wq, 
-                                sdl, scn, sct, sldl, snear, sso, st, pn >>
+                                cval, cwaited, cq, clk, nwc, cmu, badmu, cz, 
+                                now, ip, dres, called, wfor, freeing, badret, 
+                                vcount, uaf, taint4, taint5, cn, cp, i, klist, 
+                                w, tn, p, dn, nt, xn, xcl, fn, fp, fi, fk, cdl, 
+                                cv, cwk, objs, adl, single, wm, k, rt, cnt, 
+                                rdy, enq, wq, unl, sdl, scn, sct, sldl, snear, 
+                                sso, st, pn >>
 
 nn_1_l(self) == /\ pc[self] = "nn_1_l"
                 /\ /\ dn' = [dn EXCEPT ![self] = wn[self]]
@@ -1030,13 +1070,14 @@ nn_1_l(self) == /\ pc[self] = "nn_1_l"
                 /\ nt' = [nt EXCEPT ![self] = 0]
                 /\ pc' = [pc EXCEPT ![self] = "nd_1_ld"]
                 /\ UNCHANGED << live, notified, exp, par, kids, wts, disc, lk, 
-                                nww, sem, cval, cwaited, cq, clk, nwc, cz, now, 
-                                ip, ret, dres, called, dl0, lpar, wfor, 
-                                freeing, badret, vcount, uaf, taint4, taint5, 
-                                cn, cp, i, klist, w, tn, p, xn, xcl, wn, wp, 
-                                wdl, fail, fn, fp, fi, fk, cdl, cv, cwk, objs, 
-                                adl, single, k, rt, cnt, rdy, enq, wq, sdl, 
-                                scn, sct, sldl, snear, sso, st, pn >>
+                                nww, sem, cval, cwaited, cq, clk, nwc, cmu, 
+                                badmu, cz, now, ip, ret, dres, called, dl0, 
+                                lpar, wfor, freeing, badret, vcount, uaf, 
+                                taint4, taint5, cn, cp, i, klist, w, tn, p, xn, 
+                                xcl, wn, wp, wdl, fail, fn, fp, fi, fk, cdl, 
+                                cv, cwk, objs, adl, single, wm, k, rt, cnt, 
+                                rdy, enq, wq, unl, sdl, scn, sct, sldl, snear, 
+                                sso, st, pn >>
 
 nn_2_l(self) == /\ pc[self] = "nn_2_l"
                 /\ IF dres[self] = ZERO \/ wp[self] = 0
@@ -1051,13 +1092,13 @@ nn_2_l(self) == /\ pc[self] = "nn_2_l"
                       ELSE /\ pc' = [pc EXCEPT ![self] = "nn_3_lk"]
                            /\ UNCHANGED << live, ret, stack, wn, wp, wdl, fail >>
                 /\ UNCHANGED << notified, exp, par, kids, wts, disc, lk, nww, 
-                                sem, cval, cwaited, cq, clk, nwc, cz, now, ip, 
-                                dres, called, dl0, lpar, wfor, freeing, badret, 
-                                vcount, uaf, taint4, taint5, cn, cp, i, klist, 
-                                w, tn, p, dn, nt, xn, xcl, fn, fp, fi, fk, cdl, 
-                                cv, cwk, objs, adl, single, k, rt, cnt, rdy, 
-                                enq, wq, sdl, scn, sct, sldl, snear, sso, st, 
-                                pn >>
+                                sem, cval, cwaited, cq, clk, nwc, cmu, badmu, 
+                                cz, now, ip, dres, called, dl0, lpar, wfor, 
+                                freeing, badret, vcount, uaf, taint4, taint5, 
+                                cn, cp, i, klist, w, tn, p, dn, nt, xn, xcl, 
+                                fn, fp, fi, fk, cdl, cv, cwk, objs, adl, 
+                                single, wm, k, rt, cnt, rdy, enq, wq, unl, sdl, 
+                                scn, sct, sldl, snear, sso, st, pn >>
 
 nn_3_lk(self) == /\ pc[self] = "nn_3_lk"
                  /\ lk[wp[self]] = 0
@@ -1065,14 +1106,14 @@ nn_3_lk(self) == /\ pc[self] = "nn_3_lk"
                  /\ uaf' = (uaf \/ Touch(wp[self]))
                  /\ pc' = [pc EXCEPT ![self] = "nn_4_ld"]
                  /\ UNCHANGED << live, notified, exp, par, kids, wts, disc, 
-                                 nww, sem, cval, cwaited, cq, clk, nwc, cz, 
-                                 now, ip, ret, dres, called, dl0, lpar, wfor, 
-                                 freeing, badret, vcount, taint4, taint5, 
-                                 stack, cn, cp, i, klist, w, tn, p, dn, nt, xn, 
-                                 xcl, wn, wp, wdl, fail, fn, fp, fi, fk, cdl, 
-                                 cv, cwk, objs, adl, single, k, rt, cnt, rdy, 
-                                 enq, wq, sdl, scn, sct, sldl, snear, sso, st, 
-                                 pn >>
+                                 nww, sem, cval, cwaited, cq, clk, nwc, cmu, 
+                                 badmu, cz, now, ip, ret, dres, called, dl0, 
+                                 lpar, wfor, freeing, badret, vcount, taint4, 
+                                 taint5, stack, cn, cp, i, klist, w, tn, p, dn, 
+                                 nt, xn, xcl, wn, wp, wdl, fail, fn, fp, fi, 
+                                 fk, cdl, cv, cwk, objs, adl, single, wm, k, 
+                                 rt, cnt, rdy, enq, wq, unl, sdl, scn, sct, 
+                                 sldl, snear, sso, st, pn >>
 
 nn_4_ld(self) == /\ pc[self] = "nn_4_ld"
                  /\ IF NTime(wp[self]) < wdl[self]
@@ -1086,13 +1127,14 @@ nn_4_ld(self) == /\ pc[self] = "nn_4_ld"
                             /\ UNCHANGED << par, kids >>
                  /\ pc' = [pc EXCEPT ![self] = "nn_5_ul"]
                  /\ UNCHANGED << live, notified, wts, disc, lk, nww, sem, cval, 
-                                 cwaited, cq, clk, nwc, cz, now, ip, ret, dres, 
-                                 called, dl0, lpar, wfor, freeing, badret, 
-                                 vcount, uaf, taint4, taint5, stack, cn, cp, i, 
-                                 klist, w, tn, p, dn, nt, xn, xcl, wn, wp, wdl, 
-                                 fail, fn, fp, fi, fk, cdl, cv, cwk, objs, adl, 
-                                 single, k, rt, cnt, rdy, enq, wq, sdl, scn, 
-                                 sct, sldl, snear, sso, st, pn >>
+                                 cwaited, cq, clk, nwc, cmu, badmu, cz, now, 
+                                 ip, ret, dres, called, dl0, lpar, wfor, 
+                                 freeing, badret, vcount, uaf, taint4, taint5, 
+                                 stack, cn, cp, i, klist, w, tn, p, dn, nt, xn, 
+                                 xcl, wn, wp, wdl, fail, fn, fp, fi, fk, cdl, 
+                                 cv, cwk, objs, adl, single, wm, k, rt, cnt, 
+                                 rdy, enq, wq, unl, sdl, scn, sct, sldl, snear, 
+                                 sso, st, pn >>
 
 nn_5_ul(self) == /\ pc[self] = "nn_5_ul"
                  /\ lk' = [lk EXCEPT ![wp[self]] = 0]
@@ -1105,13 +1147,13 @@ nn_5_ul(self) == /\ pc[self] = "nn_5_ul"
                  /\ fail' = [fail EXCEPT ![self] = Head(stack[self]).fail]
                  /\ stack' = [stack EXCEPT ![self] = Tail(stack[self])]
                  /\ UNCHANGED << notified, exp, par, kids, wts, disc, nww, sem, 
-                                 cval, cwaited, cq, clk, nwc, cz, now, ip, 
-                                 dres, called, dl0, lpar, wfor, freeing, 
-                                 badret, vcount, uaf, taint4, taint5, cn, cp, 
-                                 i, klist, w, tn, p, dn, nt, xn, xcl, fn, fp, 
-                                 fi, fk, cdl, cv, cwk, objs, adl, single, k, 
-                                 rt, cnt, rdy, enq, wq, sdl, scn, sct, sldl, 
-                                 snear, sso, st, pn >>
+                                 cval, cwaited, cq, clk, nwc, cmu, badmu, cz, 
+                                 now, ip, dres, called, dl0, lpar, wfor, 
+                                 freeing, badret, vcount, uaf, taint4, taint5, 
+                                 cn, cp, i, klist, w, tn, p, dn, nt, xn, xcl, 
+                                 fn, fp, fi, fk, cdl, cv, cwk, objs, adl, 
+                                 single, wm, k, rt, cnt, rdy, enq, wq, unl, 
+                                 sdl, scn, sct, sldl, snear, sso, st, pn >>
 
 nnew(self) == nn_0_l(self) \/ nn_1_l(self) \/ nn_2_l(self) \/ nn_3_lk(self)
                  \/ nn_4_ld(self) \/ nn_5_ul(self)
@@ -1124,27 +1166,28 @@ nf_1_lk(self) == /\ pc[self] = "nf_1_lk"
                  /\ freeing' = [freeing EXCEPT ![fn[self]] = TRUE]
                  /\ pc' = [pc EXCEPT ![self] = "nf_1_l"]
                  /\ UNCHANGED << live, notified, exp, par, kids, wts, nww, sem, 
-                                 cval, cwaited, cq, clk, nwc, cz, now, ip, ret, 
-                                 dres, called, dl0, lpar, wfor, badret, vcount, 
-                                 uaf, taint4, taint5, stack, cn, cp, i, klist, 
-                                 w, tn, p, dn, nt, xn, xcl, wn, wp, wdl, fail, 
-                                 fn, fi, fk, cdl, cv, cwk, objs, adl, single, 
-                                 k, rt, cnt, rdy, enq, wq, sdl, scn, sct, sldl, 
-                                 snear, sso, st, pn >>
+                                 cval, cwaited, cq, clk, nwc, cmu, badmu, cz, 
+                                 now, ip, ret, dres, called, dl0, lpar, wfor, 
+                                 badret, vcount, uaf, taint4, taint5, stack, 
+                                 cn, cp, i, klist, w, tn, p, dn, nt, xn, xcl, 
+                                 wn, wp, wdl, fail, fn, fi, fk, cdl, cv, cwk, 
+                                 objs, adl, single, wm, k, rt, cnt, rdy, enq, 
+                                 wq, unl, sdl, scn, sct, sldl, snear, sso, st, 
+                                 pn >>
 
 nf_1_l(self) == /\ pc[self] = "nf_1_l"
                 /\ IF fp[self] = 0
                       THEN /\ pc' = [pc EXCEPT ![self] = "nf_5_l"]
                       ELSE /\ pc' = [pc EXCEPT ![self] = "nf_2_r"]
                 /\ UNCHANGED << live, notified, exp, par, kids, wts, disc, lk, 
-                                nww, sem, cval, cwaited, cq, clk, nwc, cz, now, 
-                                ip, ret, dres, called, dl0, lpar, wfor, 
-                                freeing, badret, vcount, uaf, taint4, taint5, 
-                                stack, cn, cp, i, klist, w, tn, p, dn, nt, xn, 
-                                xcl, wn, wp, wdl, fail, fn, fp, fi, fk, cdl, 
-                                cv, cwk, objs, adl, single, k, rt, cnt, rdy, 
-                                enq, wq, sdl, scn, sct, sldl, snear, sso, st, 
-                                pn >>
+                                nww, sem, cval, cwaited, cq, clk, nwc, cmu, 
+                                badmu, cz, now, ip, ret, dres, called, dl0, 
+                                lpar, wfor, freeing, badret, vcount, uaf, 
+                                taint4, taint5, stack, cn, cp, i, klist, w, tn, 
+                                p, dn, nt, xn, xcl, wn, wp, wdl, fail, fn, fp, 
+                                fi, fk, cdl, cv, cwk, objs, adl, single, wm, k, 
+                                rt, cnt, rdy, enq, wq, unl, sdl, scn, sct, 
+                                sldl, snear, sso, st, pn >>
 
 nf_2_r(self) == /\ pc[self] = "nf_2_r"
                 /\ IF lk[fp[self]] = 0
@@ -1153,26 +1196,27 @@ nf_2_r(self) == /\ pc[self] = "nf_2_r"
                       ELSE /\ pc' = [pc EXCEPT ![self] = "nf_3_ul"]
                            /\ lk' = lk
                 /\ UNCHANGED << live, notified, exp, par, kids, wts, disc, nww, 
-                                sem, cval, cwaited, cq, clk, nwc, cz, now, ip, 
-                                ret, dres, called, dl0, lpar, wfor, freeing, 
-                                badret, vcount, uaf, taint4, taint5, stack, cn, 
-                                cp, i, klist, w, tn, p, dn, nt, xn, xcl, wn, 
-                                wp, wdl, fail, fn, fp, fi, fk, cdl, cv, cwk, 
-                                objs, adl, single, k, rt, cnt, rdy, enq, wq, 
-                                sdl, scn, sct, sldl, snear, sso, st, pn >>
+                                sem, cval, cwaited, cq, clk, nwc, cmu, badmu, 
+                                cz, now, ip, ret, dres, called, dl0, lpar, 
+                                wfor, freeing, badret, vcount, uaf, taint4, 
+                                taint5, stack, cn, cp, i, klist, w, tn, p, dn, 
+                                nt, xn, xcl, wn, wp, wdl, fail, fn, fp, fi, fk, 
+                                cdl, cv, cwk, objs, adl, single, wm, k, rt, 
+                                cnt, rdy, enq, wq, unl, sdl, scn, sct, sldl, 
+                                snear, sso, st, pn >>
 
 nf_3_ul(self) == /\ pc[self] = "nf_3_ul"
                  /\ lk' = [lk EXCEPT ![fn[self]] = 0]
                  /\ pc' = [pc EXCEPT ![self] = "nf_4_lk"]
                  /\ UNCHANGED << live, notified, exp, par, kids, wts, disc, 
-                                 nww, sem, cval, cwaited, cq, clk, nwc, cz, 
-                                 now, ip, ret, dres, called, dl0, lpar, wfor, 
-                                 freeing, badret, vcount, uaf, taint4, taint5, 
-                                 stack, cn, cp, i, klist, w, tn, p, dn, nt, xn, 
-                                 xcl, wn, wp, wdl, fail, fn, fp, fi, fk, cdl, 
-                                 cv, cwk, objs, adl, single, k, rt, cnt, rdy, 
-                                 enq, wq, sdl, scn, sct, sldl, snear, sso, st, 
-                                 pn >>
+                                 nww, sem, cval, cwaited, cq, clk, nwc, cmu, 
+                                 badmu, cz, now, ip, ret, dres, called, dl0, 
+                                 lpar, wfor, freeing, badret, vcount, uaf, 
+                                 taint4, taint5, stack, cn, cp, i, klist, w, 
+                                 tn, p, dn, nt, xn, xcl, wn, wp, wdl, fail, fn, 
+                                 fp, fi, fk, cdl, cv, cwk, objs, adl, single, 
+                                 wm, k, rt, cnt, rdy, enq, wq, unl, sdl, scn, 
+                                 sct, sldl, snear, sso, st, pn >>
 
 nf_4_lk(self) == /\ pc[self] = "nf_4_lk"
                  /\ lk[fp[self]] = 0
@@ -1180,69 +1224,70 @@ nf_4_lk(self) == /\ pc[self] = "nf_4_lk"
                  /\ uaf' = (uaf \/ Touch(fp[self]))
                  /\ pc' = [pc EXCEPT ![self] = "nf_4b_lk"]
                  /\ UNCHANGED << live, notified, exp, par, kids, wts, disc, 
-                                 nww, sem, cval, cwaited, cq, clk, nwc, cz, 
-                                 now, ip, ret, dres, called, dl0, lpar, wfor, 
-                                 freeing, badret, vcount, taint4, taint5, 
-                                 stack, cn, cp, i, klist, w, tn, p, dn, nt, xn, 
-                                 xcl, wn, wp, wdl, fail, fn, fp, fi, fk, cdl, 
-                                 cv, cwk, objs, adl, single, k, rt, cnt, rdy, 
-                                 enq, wq, sdl, scn, sct, sldl, snear, sso, st, 
-                                 pn >>
+                                 nww, sem, cval, cwaited, cq, clk, nwc, cmu, 
+                                 badmu, cz, now, ip, ret, dres, called, dl0, 
+                                 lpar, wfor, freeing, badret, vcount, taint4, 
+                                 taint5, stack, cn, cp, i, klist, w, tn, p, dn, 
+                                 nt, xn, xcl, wn, wp, wdl, fail, fn, fp, fi, 
+                                 fk, cdl, cv, cwk, objs, adl, single, wm, k, 
+                                 rt, cnt, rdy, enq, wq, unl, sdl, scn, sct, 
+                                 sldl, snear, sso, st, pn >>
 
 nf_4b_lk(self) == /\ pc[self] = "nf_4b_lk"
                   /\ lk[fn[self]] = 0
                   /\ lk' = [lk EXCEPT ![fn[self]] = self]
                   /\ pc' = [pc EXCEPT ![self] = "nf_5_l"]
                   /\ UNCHANGED << live, notified, exp, par, kids, wts, disc, 
-                                  nww, sem, cval, cwaited, cq, clk, nwc, cz, 
-                                  now, ip, ret, dres, called, dl0, lpar, wfor, 
-                                  freeing, badret, vcount, uaf, taint4, taint5, 
-                                  stack, cn, cp, i, klist, w, tn, p, dn, nt, 
-                                  xn, xcl, wn, wp, wdl, fail, fn, fp, fi, fk, 
-                                  cdl, cv, cwk, objs, adl, single, k, rt, cnt, 
-                                  rdy, enq, wq, sdl, scn, sct, sldl, snear, 
-                                  sso, st, pn >>
+                                  nww, sem, cval, cwaited, cq, clk, nwc, cmu, 
+                                  badmu, cz, now, ip, ret, dres, called, dl0, 
+                                  lpar, wfor, freeing, badret, vcount, uaf, 
+                                  taint4, taint5, stack, cn, cp, i, klist, w, 
+                                  tn, p, dn, nt, xn, xcl, wn, wp, wdl, fail, 
+                                  fn, fp, fi, fk, cdl, cv, cwk, objs, adl, 
+                                  single, wm, k, rt, cnt, rdy, enq, wq, unl, 
+                                  sdl, scn, sct, sldl, snear, sso, st, pn >>
 
 nf_5_l(self) == /\ pc[self] = "nf_5_l"
                 /\ fk' = [fk EXCEPT ![self] = kids[fn[self]]]
                 /\ fi' = [fi EXCEPT ![self] = 1]
                 /\ pc' = [pc EXCEPT ![self] = "nf_k_l"]
                 /\ UNCHANGED << live, notified, exp, par, kids, wts, disc, lk, 
-                                nww, sem, cval, cwaited, cq, clk, nwc, cz, now, 
-                                ip, ret, dres, called, dl0, lpar, wfor, 
-                                freeing, badret, vcount, uaf, taint4, taint5, 
-                                stack, cn, cp, i, klist, w, tn, p, dn, nt, xn, 
-                                xcl, wn, wp, wdl, fail, fn, fp, cdl, cv, cwk, 
-                                objs, adl, single, k, rt, cnt, rdy, enq, wq, 
-                                sdl, scn, sct, sldl, snear, sso, st, pn >>
+                                nww, sem, cval, cwaited, cq, clk, nwc, cmu, 
+                                badmu, cz, now, ip, ret, dres, called, dl0, 
+                                lpar, wfor, freeing, badret, vcount, uaf, 
+                                taint4, taint5, stack, cn, cp, i, klist, w, tn, 
+                                p, dn, nt, xn, xcl, wn, wp, wdl, fail, fn, fp, 
+                                cdl, cv, cwk, objs, adl, single, wm, k, rt, 
+                                cnt, rdy, enq, wq, unl, sdl, scn, sct, sldl, 
+                                snear, sso, st, pn >>
 
 nf_k_l(self) == /\ pc[self] = "nf_k_l"
                 /\ IF fi[self] > Len(fk[self])
                       THEN /\ pc' = [pc EXCEPT ![self] = "nf_8_r"]
                       ELSE /\ pc' = [pc EXCEPT ![self] = "nf_6_lk"]
                 /\ UNCHANGED << live, notified, exp, par, kids, wts, disc, lk, 
-                                nww, sem, cval, cwaited, cq, clk, nwc, cz, now, 
-                                ip, ret, dres, called, dl0, lpar, wfor, 
-                                freeing, badret, vcount, uaf, taint4, taint5, 
-                                stack, cn, cp, i, klist, w, tn, p, dn, nt, xn, 
-                                xcl, wn, wp, wdl, fail, fn, fp, fi, fk, cdl, 
-                                cv, cwk, objs, adl, single, k, rt, cnt, rdy, 
-                                enq, wq, sdl, scn, sct, sldl, snear, sso, st, 
-                                pn >>
+                                nww, sem, cval, cwaited, cq, clk, nwc, cmu, 
+                                badmu, cz, now, ip, ret, dres, called, dl0, 
+                                lpar, wfor, freeing, badret, vcount, uaf, 
+                                taint4, taint5, stack, cn, cp, i, klist, w, tn, 
+                                p, dn, nt, xn, xcl, wn, wp, wdl, fail, fn, fp, 
+                                fi, fk, cdl, cv, cwk, objs, adl, single, wm, k, 
+                                rt, cnt, rdy, enq, wq, unl, sdl, scn, sct, 
+                                sldl, snear, sso, st, pn >>
 
 nf_6_lk(self) == /\ pc[self] = "nf_6_lk"
                  /\ lk[fk[self][fi[self]]] = 0
                  /\ lk' = [lk EXCEPT ![fk[self][fi[self]]] = self]
                  /\ pc' = [pc EXCEPT ![self] = "nf_6_l"]
                  /\ UNCHANGED << live, notified, exp, par, kids, wts, disc, 
-                                 nww, sem, cval, cwaited, cq, clk, nwc, cz, 
-                                 now, ip, ret, dres, called, dl0, lpar, wfor, 
-                                 freeing, badret, vcount, uaf, taint4, taint5, 
-                                 stack, cn, cp, i, klist, w, tn, p, dn, nt, xn, 
-                                 xcl, wn, wp, wdl, fail, fn, fp, fi, fk, cdl, 
-                                 cv, cwk, objs, adl, single, k, rt, cnt, rdy, 
-                                 enq, wq, sdl, scn, sct, sldl, snear, sso, st, 
-                                 pn >>
+                                 nww, sem, cval, cwaited, cq, clk, nwc, cmu, 
+                                 badmu, cz, now, ip, ret, dres, called, dl0, 
+                                 lpar, wfor, freeing, badret, vcount, uaf, 
+                                 taint4, taint5, stack, cn, cp, i, klist, w, 
+                                 tn, p, dn, nt, xn, xcl, wn, wp, wdl, fail, fn, 
+                                 fp, fi, fk, cdl, cv, cwk, objs, adl, single, 
+                                 wm, k, rt, cnt, rdy, enq, wq, unl, sdl, scn, 
+                                 sct, sldl, snear, sso, st, pn >>
 
 nf_6_l(self) == /\ pc[self] = "nf_6_l"
                 /\ IF disc[fk[self][fi[self]]] = 0
@@ -1254,26 +1299,28 @@ nf_6_l(self) == /\ pc[self] = "nf_6_l"
                            /\ UNCHANGED << par, kids, taint4 >>
                 /\ pc' = [pc EXCEPT ![self] = "nf_7_ul"]
                 /\ UNCHANGED << live, notified, exp, wts, disc, lk, nww, sem, 
-                                cval, cwaited, cq, clk, nwc, cz, now, ip, ret, 
-                                dres, called, dl0, lpar, wfor, freeing, badret, 
-                                vcount, uaf, taint5, stack, cn, cp, i, klist, 
-                                w, tn, p, dn, nt, xn, xcl, wn, wp, wdl, fail, 
-                                fn, fp, fi, fk, cdl, cv, cwk, objs, adl, 
-                                single, k, rt, cnt, rdy, enq, wq, sdl, scn, 
-                                sct, sldl, snear, sso, st, pn >>
+                                cval, cwaited, cq, clk, nwc, cmu, badmu, cz, 
+                                now, ip, ret, dres, called, dl0, lpar, wfor, 
+                                freeing, badret, vcount, uaf, taint5, stack, 
+                                cn, cp, i, klist, w, tn, p, dn, nt, xn, xcl, 
+                                wn, wp, wdl, fail, fn, fp, fi, fk, cdl, cv, 
+                                cwk, objs, adl, single, wm, k, rt, cnt, rdy, 
+                                enq, wq, unl, sdl, scn, sct, sldl, snear, sso, 
+                                st, pn >>
 
 nf_7_ul(self) == /\ pc[self] = "nf_7_ul"
                  /\ lk' = [lk EXCEPT ![fk[self][fi[self]]] = 0]
                  /\ fi' = [fi EXCEPT ![self] = fi[self] + 1]
                  /\ pc' = [pc EXCEPT ![self] = "nf_k_l"]
                  /\ UNCHANGED << live, notified, exp, par, kids, wts, disc, 
-                                 nww, sem, cval, cwaited, cq, clk, nwc, cz, 
-                                 now, ip, ret, dres, called, dl0, lpar, wfor, 
-                                 freeing, badret, vcount, uaf, taint4, taint5, 
-                                 stack, cn, cp, i, klist, w, tn, p, dn, nt, xn, 
-                                 xcl, wn, wp, wdl, fail, fn, fp, fk, cdl, cv, 
-                                 cwk, objs, adl, single, k, rt, cnt, rdy, enq, 
-                                 wq, sdl, scn, sct, sldl, snear, sso, st, pn >>
+                                 nww, sem, cval, cwaited, cq, clk, nwc, cmu, 
+                                 badmu, cz, now, ip, ret, dres, called, dl0, 
+                                 lpar, wfor, freeing, badret, vcount, uaf, 
+                                 taint4, taint5, stack, cn, cp, i, klist, w, 
+                                 tn, p, dn, nt, xn, xcl, wn, wp, wdl, fail, fn, 
+                                 fp, fk, cdl, cv, cwk, objs, adl, single, wm, 
+                                 k, rt, cnt, rdy, enq, wq, unl, sdl, scn, sct, 
+                                 sldl, snear, sso, st, pn >>
 
 nf_8_r(self) == /\ pc[self] = "nf_8_r"
                 /\ IF kids[fn[self]] # <<>>
@@ -1282,27 +1329,28 @@ nf_8_r(self) == /\ pc[self] = "nf_8_r"
                       ELSE /\ pc' = [pc EXCEPT ![self] = "nf_10_l"]
                            /\ lk' = lk
                 /\ UNCHANGED << live, notified, exp, par, kids, wts, disc, nww, 
-                                sem, cval, cwaited, cq, clk, nwc, cz, now, ip, 
-                                ret, dres, called, dl0, lpar, wfor, freeing, 
-                                badret, vcount, uaf, taint4, taint5, stack, cn, 
-                                cp, i, klist, w, tn, p, dn, nt, xn, xcl, wn, 
-                                wp, wdl, fail, fn, fp, fi, fk, cdl, cv, cwk, 
-                                objs, adl, single, k, rt, cnt, rdy, enq, wq, 
-                                sdl, scn, sct, sldl, snear, sso, st, pn >>
+                                sem, cval, cwaited, cq, clk, nwc, cmu, badmu, 
+                                cz, now, ip, ret, dres, called, dl0, lpar, 
+                                wfor, freeing, badret, vcount, uaf, taint4, 
+                                taint5, stack, cn, cp, i, klist, w, tn, p, dn, 
+                                nt, xn, xcl, wn, wp, wdl, fail, fn, fp, fi, fk, 
+                                cdl, cv, cwk, objs, adl, single, wm, k, rt, 
+                                cnt, rdy, enq, wq, unl, sdl, scn, sct, sldl, 
+                                snear, sso, st, pn >>
 
 nf_9_lk(self) == /\ pc[self] = "nf_9_lk"
                  /\ lk[fn[self]] = 0 /\ kids[fn[self]] = <<>>
                  /\ lk' = [lk EXCEPT ![fn[self]] = self]
                  /\ pc' = [pc EXCEPT ![self] = "nf_10_l"]
                  /\ UNCHANGED << live, notified, exp, par, kids, wts, disc, 
-                                 nww, sem, cval, cwaited, cq, clk, nwc, cz, 
-                                 now, ip, ret, dres, called, dl0, lpar, wfor, 
-                                 freeing, badret, vcount, uaf, taint4, taint5, 
-                                 stack, cn, cp, i, klist, w, tn, p, dn, nt, xn, 
-                                 xcl, wn, wp, wdl, fail, fn, fp, fi, fk, cdl, 
-                                 cv, cwk, objs, adl, single, k, rt, cnt, rdy, 
-                                 enq, wq, sdl, scn, sct, sldl, snear, sso, st, 
-                                 pn >>
+                                 nww, sem, cval, cwaited, cq, clk, nwc, cmu, 
+                                 badmu, cz, now, ip, ret, dres, called, dl0, 
+                                 lpar, wfor, freeing, badret, vcount, uaf, 
+                                 taint4, taint5, stack, cn, cp, i, klist, w, 
+                                 tn, p, dn, nt, xn, xcl, wn, wp, wdl, fail, fn, 
+                                 fp, fi, fk, cdl, cv, cwk, objs, adl, single, 
+                                 wm, k, rt, cnt, rdy, enq, wq, unl, sdl, scn, 
+                                 sct, sldl, snear, sso, st, pn >>
 
 nf_10_l(self) == /\ pc[self] = "nf_10_l"
                  /\ IF fp[self] = 0
@@ -1312,38 +1360,40 @@ nf_10_l(self) == /\ pc[self] = "nf_10_l"
                             /\ par' = [par EXCEPT ![fn[self]] = 0]
                             /\ pc' = [pc EXCEPT ![self] = "nf_11_ul"]
                  /\ UNCHANGED << live, notified, exp, wts, disc, lk, nww, sem, 
-                                 cval, cwaited, cq, clk, nwc, cz, now, ip, ret, 
-                                 dres, called, dl0, lpar, wfor, freeing, 
-                                 badret, vcount, uaf, taint4, taint5, stack, 
-                                 cn, cp, i, klist, w, tn, p, dn, nt, xn, xcl, 
-                                 wn, wp, wdl, fail, fn, fp, fi, fk, cdl, cv, 
-                                 cwk, objs, adl, single, k, rt, cnt, rdy, enq, 
-                                 wq, sdl, scn, sct, sldl, snear, sso, st, pn >>
+                                 cval, cwaited, cq, clk, nwc, cmu, badmu, cz, 
+                                 now, ip, ret, dres, called, dl0, lpar, wfor, 
+                                 freeing, badret, vcount, uaf, taint4, taint5, 
+                                 stack, cn, cp, i, klist, w, tn, p, dn, nt, xn, 
+                                 xcl, wn, wp, wdl, fail, fn, fp, fi, fk, cdl, 
+                                 cv, cwk, objs, adl, single, wm, k, rt, cnt, 
+                                 rdy, enq, wq, unl, sdl, scn, sct, sldl, snear, 
+                                 sso, st, pn >>
 
 nf_11_ul(self) == /\ pc[self] = "nf_11_ul"
                   /\ lk' = [lk EXCEPT ![fp[self]] = 0]
                   /\ pc' = [pc EXCEPT ![self] = "nf_12_l"]
                   /\ UNCHANGED << live, notified, exp, par, kids, wts, disc, 
-                                  nww, sem, cval, cwaited, cq, clk, nwc, cz, 
-                                  now, ip, ret, dres, called, dl0, lpar, wfor, 
-                                  freeing, badret, vcount, uaf, taint4, taint5, 
-                                  stack, cn, cp, i, klist, w, tn, p, dn, nt, 
-                                  xn, xcl, wn, wp, wdl, fail, fn, fp, fi, fk, 
-                                  cdl, cv, cwk, objs, adl, single, k, rt, cnt, 
-                                  rdy, enq, wq, sdl, scn, sct, sldl, snear, 
-                                  sso, st, pn >>
+                                  nww, sem, cval, cwaited, cq, clk, nwc, cmu, 
+                                  badmu, cz, now, ip, ret, dres, called, dl0, 
+                                  lpar, wfor, freeing, badret, vcount, uaf, 
+                                  taint4, taint5, stack, cn, cp, i, klist, w, 
+                                  tn, p, dn, nt, xn, xcl, wn, wp, wdl, fail, 
+                                  fn, fp, fi, fk, cdl, cv, cwk, objs, adl, 
+                                  single, wm, k, rt, cnt, rdy, enq, wq, unl, 
+                                  sdl, scn, sct, sldl, snear, sso, st, pn >>
 
 nf_12_l(self) == /\ pc[self] = "nf_12_l"
                  /\ disc' = [disc EXCEPT ![fn[self]] = disc[fn[self]] - 1]
                  /\ pc' = [pc EXCEPT ![self] = "nf_13_ul"]
                  /\ UNCHANGED << live, notified, exp, par, kids, wts, lk, nww, 
-                                 sem, cval, cwaited, cq, clk, nwc, cz, now, ip, 
-                                 ret, dres, called, dl0, lpar, wfor, freeing, 
-                                 badret, vcount, uaf, taint4, taint5, stack, 
-                                 cn, cp, i, klist, w, tn, p, dn, nt, xn, xcl, 
-                                 wn, wp, wdl, fail, fn, fp, fi, fk, cdl, cv, 
-                                 cwk, objs, adl, single, k, rt, cnt, rdy, enq, 
-                                 wq, sdl, scn, sct, sldl, snear, sso, st, pn >>
+                                 sem, cval, cwaited, cq, clk, nwc, cmu, badmu, 
+                                 cz, now, ip, ret, dres, called, dl0, lpar, 
+                                 wfor, freeing, badret, vcount, uaf, taint4, 
+                                 taint5, stack, cn, cp, i, klist, w, tn, p, dn, 
+                                 nt, xn, xcl, wn, wp, wdl, fail, fn, fp, fi, 
+                                 fk, cdl, cv, cwk, objs, adl, single, wm, k, 
+                                 rt, cnt, rdy, enq, wq, unl, sdl, scn, sct, 
+                                 sldl, snear, sso, st, pn >>
 
 nf_13_ul(self) == /\ pc[self] = "nf_13_ul"
                   /\ lk' = [lk EXCEPT ![fn[self]] = 0]
@@ -1358,13 +1408,13 @@ nf_13_ul(self) == /\ pc[self] = "nf_13_ul"
                   /\ fn' = [fn EXCEPT ![self] = Head(stack[self]).fn]
                   /\ stack' = [stack EXCEPT ![self] = Tail(stack[self])]
                   /\ UNCHANGED << notified, exp, par, kids, wts, disc, nww, 
-                                  sem, cval, cwaited, cq, clk, nwc, cz, now, 
-                                  ip, dres, dl0, wfor, freeing, badret, vcount, 
-                                  uaf, taint4, taint5, cn, cp, i, klist, w, tn, 
-                                  p, dn, nt, xn, xcl, wn, wp, wdl, fail, cdl, 
-                                  cv, cwk, objs, adl, single, k, rt, cnt, rdy, 
-                                  enq, wq, sdl, scn, sct, sldl, snear, sso, st, 
-                                  pn >>
+                                  sem, cval, cwaited, cq, clk, nwc, cmu, badmu, 
+                                  cz, now, ip, dres, dl0, wfor, freeing, 
+                                  badret, vcount, uaf, taint4, taint5, cn, cp, 
+                                  i, klist, w, tn, p, dn, nt, xn, xcl, wn, wp, 
+                                  wdl, fail, cdl, cv, cwk, objs, adl, single, 
+                                  wm, k, rt, cnt, rdy, enq, wq, unl, sdl, scn, 
+                                  sct, sldl, snear, sso, st, pn >>
 
 nfree(self) == nf_1_lk(self) \/ nf_1_l(self) \/ nf_2_r(self)
                   \/ nf_3_ul(self) \/ nf_4_lk(self) \/ nf_4b_lk(self)
@@ -1377,26 +1427,28 @@ cr_1_st(self) == /\ pc[self] = "cr_1_st"
                  /\ cwaited' = 1
                  /\ pc' = [pc EXCEPT ![self] = "cr_2_ld"]
                  /\ UNCHANGED << live, notified, exp, par, kids, wts, disc, lk, 
-                                 nww, sem, cval, cq, clk, nwc, cz, now, ip, 
-                                 ret, dres, called, dl0, lpar, wfor, freeing, 
-                                 badret, vcount, uaf, taint4, taint5, stack, 
-                                 cn, cp, i, klist, w, tn, p, dn, nt, xn, xcl, 
-                                 wn, wp, wdl, fail, fn, fp, fi, fk, cdl, cv, 
-                                 cwk, objs, adl, single, k, rt, cnt, rdy, enq, 
-                                 wq, sdl, scn, sct, sldl, snear, sso, st, pn >>
+                                 nww, sem, cval, cq, clk, nwc, cmu, badmu, cz, 
+                                 now, ip, ret, dres, called, dl0, lpar, wfor, 
+                                 freeing, badret, vcount, uaf, taint4, taint5, 
+                                 stack, cn, cp, i, klist, w, tn, p, dn, nt, xn, 
+                                 xcl, wn, wp, wdl, fail, fn, fp, fi, fk, cdl, 
+                                 cv, cwk, objs, adl, single, wm, k, rt, cnt, 
+                                 rdy, enq, wq, unl, sdl, scn, sct, sldl, snear, 
+                                 sso, st, pn >>
 
 cr_2_ld(self) == /\ pc[self] = "cr_2_ld"
                  /\ dres' = [dres EXCEPT ![self] = IF cval = 0 THEN ZERO ELSE NONE]
                  /\ pc' = [pc EXCEPT ![self] = Head(stack[self]).pc]
                  /\ stack' = [stack EXCEPT ![self] = Tail(stack[self])]
                  /\ UNCHANGED << live, notified, exp, par, kids, wts, disc, lk, 
-                                 nww, sem, cval, cwaited, cq, clk, nwc, cz, 
-                                 now, ip, ret, called, dl0, lpar, wfor, 
-                                 freeing, badret, vcount, uaf, taint4, taint5, 
-                                 cn, cp, i, klist, w, tn, p, dn, nt, xn, xcl, 
-                                 wn, wp, wdl, fail, fn, fp, fi, fk, cdl, cv, 
-                                 cwk, objs, adl, single, k, rt, cnt, rdy, enq, 
-                                 wq, sdl, scn, sct, sldl, snear, sso, st, pn >>
+                                 nww, sem, cval, cwaited, cq, clk, nwc, cmu, 
+                                 badmu, cz, now, ip, ret, called, dl0, lpar, 
+                                 wfor, freeing, badret, vcount, uaf, taint4, 
+                                 taint5, cn, cp, i, klist, w, tn, p, dn, nt, 
+                                 xn, xcl, wn, wp, wdl, fail, fn, fp, fi, fk, 
+                                 cdl, cv, cwk, objs, adl, single, wm, k, rt, 
+                                 cnt, rdy, enq, wq, unl, sdl, scn, sct, sldl, 
+                                 snear, sso, st, pn >>
 
 cready(self) == cr_1_st(self) \/ cr_2_ld(self)
 
@@ -1405,25 +1457,27 @@ ca_1_lk(self) == /\ pc[self] = "ca_1_lk"
                  /\ clk' = self
                  /\ pc' = [pc EXCEPT ![self] = "ca_2_ld"]
                  /\ UNCHANGED << live, notified, exp, par, kids, wts, disc, lk, 
-                                 nww, sem, cval, cwaited, cq, nwc, cz, now, ip, 
-                                 ret, dres, called, dl0, lpar, wfor, freeing, 
-                                 badret, vcount, uaf, taint4, taint5, stack, 
-                                 cn, cp, i, klist, w, tn, p, dn, nt, xn, xcl, 
-                                 wn, wp, wdl, fail, fn, fp, fi, fk, cdl, cv, 
-                                 cwk, objs, adl, single, k, rt, cnt, rdy, enq, 
-                                 wq, sdl, scn, sct, sldl, snear, sso, st, pn >>
+                                 nww, sem, cval, cwaited, cq, nwc, cmu, badmu, 
+                                 cz, now, ip, ret, dres, called, dl0, lpar, 
+                                 wfor, freeing, badret, vcount, uaf, taint4, 
+                                 taint5, stack, cn, cp, i, klist, w, tn, p, dn, 
+                                 nt, xn, xcl, wn, wp, wdl, fail, fn, fp, fi, 
+                                 fk, cdl, cv, cwk, objs, adl, single, wm, k, 
+                                 rt, cnt, rdy, enq, wq, unl, sdl, scn, sct, 
+                                 sldl, snear, sso, st, pn >>
 
 ca_2_ld(self) == /\ pc[self] = "ca_2_ld"
                  /\ cv' = [cv EXCEPT ![self] = cval]
                  /\ pc' = [pc EXCEPT ![self] = "ca_3_cas"]
                  /\ UNCHANGED << live, notified, exp, par, kids, wts, disc, lk, 
-                                 nww, sem, cval, cwaited, cq, clk, nwc, cz, 
-                                 now, ip, ret, dres, called, dl0, lpar, wfor, 
-                                 freeing, badret, vcount, uaf, taint4, taint5, 
-                                 stack, cn, cp, i, klist, w, tn, p, dn, nt, xn, 
-                                 xcl, wn, wp, wdl, fail, fn, fp, fi, fk, cdl, 
-                                 cwk, objs, adl, single, k, rt, cnt, rdy, enq, 
-                                 wq, sdl, scn, sct, sldl, snear, sso, st, pn >>
+                                 nww, sem, cval, cwaited, cq, clk, nwc, cmu, 
+                                 badmu, cz, now, ip, ret, dres, called, dl0, 
+                                 lpar, wfor, freeing, badret, vcount, uaf, 
+                                 taint4, taint5, stack, cn, cp, i, klist, w, 
+                                 tn, p, dn, nt, xn, xcl, wn, wp, wdl, fail, fn, 
+                                 fp, fi, fk, cdl, cwk, objs, adl, single, wm, 
+                                 k, rt, cnt, rdy, enq, wq, unl, sdl, scn, sct, 
+                                 sldl, snear, sso, st, pn >>
 
 ca_3_cas(self) == /\ pc[self] = "ca_3_cas"
                   /\ IF cval = cv[self]
@@ -1434,41 +1488,42 @@ ca_3_cas(self) == /\ pc[self] = "ca_3_cas"
                         ELSE /\ pc' = [pc EXCEPT ![self] = "ca_2_ld"]
                              /\ UNCHANGED << cval, cz, cv >>
                   /\ UNCHANGED << live, notified, exp, par, kids, wts, disc, 
-                                  lk, nww, sem, cwaited, cq, clk, nwc, now, ip, 
-                                  ret, dres, called, dl0, lpar, wfor, freeing, 
-                                  badret, vcount, uaf, taint4, taint5, stack, 
-                                  cn, cp, i, klist, w, tn, p, dn, nt, xn, xcl, 
-                                  wn, wp, wdl, fail, fn, fp, fi, fk, cdl, cwk, 
-                                  objs, adl, single, k, rt, cnt, rdy, enq, wq, 
-                                  sdl, scn, sct, sldl, snear, sso, st, pn >>
+                                  lk, nww, sem, cwaited, cq, clk, nwc, cmu, 
+                                  badmu, now, ip, ret, dres, called, dl0, lpar, 
+                                  wfor, freeing, badret, vcount, uaf, taint4, 
+                                  taint5, stack, cn, cp, i, klist, w, tn, p, 
+                                  dn, nt, xn, xcl, wn, wp, wdl, fail, fn, fp, 
+                                  fi, fk, cdl, cwk, objs, adl, single, wm, k, 
+                                  rt, cnt, rdy, enq, wq, unl, sdl, scn, sct, 
+                                  sldl, snear, sso, st, pn >>
 
 ca_4_l(self) == /\ pc[self] = "ca_4_l"
                 /\ IF cdl[self] > 0 /\ cv[self] = cdl[self]
                       THEN /\ pc' = [pc EXCEPT ![self] = "ca_4_ld"]
                       ELSE /\ pc' = [pc EXCEPT ![self] = "ca_5_l"]
                 /\ UNCHANGED << live, notified, exp, par, kids, wts, disc, lk, 
-                                nww, sem, cval, cwaited, cq, clk, nwc, cz, now, 
-                                ip, ret, dres, called, dl0, lpar, wfor, 
-                                freeing, badret, vcount, uaf, taint4, taint5, 
-                                stack, cn, cp, i, klist, w, tn, p, dn, nt, xn, 
-                                xcl, wn, wp, wdl, fail, fn, fp, fi, fk, cdl, 
-                                cv, cwk, objs, adl, single, k, rt, cnt, rdy, 
-                                enq, wq, sdl, scn, sct, sldl, snear, sso, st, 
-                                pn >>
+                                nww, sem, cval, cwaited, cq, clk, nwc, cmu, 
+                                badmu, cz, now, ip, ret, dres, called, dl0, 
+                                lpar, wfor, freeing, badret, vcount, uaf, 
+                                taint4, taint5, stack, cn, cp, i, klist, w, tn, 
+                                p, dn, nt, xn, xcl, wn, wp, wdl, fail, fn, fp, 
+                                fi, fk, cdl, cv, cwk, objs, adl, single, wm, k, 
+                                rt, cnt, rdy, enq, wq, unl, sdl, scn, sct, 
+                                sldl, snear, sso, st, pn >>
 
 ca_4_ld(self) == /\ pc[self] = "ca_4_ld"
                  /\ Assert(cwaited = 0, 
-                           "Failure of assertion at line 219, column 14.")
+                           "Failure of assertion at line 221, column 14.")
                  /\ pc' = [pc EXCEPT ![self] = "ca_5_l"]
                  /\ UNCHANGED << live, notified, exp, par, kids, wts, disc, lk, 
-                                 nww, sem, cval, cwaited, cq, clk, nwc, cz, 
-                                 now, ip, ret, dres, called, dl0, lpar, wfor, 
-                                 freeing, badret, vcount, uaf, taint4, taint5, 
-                                 stack, cn, cp, i, klist, w, tn, p, dn, nt, xn, 
-                                 xcl, wn, wp, wdl, fail, fn, fp, fi, fk, cdl, 
-                                 cv, cwk, objs, adl, single, k, rt, cnt, rdy, 
-                                 enq, wq, sdl, scn, sct, sldl, snear, sso, st, 
-                                 pn >>
+                                 nww, sem, cval, cwaited, cq, clk, nwc, cmu, 
+                                 badmu, cz, now, ip, ret, dres, called, dl0, 
+                                 lpar, wfor, freeing, badret, vcount, uaf, 
+                                 taint4, taint5, stack, cn, cp, i, klist, w, 
+                                 tn, p, dn, nt, xn, xcl, wn, wp, wdl, fail, fn, 
+                                 fp, fi, fk, cdl, cv, cwk, objs, adl, single, 
+                                 wm, k, rt, cnt, rdy, enq, wq, unl, sdl, scn, 
+                                 sct, sldl, snear, sso, st, pn >>
 
 ca_5_l(self) == /\ pc[self] = "ca_5_l"
                 /\ IF cv[self] # 0 \/ cq = <<>>
@@ -1478,38 +1533,41 @@ ca_5_l(self) == /\ pc[self] = "ca_5_l"
                            /\ cq' = Tail(cq)
                            /\ pc' = [pc EXCEPT ![self] = "ca_5_st"]
                 /\ UNCHANGED << live, notified, exp, par, kids, wts, disc, lk, 
-                                nww, sem, cval, cwaited, clk, nwc, cz, now, ip, 
-                                ret, dres, called, dl0, lpar, wfor, freeing, 
-                                badret, vcount, uaf, taint4, taint5, stack, cn, 
-                                cp, i, klist, w, tn, p, dn, nt, xn, xcl, wn, 
-                                wp, wdl, fail, fn, fp, fi, fk, cdl, cv, objs, 
-                                adl, single, k, rt, cnt, rdy, enq, wq, sdl, 
-                                scn, sct, sldl, snear, sso, st, pn >>
+                                nww, sem, cval, cwaited, clk, nwc, cmu, badmu, 
+                                cz, now, ip, ret, dres, called, dl0, lpar, 
+                                wfor, freeing, badret, vcount, uaf, taint4, 
+                                taint5, stack, cn, cp, i, klist, w, tn, p, dn, 
+                                nt, xn, xcl, wn, wp, wdl, fail, fn, fp, fi, fk, 
+                                cdl, cv, objs, adl, single, wm, k, rt, cnt, 
+                                rdy, enq, wq, unl, sdl, scn, sct, sldl, snear, 
+                                sso, st, pn >>
 
 ca_5_st(self) == /\ pc[self] = "ca_5_st"
                  /\ nwc' = [nwc EXCEPT ![cwk[self]] = 0]
                  /\ pc' = [pc EXCEPT ![self] = "ca_6_v"]
                  /\ UNCHANGED << live, notified, exp, par, kids, wts, disc, lk, 
-                                 nww, sem, cval, cwaited, cq, clk, cz, now, ip, 
-                                 ret, dres, called, dl0, lpar, wfor, freeing, 
-                                 badret, vcount, uaf, taint4, taint5, stack, 
-                                 cn, cp, i, klist, w, tn, p, dn, nt, xn, xcl, 
-                                 wn, wp, wdl, fail, fn, fp, fi, fk, cdl, cv, 
-                                 cwk, objs, adl, single, k, rt, cnt, rdy, enq, 
-                                 wq, sdl, scn, sct, sldl, snear, sso, st, pn >>
+                                 nww, sem, cval, cwaited, cq, clk, cmu, badmu, 
+                                 cz, now, ip, ret, dres, called, dl0, lpar, 
+                                 wfor, freeing, badret, vcount, uaf, taint4, 
+                                 taint5, stack, cn, cp, i, klist, w, tn, p, dn, 
+                                 nt, xn, xcl, wn, wp, wdl, fail, fn, fp, fi, 
+                                 fk, cdl, cv, cwk, objs, adl, single, wm, k, 
+                                 rt, cnt, rdy, enq, wq, unl, sdl, scn, sct, 
+                                 sldl, snear, sso, st, pn >>
 
 ca_6_v(self) == /\ pc[self] = "ca_6_v"
                 /\ sem' = [sem EXCEPT ![cwk[self]] = sem[cwk[self]] + 1]
                 /\ vcount' = [vcount EXCEPT ![cwk[self]] = vcount[cwk[self]] + 1]
                 /\ pc' = [pc EXCEPT ![self] = "ca_5_l"]
                 /\ UNCHANGED << live, notified, exp, par, kids, wts, disc, lk, 
-                                nww, cval, cwaited, cq, clk, nwc, cz, now, ip, 
-                                ret, dres, called, dl0, lpar, wfor, freeing, 
-                                badret, uaf, taint4, taint5, stack, cn, cp, i, 
-                                klist, w, tn, p, dn, nt, xn, xcl, wn, wp, wdl, 
-                                fail, fn, fp, fi, fk, cdl, cv, cwk, objs, adl, 
-                                single, k, rt, cnt, rdy, enq, wq, sdl, scn, 
-                                sct, sldl, snear, sso, st, pn >>
+                                nww, cval, cwaited, cq, clk, nwc, cmu, badmu, 
+                                cz, now, ip, ret, dres, called, dl0, lpar, 
+                                wfor, freeing, badret, uaf, taint4, taint5, 
+                                stack, cn, cp, i, klist, w, tn, p, dn, nt, xn, 
+                                xcl, wn, wp, wdl, fail, fn, fp, fi, fk, cdl, 
+                                cv, cwk, objs, adl, single, wm, k, rt, cnt, 
+                                rdy, enq, wq, unl, sdl, scn, sct, sldl, snear, 
+                                sso, st, pn >>
 
 ca_7_ul(self) == /\ pc[self] = "ca_7_ul"
                  /\ clk' = 0
@@ -1520,13 +1578,13 @@ ca_7_ul(self) == /\ pc[self] = "ca_7_ul"
                  /\ cdl' = [cdl EXCEPT ![self] = Head(stack[self]).cdl]
                  /\ stack' = [stack EXCEPT ![self] = Tail(stack[self])]
                  /\ UNCHANGED << live, notified, exp, par, kids, wts, disc, lk, 
-                                 nww, sem, cval, cwaited, cq, nwc, cz, now, ip, 
-                                 dres, called, dl0, lpar, wfor, freeing, 
-                                 badret, vcount, uaf, taint4, taint5, cn, cp, 
-                                 i, klist, w, tn, p, dn, nt, xn, xcl, wn, wp, 
-                                 wdl, fail, fn, fp, fi, fk, objs, adl, single, 
-                                 k, rt, cnt, rdy, enq, wq, sdl, scn, sct, sldl, 
-                                 snear, sso, st, pn >>
+                                 nww, sem, cval, cwaited, cq, nwc, cmu, badmu, 
+                                 cz, now, ip, dres, called, dl0, lpar, wfor, 
+                                 freeing, badret, vcount, uaf, taint4, taint5, 
+                                 cn, cp, i, klist, w, tn, p, dn, nt, xn, xcl, 
+                                 wn, wp, wdl, fail, fn, fp, fi, fk, objs, adl, 
+                                 single, wm, k, rt, cnt, rdy, enq, wq, unl, 
+                                 sdl, scn, sct, sldl, snear, sso, st, pn >>
 
 cadd(self) == ca_1_lk(self) \/ ca_2_ld(self) \/ ca_3_cas(self)
                  \/ ca_4_l(self) \/ ca_4_ld(self) \/ ca_5_l(self)
@@ -1553,13 +1611,14 @@ ws_1_l(self) == /\ pc[self] = "ws_1_l"
                                       /\ pc' = [pc EXCEPT ![self] = "nd_1_ld"]
                            /\ k' = k
                 /\ UNCHANGED << live, notified, exp, par, kids, wts, disc, lk, 
-                                nww, sem, cval, cwaited, cq, clk, nwc, cz, now, 
-                                ip, ret, dres, called, dl0, lpar, wfor, 
-                                freeing, badret, vcount, uaf, taint4, taint5, 
-                                cn, cp, i, klist, w, tn, p, xn, xcl, wn, wp, 
-                                wdl, fail, fn, fp, fi, fk, cdl, cv, cwk, objs, 
-                                adl, single, rt, cnt, rdy, enq, wq, sdl, scn, 
-                                sct, sldl, snear, sso, st, pn >>
+                                nww, sem, cval, cwaited, cq, clk, nwc, cmu, 
+                                badmu, cz, now, ip, ret, dres, called, dl0, 
+                                lpar, wfor, freeing, badret, vcount, uaf, 
+                                taint4, taint5, cn, cp, i, klist, w, tn, p, xn, 
+                                xcl, wn, wp, wdl, fail, fn, fp, fi, fk, cdl, 
+                                cv, cwk, objs, adl, single, wm, rt, cnt, rdy, 
+                                enq, wq, unl, sdl, scn, sct, sldl, snear, sso, 
+                                st, pn >>
 
 ws_2_l(self) == /\ pc[self] = "ws_2_l"
                 /\ IF dres[self] = ZERO
@@ -1571,35 +1630,38 @@ ws_2_l(self) == /\ pc[self] = "ws_2_l"
                            /\ rdy' = [rdy EXCEPT ![self] = Head(stack[self]).rdy]
                            /\ enq' = [enq EXCEPT ![self] = Head(stack[self]).enq]
                            /\ wq' = [wq EXCEPT ![self] = Head(stack[self]).wq]
+                           /\ unl' = [unl EXCEPT ![self] = Head(stack[self]).unl]
                            /\ objs' = [objs EXCEPT ![self] = Head(stack[self]).objs]
                            /\ adl' = [adl EXCEPT ![self] = Head(stack[self]).adl]
                            /\ single' = [single EXCEPT ![self] = Head(stack[self]).single]
+                           /\ wm' = [wm EXCEPT ![self] = Head(stack[self]).wm]
                            /\ stack' = [stack EXCEPT ![self] = Tail(stack[self])]
                       ELSE /\ k' = [k EXCEPT ![self] = k[self] + 1]
                            /\ pc' = [pc EXCEPT ![self] = "ws_1_l"]
-                           /\ UNCHANGED << ret, stack, objs, adl, single, rt, 
-                                           cnt, rdy, enq, wq >>
+                           /\ UNCHANGED << ret, stack, objs, adl, single, wm, 
+                                           rt, cnt, rdy, enq, wq, unl >>
                 /\ UNCHANGED << live, notified, exp, par, kids, wts, disc, lk, 
-                                nww, sem, cval, cwaited, cq, clk, nwc, cz, now, 
-                                ip, dres, called, dl0, lpar, wfor, freeing, 
-                                badret, vcount, uaf, taint4, taint5, cn, cp, i, 
-                                klist, w, tn, p, dn, nt, xn, xcl, wn, wp, wdl, 
-                                fail, fn, fp, fi, fk, cdl, cv, cwk, sdl, scn, 
-                                sct, sldl, snear, sso, st, pn >>
+                                nww, sem, cval, cwaited, cq, clk, nwc, cmu, 
+                                badmu, cz, now, ip, dres, called, dl0, lpar, 
+                                wfor, freeing, badret, vcount, uaf, taint4, 
+                                taint5, cn, cp, i, klist, w, tn, p, dn, nt, xn, 
+                                xcl, wn, wp, wdl, fail, fn, fp, fi, fk, cdl, 
+                                cv, cwk, sdl, scn, sct, sldl, snear, sso, st, 
+                                pn >>
 
 we_1_l(self) == /\ pc[self] = "we_1_l"
                 /\ IF k[self] > Len(objs[self])
-                      THEN /\ pc' = [pc EXCEPT ![self] = "wl_0_l"]
+                      THEN /\ pc' = [pc EXCEPT ![self] = "wu_0_l"]
                       ELSE /\ pc' = [pc EXCEPT ![self] = "wn_1_st"]
                 /\ UNCHANGED << live, notified, exp, par, kids, wts, disc, lk, 
-                                nww, sem, cval, cwaited, cq, clk, nwc, cz, now, 
-                                ip, ret, dres, called, dl0, lpar, wfor, 
-                                freeing, badret, vcount, uaf, taint4, taint5, 
-                                stack, cn, cp, i, klist, w, tn, p, dn, nt, xn, 
-                                xcl, wn, wp, wdl, fail, fn, fp, fi, fk, cdl, 
-                                cv, cwk, objs, adl, single, k, rt, cnt, rdy, 
-                                enq, wq, sdl, scn, sct, sldl, snear, sso, st, 
-                                pn >>
+                                nww, sem, cval, cwaited, cq, clk, nwc, cmu, 
+                                badmu, cz, now, ip, ret, dres, called, dl0, 
+                                lpar, wfor, freeing, badret, vcount, uaf, 
+                                taint4, taint5, stack, cn, cp, i, klist, w, tn, 
+                                p, dn, nt, xn, xcl, wn, wp, wdl, fail, fn, fp, 
+                                fi, fk, cdl, cv, cwk, objs, adl, single, wm, k, 
+                                rt, cnt, rdy, enq, wq, unl, sdl, scn, sct, 
+                                sldl, snear, sso, st, pn >>
 
 wn_1_st(self) == /\ pc[self] = "wn_1_st"
                  /\ IF objs[self][k[self]] = CTR
@@ -1610,13 +1672,14 @@ wn_1_st(self) == /\ pc[self] = "wn_1_st"
                             /\ pc' = [pc EXCEPT ![self] = "ne_1_lk"]
                             /\ nwc' = nwc
                  /\ UNCHANGED << live, notified, exp, par, kids, wts, disc, lk, 
-                                 sem, cval, cwaited, cq, clk, cz, now, ip, ret, 
-                                 dres, called, dl0, lpar, wfor, freeing, 
-                                 badret, vcount, uaf, taint4, taint5, stack, 
-                                 cn, cp, i, klist, w, tn, p, dn, nt, xn, xcl, 
-                                 wn, wp, wdl, fail, fn, fp, fi, fk, cdl, cv, 
-                                 cwk, objs, adl, single, k, rt, cnt, rdy, enq, 
-                                 wq, sdl, scn, sct, sldl, snear, sso, st, pn >>
+                                 sem, cval, cwaited, cq, clk, cmu, badmu, cz, 
+                                 now, ip, ret, dres, called, dl0, lpar, wfor, 
+                                 freeing, badret, vcount, uaf, taint4, taint5, 
+                                 stack, cn, cp, i, klist, w, tn, p, dn, nt, xn, 
+                                 xcl, wn, wp, wdl, fail, fn, fp, fi, fk, cdl, 
+                                 cv, cwk, objs, adl, single, wm, k, rt, cnt, 
+                                 rdy, enq, wq, unl, sdl, scn, sct, sldl, snear, 
+                                 sso, st, pn >>
 
 ne_1_lk(self) == /\ pc[self] = "ne_1_lk"
                  /\ lk[objs[self][k[self]]] = 0
@@ -1624,14 +1687,14 @@ ne_1_lk(self) == /\ pc[self] = "ne_1_lk"
                  /\ uaf' = (uaf \/ Touch(objs[self][k[self]]))
                  /\ pc' = [pc EXCEPT ![self] = "ne_2_ld"]
                  /\ UNCHANGED << live, notified, exp, par, kids, wts, disc, 
-                                 nww, sem, cval, cwaited, cq, clk, nwc, cz, 
-                                 now, ip, ret, dres, called, dl0, lpar, wfor, 
-                                 freeing, badret, vcount, taint4, taint5, 
-                                 stack, cn, cp, i, klist, w, tn, p, dn, nt, xn, 
-                                 xcl, wn, wp, wdl, fail, fn, fp, fi, fk, cdl, 
-                                 cv, cwk, objs, adl, single, k, rt, cnt, rdy, 
-                                 enq, wq, sdl, scn, sct, sldl, snear, sso, st, 
-                                 pn >>
+                                 nww, sem, cval, cwaited, cq, clk, nwc, cmu, 
+                                 badmu, cz, now, ip, ret, dres, called, dl0, 
+                                 lpar, wfor, freeing, badret, vcount, taint4, 
+                                 taint5, stack, cn, cp, i, klist, w, tn, p, dn, 
+                                 nt, xn, xcl, wn, wp, wdl, fail, fn, fp, fi, 
+                                 fk, cdl, cv, cwk, objs, adl, single, wm, k, 
+                                 rt, cnt, rdy, enq, wq, unl, sdl, scn, sct, 
+                                 sldl, snear, sso, st, pn >>
 
 ne_2_ld(self) == /\ pc[self] = "ne_2_ld"
                  /\ enq' = [enq EXCEPT ![self] = NTime(objs[self][k[self]]) > ZERO]
@@ -1641,38 +1704,40 @@ ne_2_ld(self) == /\ pc[self] = "ne_2_ld"
                             /\ wts' = wts
                  /\ pc' = [pc EXCEPT ![self] = "ne_3_st"]
                  /\ UNCHANGED << live, notified, exp, par, kids, disc, lk, nww, 
-                                 sem, cval, cwaited, cq, clk, nwc, cz, now, ip, 
-                                 ret, dres, called, dl0, lpar, wfor, freeing, 
-                                 badret, vcount, uaf, taint4, taint5, stack, 
-                                 cn, cp, i, klist, w, tn, p, dn, nt, xn, xcl, 
-                                 wn, wp, wdl, fail, fn, fp, fi, fk, cdl, cv, 
-                                 cwk, objs, adl, single, k, rt, cnt, rdy, wq, 
-                                 sdl, scn, sct, sldl, snear, sso, st, pn >>
+                                 sem, cval, cwaited, cq, clk, nwc, cmu, badmu, 
+                                 cz, now, ip, ret, dres, called, dl0, lpar, 
+                                 wfor, freeing, badret, vcount, uaf, taint4, 
+                                 taint5, stack, cn, cp, i, klist, w, tn, p, dn, 
+                                 nt, xn, xcl, wn, wp, wdl, fail, fn, fp, fi, 
+                                 fk, cdl, cv, cwk, objs, adl, single, wm, k, 
+                                 rt, cnt, rdy, wq, unl, sdl, scn, sct, sldl, 
+                                 snear, sso, st, pn >>
 
 ne_3_st(self) == /\ pc[self] = "ne_3_st"
                  /\ nww' = [nww EXCEPT ![self][objs[self][k[self]]] = IF enq[self] THEN 1 ELSE 0]
                  /\ pc' = [pc EXCEPT ![self] = "ne_4_ul"]
                  /\ UNCHANGED << live, notified, exp, par, kids, wts, disc, lk, 
-                                 sem, cval, cwaited, cq, clk, nwc, cz, now, ip, 
-                                 ret, dres, called, dl0, lpar, wfor, freeing, 
-                                 badret, vcount, uaf, taint4, taint5, stack, 
-                                 cn, cp, i, klist, w, tn, p, dn, nt, xn, xcl, 
-                                 wn, wp, wdl, fail, fn, fp, fi, fk, cdl, cv, 
-                                 cwk, objs, adl, single, k, rt, cnt, rdy, enq, 
-                                 wq, sdl, scn, sct, sldl, snear, sso, st, pn >>
+                                 sem, cval, cwaited, cq, clk, nwc, cmu, badmu, 
+                                 cz, now, ip, ret, dres, called, dl0, lpar, 
+                                 wfor, freeing, badret, vcount, uaf, taint4, 
+                                 taint5, stack, cn, cp, i, klist, w, tn, p, dn, 
+                                 nt, xn, xcl, wn, wp, wdl, fail, fn, fp, fi, 
+                                 fk, cdl, cv, cwk, objs, adl, single, wm, k, 
+                                 rt, cnt, rdy, enq, wq, unl, sdl, scn, sct, 
+                                 sldl, snear, sso, st, pn >>
 
 ne_4_ul(self) == /\ pc[self] = "ne_4_ul"
                  /\ lk' = [lk EXCEPT ![objs[self][k[self]]] = 0]
                  /\ pc' = [pc EXCEPT ![self] = "ne_5_l"]
                  /\ UNCHANGED << live, notified, exp, par, kids, wts, disc, 
-                                 nww, sem, cval, cwaited, cq, clk, nwc, cz, 
-                                 now, ip, ret, dres, called, dl0, lpar, wfor, 
-                                 freeing, badret, vcount, uaf, taint4, taint5, 
-                                 stack, cn, cp, i, klist, w, tn, p, dn, nt, xn, 
-                                 xcl, wn, wp, wdl, fail, fn, fp, fi, fk, cdl, 
-                                 cv, cwk, objs, adl, single, k, rt, cnt, rdy, 
-                                 enq, wq, sdl, scn, sct, sldl, snear, sso, st, 
-                                 pn >>
+                                 nww, sem, cval, cwaited, cq, clk, nwc, cmu, 
+                                 badmu, cz, now, ip, ret, dres, called, dl0, 
+                                 lpar, wfor, freeing, badret, vcount, uaf, 
+                                 taint4, taint5, stack, cn, cp, i, klist, w, 
+                                 tn, p, dn, nt, xn, xcl, wn, wp, wdl, fail, fn, 
+                                 fp, fi, fk, cdl, cv, cwk, objs, adl, single, 
+                                 wm, k, rt, cnt, rdy, enq, wq, unl, sdl, scn, 
+                                 sct, sldl, snear, sso, st, pn >>
 
 ne_5_l(self) == /\ pc[self] = "ne_5_l"
                 /\ cnt' = [cnt EXCEPT ![self] = k[self]]
@@ -1680,30 +1745,32 @@ ne_5_l(self) == /\ pc[self] = "ne_5_l"
                       THEN /\ k' = [k EXCEPT ![self] = k[self] + 1]
                            /\ pc' = [pc EXCEPT ![self] = "we_1_l"]
                       ELSE /\ IF k[self] = Len(objs[self])
-                                 THEN /\ pc' = [pc EXCEPT ![self] = "wl_0_l"]
+                                 THEN /\ pc' = [pc EXCEPT ![self] = "wu_0_l"]
                                  ELSE /\ pc' = [pc EXCEPT ![self] = "wd_0_l"]
                            /\ k' = k
                 /\ UNCHANGED << live, notified, exp, par, kids, wts, disc, lk, 
-                                nww, sem, cval, cwaited, cq, clk, nwc, cz, now, 
-                                ip, ret, dres, called, dl0, lpar, wfor, 
-                                freeing, badret, vcount, uaf, taint4, taint5, 
-                                stack, cn, cp, i, klist, w, tn, p, dn, nt, xn, 
-                                xcl, wn, wp, wdl, fail, fn, fp, fi, fk, cdl, 
-                                cv, cwk, objs, adl, single, rt, rdy, enq, wq, 
-                                sdl, scn, sct, sldl, snear, sso, st, pn >>
+                                nww, sem, cval, cwaited, cq, clk, nwc, cmu, 
+                                badmu, cz, now, ip, ret, dres, called, dl0, 
+                                lpar, wfor, freeing, badret, vcount, uaf, 
+                                taint4, taint5, stack, cn, cp, i, klist, w, tn, 
+                                p, dn, nt, xn, xcl, wn, wp, wdl, fail, fn, fp, 
+                                fi, fk, cdl, cv, cwk, objs, adl, single, wm, 
+                                rt, rdy, enq, wq, unl, sdl, scn, sct, sldl, 
+                                snear, sso, st, pn >>
 
 ce_1_lk(self) == /\ pc[self] = "ce_1_lk"
                  /\ clk = 0
                  /\ clk' = self
                  /\ pc' = [pc EXCEPT ![self] = "ce_2_ld"]
                  /\ UNCHANGED << live, notified, exp, par, kids, wts, disc, lk, 
-                                 nww, sem, cval, cwaited, cq, nwc, cz, now, ip, 
-                                 ret, dres, called, dl0, lpar, wfor, freeing, 
-                                 badret, vcount, uaf, taint4, taint5, stack, 
-                                 cn, cp, i, klist, w, tn, p, dn, nt, xn, xcl, 
-                                 wn, wp, wdl, fail, fn, fp, fi, fk, cdl, cv, 
-                                 cwk, objs, adl, single, k, rt, cnt, rdy, enq, 
-                                 wq, sdl, scn, sct, sldl, snear, sso, st, pn >>
+                                 nww, sem, cval, cwaited, cq, nwc, cmu, badmu, 
+                                 cz, now, ip, ret, dres, called, dl0, lpar, 
+                                 wfor, freeing, badret, vcount, uaf, taint4, 
+                                 taint5, stack, cn, cp, i, klist, w, tn, p, dn, 
+                                 nt, xn, xcl, wn, wp, wdl, fail, fn, fp, fi, 
+                                 fk, cdl, cv, cwk, objs, adl, single, wm, k, 
+                                 rt, cnt, rdy, enq, wq, unl, sdl, scn, sct, 
+                                 sldl, snear, sso, st, pn >>
 
 ce_2_ld(self) == /\ pc[self] = "ce_2_ld"
                  /\ enq' = [enq EXCEPT ![self] = cval # 0]
@@ -1713,50 +1780,82 @@ ce_2_ld(self) == /\ pc[self] = "ce_2_ld"
                             /\ cq' = cq
                  /\ pc' = [pc EXCEPT ![self] = "ce_3_st"]
                  /\ UNCHANGED << live, notified, exp, par, kids, wts, disc, lk, 
-                                 nww, sem, cval, cwaited, clk, nwc, cz, now, 
-                                 ip, ret, dres, called, dl0, lpar, wfor, 
-                                 freeing, badret, vcount, uaf, taint4, taint5, 
-                                 stack, cn, cp, i, klist, w, tn, p, dn, nt, xn, 
-                                 xcl, wn, wp, wdl, fail, fn, fp, fi, fk, cdl, 
-                                 cv, cwk, objs, adl, single, k, rt, cnt, rdy, 
-                                 wq, sdl, scn, sct, sldl, snear, sso, st, pn >>
+                                 nww, sem, cval, cwaited, clk, nwc, cmu, badmu, 
+                                 cz, now, ip, ret, dres, called, dl0, lpar, 
+                                 wfor, freeing, badret, vcount, uaf, taint4, 
+                                 taint5, stack, cn, cp, i, klist, w, tn, p, dn, 
+                                 nt, xn, xcl, wn, wp, wdl, fail, fn, fp, fi, 
+                                 fk, cdl, cv, cwk, objs, adl, single, wm, k, 
+                                 rt, cnt, rdy, wq, unl, sdl, scn, sct, sldl, 
+                                 snear, sso, st, pn >>
 
 ce_3_st(self) == /\ pc[self] = "ce_3_st"
                  /\ nwc' = [nwc EXCEPT ![self] = IF enq[self] THEN 1 ELSE 0]
                  /\ pc' = [pc EXCEPT ![self] = "ce_4_ul"]
                  /\ UNCHANGED << live, notified, exp, par, kids, wts, disc, lk, 
-                                 nww, sem, cval, cwaited, cq, clk, cz, now, ip, 
-                                 ret, dres, called, dl0, lpar, wfor, freeing, 
-                                 badret, vcount, uaf, taint4, taint5, stack, 
-                                 cn, cp, i, klist, w, tn, p, dn, nt, xn, xcl, 
-                                 wn, wp, wdl, fail, fn, fp, fi, fk, cdl, cv, 
-                                 cwk, objs, adl, single, k, rt, cnt, rdy, enq, 
-                                 wq, sdl, scn, sct, sldl, snear, sso, st, pn >>
+                                 nww, sem, cval, cwaited, cq, clk, cmu, badmu, 
+                                 cz, now, ip, ret, dres, called, dl0, lpar, 
+                                 wfor, freeing, badret, vcount, uaf, taint4, 
+                                 taint5, stack, cn, cp, i, klist, w, tn, p, dn, 
+                                 nt, xn, xcl, wn, wp, wdl, fail, fn, fp, fi, 
+                                 fk, cdl, cv, cwk, objs, adl, single, wm, k, 
+                                 rt, cnt, rdy, enq, wq, unl, sdl, scn, sct, 
+                                 sldl, snear, sso, st, pn >>
 
 ce_4_ul(self) == /\ pc[self] = "ce_4_ul"
                  /\ clk' = 0
                  /\ pc' = [pc EXCEPT ![self] = "ne_5_l"]
                  /\ UNCHANGED << live, notified, exp, par, kids, wts, disc, lk, 
-                                 nww, sem, cval, cwaited, cq, nwc, cz, now, ip, 
-                                 ret, dres, called, dl0, lpar, wfor, freeing, 
-                                 badret, vcount, uaf, taint4, taint5, stack, 
-                                 cn, cp, i, klist, w, tn, p, dn, nt, xn, xcl, 
-                                 wn, wp, wdl, fail, fn, fp, fi, fk, cdl, cv, 
-                                 cwk, objs, adl, single, k, rt, cnt, rdy, enq, 
-                                 wq, sdl, scn, sct, sldl, snear, sso, st, pn >>
+                                 nww, sem, cval, cwaited, cq, nwc, cmu, badmu, 
+                                 cz, now, ip, ret, dres, called, dl0, lpar, 
+                                 wfor, freeing, badret, vcount, uaf, taint4, 
+                                 taint5, stack, cn, cp, i, klist, w, tn, p, dn, 
+                                 nt, xn, xcl, wn, wp, wdl, fail, fn, fp, fi, 
+                                 fk, cdl, cv, cwk, objs, adl, single, wm, k, 
+                                 rt, cnt, rdy, enq, wq, unl, sdl, scn, sct, 
+                                 sldl, snear, sso, st, pn >>
+
+wu_0_l(self) == /\ pc[self] = "wu_0_l"
+                /\ IF ~wm[self]
+                      THEN /\ pc' = [pc EXCEPT ![self] = "wl_0_l"]
+                      ELSE /\ pc' = [pc EXCEPT ![self] = "wu_1_ul"]
+                /\ UNCHANGED << live, notified, exp, par, kids, wts, disc, lk, 
+                                nww, sem, cval, cwaited, cq, clk, nwc, cmu, 
+                                badmu, cz, now, ip, ret, dres, called, dl0, 
+                                lpar, wfor, freeing, badret, vcount, uaf, 
+                                taint4, taint5, stack, cn, cp, i, klist, w, tn, 
+                                p, dn, nt, xn, xcl, wn, wp, wdl, fail, fn, fp, 
+                                fi, fk, cdl, cv, cwk, objs, adl, single, wm, k, 
+                                rt, cnt, rdy, enq, wq, unl, sdl, scn, sct, 
+                                sldl, snear, sso, st, pn >>
+
+wu_1_ul(self) == /\ pc[self] = "wu_1_ul"
+                 /\ cmu' = 0
+                 /\ unl' = [unl EXCEPT ![self] = TRUE]
+                 /\ pc' = [pc EXCEPT ![self] = "wl_0_l"]
+                 /\ UNCHANGED << live, notified, exp, par, kids, wts, disc, lk, 
+                                 nww, sem, cval, cwaited, cq, clk, nwc, badmu, 
+                                 cz, now, ip, ret, dres, called, dl0, lpar, 
+                                 wfor, freeing, badret, vcount, uaf, taint4, 
+                                 taint5, stack, cn, cp, i, klist, w, tn, p, dn, 
+                                 nt, xn, xcl, wn, wp, wdl, fail, fn, fp, fi, 
+                                 fk, cdl, cv, cwk, objs, adl, single, wm, k, 
+                                 rt, cnt, rdy, enq, wq, sdl, scn, sct, sldl, 
+                                 snear, sso, st, pn >>
 
 wl_0_l(self) == /\ pc[self] = "wl_0_l"
                 /\ k' = [k EXCEPT ![self] = 1]
                 /\ rt' = [rt EXCEPT ![self] = adl[self]]
                 /\ pc' = [pc EXCEPT ![self] = "wl_1_l"]
                 /\ UNCHANGED << live, notified, exp, par, kids, wts, disc, lk, 
-                                nww, sem, cval, cwaited, cq, clk, nwc, cz, now, 
-                                ip, ret, dres, called, dl0, lpar, wfor, 
-                                freeing, badret, vcount, uaf, taint4, taint5, 
-                                stack, cn, cp, i, klist, w, tn, p, dn, nt, xn, 
-                                xcl, wn, wp, wdl, fail, fn, fp, fi, fk, cdl, 
-                                cv, cwk, objs, adl, single, cnt, rdy, enq, wq, 
-                                sdl, scn, sct, sldl, snear, sso, st, pn >>
+                                nww, sem, cval, cwaited, cq, clk, nwc, cmu, 
+                                badmu, cz, now, ip, ret, dres, called, dl0, 
+                                lpar, wfor, freeing, badret, vcount, uaf, 
+                                taint4, taint5, stack, cn, cp, i, klist, w, tn, 
+                                p, dn, nt, xn, xcl, wn, wp, wdl, fail, fn, fp, 
+                                fi, fk, cdl, cv, cwk, objs, adl, single, wm, 
+                                cnt, rdy, enq, wq, unl, sdl, scn, sct, sldl, 
+                                snear, sso, st, pn >>
 
 wl_1_l(self) == /\ pc[self] = "wl_1_l"
                 /\ IF k[self] > Len(objs[self])
@@ -1777,40 +1876,42 @@ wl_1_l(self) == /\ pc[self] = "wl_1_l"
                                       /\ nt' = [nt EXCEPT ![self] = 0]
                                       /\ pc' = [pc EXCEPT ![self] = "nd_1_ld"]
                 /\ UNCHANGED << live, notified, exp, par, kids, wts, disc, lk, 
-                                nww, sem, cval, cwaited, cq, clk, nwc, cz, now, 
-                                ip, ret, dres, called, dl0, lpar, wfor, 
-                                freeing, badret, vcount, uaf, taint4, taint5, 
-                                cn, cp, i, klist, w, tn, p, xn, xcl, wn, wp, 
-                                wdl, fail, fn, fp, fi, fk, cdl, cv, cwk, objs, 
-                                adl, single, k, rt, cnt, rdy, enq, wq, sdl, 
-                                scn, sct, sldl, snear, sso, st, pn >>
+                                nww, sem, cval, cwaited, cq, clk, nwc, cmu, 
+                                badmu, cz, now, ip, ret, dres, called, dl0, 
+                                lpar, wfor, freeing, badret, vcount, uaf, 
+                                taint4, taint5, cn, cp, i, klist, w, tn, p, xn, 
+                                xcl, wn, wp, wdl, fail, fn, fp, fi, fk, cdl, 
+                                cv, cwk, objs, adl, single, wm, k, rt, cnt, 
+                                rdy, enq, wq, unl, sdl, scn, sct, sldl, snear, 
+                                sso, st, pn >>
 
 wl_2_l(self) == /\ pc[self] = "wl_2_l"
                 /\ rt' = [rt EXCEPT ![self] = Min2(rt[self], dres[self])]
                 /\ k' = [k EXCEPT ![self] = k[self] + 1]
                 /\ pc' = [pc EXCEPT ![self] = "wl_1_l"]
                 /\ UNCHANGED << live, notified, exp, par, kids, wts, disc, lk, 
-                                nww, sem, cval, cwaited, cq, clk, nwc, cz, now, 
-                                ip, ret, dres, called, dl0, lpar, wfor, 
-                                freeing, badret, vcount, uaf, taint4, taint5, 
-                                stack, cn, cp, i, klist, w, tn, p, dn, nt, xn, 
-                                xcl, wn, wp, wdl, fail, fn, fp, fi, fk, cdl, 
-                                cv, cwk, objs, adl, single, cnt, rdy, enq, wq, 
-                                sdl, scn, sct, sldl, snear, sso, st, pn >>
+                                nww, sem, cval, cwaited, cq, clk, nwc, cmu, 
+                                badmu, cz, now, ip, ret, dres, called, dl0, 
+                                lpar, wfor, freeing, badret, vcount, uaf, 
+                                taint4, taint5, stack, cn, cp, i, klist, w, tn, 
+                                p, dn, nt, xn, xcl, wn, wp, wdl, fail, fn, fp, 
+                                fi, fk, cdl, cv, cwk, objs, adl, single, wm, 
+                                cnt, rdy, enq, wq, unl, sdl, scn, sct, sldl, 
+                                snear, sso, st, pn >>
 
 wl_3_l(self) == /\ pc[self] = "wl_3_l"
                 /\ IF rt[self] = ZERO
                       THEN /\ pc' = [pc EXCEPT ![self] = "wd_0_l"]
                       ELSE /\ pc' = [pc EXCEPT ![self] = "wn_7_pd"]
                 /\ UNCHANGED << live, notified, exp, par, kids, wts, disc, lk, 
-                                nww, sem, cval, cwaited, cq, clk, nwc, cz, now, 
-                                ip, ret, dres, called, dl0, lpar, wfor, 
-                                freeing, badret, vcount, uaf, taint4, taint5, 
-                                stack, cn, cp, i, klist, w, tn, p, dn, nt, xn, 
-                                xcl, wn, wp, wdl, fail, fn, fp, fi, fk, cdl, 
-                                cv, cwk, objs, adl, single, k, rt, cnt, rdy, 
-                                enq, wq, sdl, scn, sct, sldl, snear, sso, st, 
-                                pn >>
+                                nww, sem, cval, cwaited, cq, clk, nwc, cmu, 
+                                badmu, cz, now, ip, ret, dres, called, dl0, 
+                                lpar, wfor, freeing, badret, vcount, uaf, 
+                                taint4, taint5, stack, cn, cp, i, klist, w, tn, 
+                                p, dn, nt, xn, xcl, wn, wp, wdl, fail, fn, fp, 
+                                fi, fk, cdl, cv, cwk, objs, adl, single, wm, k, 
+                                rt, cnt, rdy, enq, wq, unl, sdl, scn, sct, 
+                                sldl, snear, sso, st, pn >>
 
 wn_7_pd(self) == /\ pc[self] = "wn_7_pd"
                  /\ sem[self] > 0 \/ (rt[self] < NONE /\ now >= rt[self])
@@ -1820,30 +1921,32 @@ wn_7_pd(self) == /\ pc[self] = "wn_7_pd"
                        ELSE /\ pc' = [pc EXCEPT ![self] = "wd_0_l"]
                             /\ sem' = sem
                  /\ UNCHANGED << live, notified, exp, par, kids, wts, disc, lk, 
-                                 nww, cval, cwaited, cq, clk, nwc, cz, now, ip, 
-                                 ret, dres, called, dl0, lpar, wfor, freeing, 
-                                 badret, vcount, uaf, taint4, taint5, stack, 
-                                 cn, cp, i, klist, w, tn, p, dn, nt, xn, xcl, 
-                                 wn, wp, wdl, fail, fn, fp, fi, fk, cdl, cv, 
-                                 cwk, objs, adl, single, k, rt, cnt, rdy, enq, 
-                                 wq, sdl, scn, sct, sldl, snear, sso, st, pn >>
+                                 nww, cval, cwaited, cq, clk, nwc, cmu, badmu, 
+                                 cz, now, ip, ret, dres, called, dl0, lpar, 
+                                 wfor, freeing, badret, vcount, uaf, taint4, 
+                                 taint5, stack, cn, cp, i, klist, w, tn, p, dn, 
+                                 nt, xn, xcl, wn, wp, wdl, fail, fn, fp, fi, 
+                                 fk, cdl, cv, cwk, objs, adl, single, wm, k, 
+                                 rt, cnt, rdy, enq, wq, unl, sdl, scn, sct, 
+                                 sldl, snear, sso, st, pn >>
 
 wd_0_l(self) == /\ pc[self] = "wd_0_l"
                 /\ k' = [k EXCEPT ![self] = 1]
                 /\ rdy' = [rdy EXCEPT ![self] = 0]
                 /\ pc' = [pc EXCEPT ![self] = "wd_1_l"]
                 /\ UNCHANGED << live, notified, exp, par, kids, wts, disc, lk, 
-                                nww, sem, cval, cwaited, cq, clk, nwc, cz, now, 
-                                ip, ret, dres, called, dl0, lpar, wfor, 
-                                freeing, badret, vcount, uaf, taint4, taint5, 
-                                stack, cn, cp, i, klist, w, tn, p, dn, nt, xn, 
-                                xcl, wn, wp, wdl, fail, fn, fp, fi, fk, cdl, 
-                                cv, cwk, objs, adl, single, rt, cnt, enq, wq, 
-                                sdl, scn, sct, sldl, snear, sso, st, pn >>
+                                nww, sem, cval, cwaited, cq, clk, nwc, cmu, 
+                                badmu, cz, now, ip, ret, dres, called, dl0, 
+                                lpar, wfor, freeing, badret, vcount, uaf, 
+                                taint4, taint5, stack, cn, cp, i, klist, w, tn, 
+                                p, dn, nt, xn, xcl, wn, wp, wdl, fail, fn, fp, 
+                                fi, fk, cdl, cv, cwk, objs, adl, single, wm, 
+                                rt, cnt, enq, wq, unl, sdl, scn, sct, sldl, 
+                                snear, sso, st, pn >>
 
 wd_1_l(self) == /\ pc[self] = "wd_1_l"
                 /\ IF k[self] > cnt[self]
-                      THEN /\ pc' = [pc EXCEPT ![self] = "wd_9_l"]
+                      THEN /\ pc' = [pc EXCEPT ![self] = "wd_8_l"]
                            /\ UNCHANGED << stack, dn, nt >>
                       ELSE /\ IF objs[self][k[self]] = CTR
                                  THEN /\ pc' = [pc EXCEPT ![self] = "cd_1_lk"]
@@ -1857,13 +1960,14 @@ wd_1_l(self) == /\ pc[self] = "wd_1_l"
                                       /\ nt' = [nt EXCEPT ![self] = 0]
                                       /\ pc' = [pc EXCEPT ![self] = "nd_1_ld"]
                 /\ UNCHANGED << live, notified, exp, par, kids, wts, disc, lk, 
-                                nww, sem, cval, cwaited, cq, clk, nwc, cz, now, 
-                                ip, ret, dres, called, dl0, lpar, wfor, 
-                                freeing, badret, vcount, uaf, taint4, taint5, 
-                                cn, cp, i, klist, w, tn, p, xn, xcl, wn, wp, 
-                                wdl, fail, fn, fp, fi, fk, cdl, cv, cwk, objs, 
-                                adl, single, k, rt, cnt, rdy, enq, wq, sdl, 
-                                scn, sct, sldl, snear, sso, st, pn >>
+                                nww, sem, cval, cwaited, cq, clk, nwc, cmu, 
+                                badmu, cz, now, ip, ret, dres, called, dl0, 
+                                lpar, wfor, freeing, badret, vcount, uaf, 
+                                taint4, taint5, cn, cp, i, klist, w, tn, p, xn, 
+                                xcl, wn, wp, wdl, fail, fn, fp, fi, fk, cdl, 
+                                cv, cwk, objs, adl, single, wm, k, rt, cnt, 
+                                rdy, enq, wq, unl, sdl, scn, sct, sldl, snear, 
+                                sso, st, pn >>
 
 nq_2_lk(self) == /\ pc[self] = "nq_2_lk"
                  /\ lk[objs[self][k[self]]] = 0
@@ -1871,14 +1975,14 @@ nq_2_lk(self) == /\ pc[self] = "nq_2_lk"
                  /\ uaf' = (uaf \/ Touch(objs[self][k[self]]))
                  /\ pc' = [pc EXCEPT ![self] = "nq_3_ld"]
                  /\ UNCHANGED << live, notified, exp, par, kids, wts, disc, 
-                                 nww, sem, cval, cwaited, cq, clk, nwc, cz, 
-                                 now, ip, ret, dres, called, dl0, lpar, wfor, 
-                                 freeing, badret, vcount, taint4, taint5, 
-                                 stack, cn, cp, i, klist, w, tn, p, dn, nt, xn, 
-                                 xcl, wn, wp, wdl, fail, fn, fp, fi, fk, cdl, 
-                                 cv, cwk, objs, adl, single, k, rt, cnt, rdy, 
-                                 enq, wq, sdl, scn, sct, sldl, snear, sso, st, 
-                                 pn >>
+                                 nww, sem, cval, cwaited, cq, clk, nwc, cmu, 
+                                 badmu, cz, now, ip, ret, dres, called, dl0, 
+                                 lpar, wfor, freeing, badret, vcount, taint4, 
+                                 taint5, stack, cn, cp, i, klist, w, tn, p, dn, 
+                                 nt, xn, xcl, wn, wp, wdl, fail, fn, fp, fi, 
+                                 fk, cdl, cv, cwk, objs, adl, single, wm, k, 
+                                 rt, cnt, rdy, enq, wq, unl, sdl, scn, sct, 
+                                 sldl, snear, sso, st, pn >>
 
 nq_3_ld(self) == /\ pc[self] = "nq_3_ld"
                  /\ wq' = [wq EXCEPT ![self] = NTime(objs[self][k[self]]) > ZERO]
@@ -1888,52 +1992,54 @@ nq_3_ld(self) == /\ pc[self] = "nq_3_ld"
                             /\ wts' = wts
                  /\ pc' = [pc EXCEPT ![self] = "nq_3_l"]
                  /\ UNCHANGED << live, notified, exp, par, kids, disc, lk, nww, 
-                                 sem, cval, cwaited, cq, clk, nwc, cz, now, ip, 
-                                 ret, dres, called, dl0, lpar, wfor, freeing, 
-                                 badret, vcount, uaf, taint4, taint5, stack, 
-                                 cn, cp, i, klist, w, tn, p, dn, nt, xn, xcl, 
-                                 wn, wp, wdl, fail, fn, fp, fi, fk, cdl, cv, 
-                                 cwk, objs, adl, single, k, rt, cnt, rdy, enq, 
-                                 sdl, scn, sct, sldl, snear, sso, st, pn >>
+                                 sem, cval, cwaited, cq, clk, nwc, cmu, badmu, 
+                                 cz, now, ip, ret, dres, called, dl0, lpar, 
+                                 wfor, freeing, badret, vcount, uaf, taint4, 
+                                 taint5, stack, cn, cp, i, klist, w, tn, p, dn, 
+                                 nt, xn, xcl, wn, wp, wdl, fail, fn, fp, fi, 
+                                 fk, cdl, cv, cwk, objs, adl, single, wm, k, 
+                                 rt, cnt, rdy, enq, unl, sdl, scn, sct, sldl, 
+                                 snear, sso, st, pn >>
 
 nq_3_l(self) == /\ pc[self] = "nq_3_l"
                 /\ IF ~wq[self]
                       THEN /\ pc' = [pc EXCEPT ![self] = "nq_5_ul"]
                       ELSE /\ pc' = [pc EXCEPT ![self] = "nq_4_st"]
                 /\ UNCHANGED << live, notified, exp, par, kids, wts, disc, lk, 
-                                nww, sem, cval, cwaited, cq, clk, nwc, cz, now, 
-                                ip, ret, dres, called, dl0, lpar, wfor, 
-                                freeing, badret, vcount, uaf, taint4, taint5, 
-                                stack, cn, cp, i, klist, w, tn, p, dn, nt, xn, 
-                                xcl, wn, wp, wdl, fail, fn, fp, fi, fk, cdl, 
-                                cv, cwk, objs, adl, single, k, rt, cnt, rdy, 
-                                enq, wq, sdl, scn, sct, sldl, snear, sso, st, 
-                                pn >>
+                                nww, sem, cval, cwaited, cq, clk, nwc, cmu, 
+                                badmu, cz, now, ip, ret, dres, called, dl0, 
+                                lpar, wfor, freeing, badret, vcount, uaf, 
+                                taint4, taint5, stack, cn, cp, i, klist, w, tn, 
+                                p, dn, nt, xn, xcl, wn, wp, wdl, fail, fn, fp, 
+                                fi, fk, cdl, cv, cwk, objs, adl, single, wm, k, 
+                                rt, cnt, rdy, enq, wq, unl, sdl, scn, sct, 
+                                sldl, snear, sso, st, pn >>
 
 nq_4_st(self) == /\ pc[self] = "nq_4_st"
                  /\ nww' = [nww EXCEPT ![self][objs[self][k[self]]] = 0]
                  /\ pc' = [pc EXCEPT ![self] = "nq_5_ul"]
                  /\ UNCHANGED << live, notified, exp, par, kids, wts, disc, lk, 
-                                 sem, cval, cwaited, cq, clk, nwc, cz, now, ip, 
-                                 ret, dres, called, dl0, lpar, wfor, freeing, 
-                                 badret, vcount, uaf, taint4, taint5, stack, 
-                                 cn, cp, i, klist, w, tn, p, dn, nt, xn, xcl, 
-                                 wn, wp, wdl, fail, fn, fp, fi, fk, cdl, cv, 
-                                 cwk, objs, adl, single, k, rt, cnt, rdy, enq, 
-                                 wq, sdl, scn, sct, sldl, snear, sso, st, pn >>
+                                 sem, cval, cwaited, cq, clk, nwc, cmu, badmu, 
+                                 cz, now, ip, ret, dres, called, dl0, lpar, 
+                                 wfor, freeing, badret, vcount, uaf, taint4, 
+                                 taint5, stack, cn, cp, i, klist, w, tn, p, dn, 
+                                 nt, xn, xcl, wn, wp, wdl, fail, fn, fp, fi, 
+                                 fk, cdl, cv, cwk, objs, adl, single, wm, k, 
+                                 rt, cnt, rdy, enq, wq, unl, sdl, scn, sct, 
+                                 sldl, snear, sso, st, pn >>
 
 nq_5_ul(self) == /\ pc[self] = "nq_5_ul"
                  /\ lk' = [lk EXCEPT ![objs[self][k[self]]] = 0]
                  /\ pc' = [pc EXCEPT ![self] = "nq_6_l"]
                  /\ UNCHANGED << live, notified, exp, par, kids, wts, disc, 
-                                 nww, sem, cval, cwaited, cq, clk, nwc, cz, 
-                                 now, ip, ret, dres, called, dl0, lpar, wfor, 
-                                 freeing, badret, vcount, uaf, taint4, taint5, 
-                                 stack, cn, cp, i, klist, w, tn, p, dn, nt, xn, 
-                                 xcl, wn, wp, wdl, fail, fn, fp, fi, fk, cdl, 
-                                 cv, cwk, objs, adl, single, k, rt, cnt, rdy, 
-                                 enq, wq, sdl, scn, sct, sldl, snear, sso, st, 
-                                 pn >>
+                                 nww, sem, cval, cwaited, cq, clk, nwc, cmu, 
+                                 badmu, cz, now, ip, ret, dres, called, dl0, 
+                                 lpar, wfor, freeing, badret, vcount, uaf, 
+                                 taint4, taint5, stack, cn, cp, i, klist, w, 
+                                 tn, p, dn, nt, xn, xcl, wn, wp, wdl, fail, fn, 
+                                 fp, fi, fk, cdl, cv, cwk, objs, adl, single, 
+                                 wm, k, rt, cnt, rdy, enq, wq, unl, sdl, scn, 
+                                 sct, sldl, snear, sso, st, pn >>
 
 nq_6_l(self) == /\ pc[self] = "nq_6_l"
                 /\ IF ~wq[self] /\ rdy[self] = 0
@@ -1943,38 +2049,41 @@ nq_6_l(self) == /\ pc[self] = "nq_6_l"
                 /\ k' = [k EXCEPT ![self] = k[self] + 1]
                 /\ pc' = [pc EXCEPT ![self] = "wd_1_l"]
                 /\ UNCHANGED << live, notified, exp, par, kids, wts, disc, lk, 
-                                nww, sem, cval, cwaited, cq, clk, nwc, cz, now, 
-                                ip, ret, dres, called, dl0, lpar, wfor, 
-                                freeing, badret, vcount, uaf, taint4, taint5, 
-                                stack, cn, cp, i, klist, w, tn, p, dn, nt, xn, 
-                                xcl, wn, wp, wdl, fail, fn, fp, fi, fk, cdl, 
-                                cv, cwk, objs, adl, single, rt, cnt, enq, wq, 
-                                sdl, scn, sct, sldl, snear, sso, st, pn >>
+                                nww, sem, cval, cwaited, cq, clk, nwc, cmu, 
+                                badmu, cz, now, ip, ret, dres, called, dl0, 
+                                lpar, wfor, freeing, badret, vcount, uaf, 
+                                taint4, taint5, stack, cn, cp, i, klist, w, tn, 
+                                p, dn, nt, xn, xcl, wn, wp, wdl, fail, fn, fp, 
+                                fi, fk, cdl, cv, cwk, objs, adl, single, wm, 
+                                rt, cnt, enq, wq, unl, sdl, scn, sct, sldl, 
+                                snear, sso, st, pn >>
 
 cd_1_lk(self) == /\ pc[self] = "cd_1_lk"
                  /\ clk = 0
                  /\ clk' = self
                  /\ pc' = [pc EXCEPT ![self] = "cd_2_ld"]
                  /\ UNCHANGED << live, notified, exp, par, kids, wts, disc, lk, 
-                                 nww, sem, cval, cwaited, cq, nwc, cz, now, ip, 
-                                 ret, dres, called, dl0, lpar, wfor, freeing, 
-                                 badret, vcount, uaf, taint4, taint5, stack, 
-                                 cn, cp, i, klist, w, tn, p, dn, nt, xn, xcl, 
-                                 wn, wp, wdl, fail, fn, fp, fi, fk, cdl, cv, 
-                                 cwk, objs, adl, single, k, rt, cnt, rdy, enq, 
-                                 wq, sdl, scn, sct, sldl, snear, sso, st, pn >>
+                                 nww, sem, cval, cwaited, cq, nwc, cmu, badmu, 
+                                 cz, now, ip, ret, dres, called, dl0, lpar, 
+                                 wfor, freeing, badret, vcount, uaf, taint4, 
+                                 taint5, stack, cn, cp, i, klist, w, tn, p, dn, 
+                                 nt, xn, xcl, wn, wp, wdl, fail, fn, fp, fi, 
+                                 fk, cdl, cv, cwk, objs, adl, single, wm, k, 
+                                 rt, cnt, rdy, enq, wq, unl, sdl, scn, sct, 
+                                 sldl, snear, sso, st, pn >>
 
 cd_2_ld(self) == /\ pc[self] = "cd_2_ld"
                  /\ wq' = [wq EXCEPT ![self] = cval # 0]
                  /\ pc' = [pc EXCEPT ![self] = "cd_3_ld"]
                  /\ UNCHANGED << live, notified, exp, par, kids, wts, disc, lk, 
-                                 nww, sem, cval, cwaited, cq, clk, nwc, cz, 
-                                 now, ip, ret, dres, called, dl0, lpar, wfor, 
-                                 freeing, badret, vcount, uaf, taint4, taint5, 
-                                 stack, cn, cp, i, klist, w, tn, p, dn, nt, xn, 
-                                 xcl, wn, wp, wdl, fail, fn, fp, fi, fk, cdl, 
-                                 cv, cwk, objs, adl, single, k, rt, cnt, rdy, 
-                                 enq, sdl, scn, sct, sldl, snear, sso, st, pn >>
+                                 nww, sem, cval, cwaited, cq, clk, nwc, cmu, 
+                                 badmu, cz, now, ip, ret, dres, called, dl0, 
+                                 lpar, wfor, freeing, badret, vcount, uaf, 
+                                 taint4, taint5, stack, cn, cp, i, klist, w, 
+                                 tn, p, dn, nt, xn, xcl, wn, wp, wdl, fail, fn, 
+                                 fp, fi, fk, cdl, cv, cwk, objs, adl, single, 
+                                 wm, k, rt, cnt, rdy, enq, unl, sdl, scn, sct, 
+                                 sldl, snear, sso, st, pn >>
 
 cd_3_ld(self) == /\ pc[self] = "cd_3_ld"
                  /\ IF nwc[self] # 0
@@ -1983,40 +2092,71 @@ cd_3_ld(self) == /\ pc[self] = "cd_3_ld"
                        ELSE /\ pc' = [pc EXCEPT ![self] = "cd_5_ul"]
                             /\ cq' = cq
                  /\ UNCHANGED << live, notified, exp, par, kids, wts, disc, lk, 
-                                 nww, sem, cval, cwaited, clk, nwc, cz, now, 
-                                 ip, ret, dres, called, dl0, lpar, wfor, 
-                                 freeing, badret, vcount, uaf, taint4, taint5, 
-                                 stack, cn, cp, i, klist, w, tn, p, dn, nt, xn, 
-                                 xcl, wn, wp, wdl, fail, fn, fp, fi, fk, cdl, 
-                                 cv, cwk, objs, adl, single, k, rt, cnt, rdy, 
-                                 enq, wq, sdl, scn, sct, sldl, snear, sso, st, 
-                                 pn >>
+                                 nww, sem, cval, cwaited, clk, nwc, cmu, badmu, 
+                                 cz, now, ip, ret, dres, called, dl0, lpar, 
+                                 wfor, freeing, badret, vcount, uaf, taint4, 
+                                 taint5, stack, cn, cp, i, klist, w, tn, p, dn, 
+                                 nt, xn, xcl, wn, wp, wdl, fail, fn, fp, fi, 
+                                 fk, cdl, cv, cwk, objs, adl, single, wm, k, 
+                                 rt, cnt, rdy, enq, wq, unl, sdl, scn, sct, 
+                                 sldl, snear, sso, st, pn >>
 
 cd_4_st(self) == /\ pc[self] = "cd_4_st"
                  /\ nwc' = [nwc EXCEPT ![self] = 0]
                  /\ pc' = [pc EXCEPT ![self] = "cd_5_ul"]
                  /\ UNCHANGED << live, notified, exp, par, kids, wts, disc, lk, 
-                                 nww, sem, cval, cwaited, cq, clk, cz, now, ip, 
-                                 ret, dres, called, dl0, lpar, wfor, freeing, 
-                                 badret, vcount, uaf, taint4, taint5, stack, 
-                                 cn, cp, i, klist, w, tn, p, dn, nt, xn, xcl, 
-                                 wn, wp, wdl, fail, fn, fp, fi, fk, cdl, cv, 
-                                 cwk, objs, adl, single, k, rt, cnt, rdy, enq, 
-                                 wq, sdl, scn, sct, sldl, snear, sso, st, pn >>
+                                 nww, sem, cval, cwaited, cq, clk, cmu, badmu, 
+                                 cz, now, ip, ret, dres, called, dl0, lpar, 
+                                 wfor, freeing, badret, vcount, uaf, taint4, 
+                                 taint5, stack, cn, cp, i, klist, w, tn, p, dn, 
+                                 nt, xn, xcl, wn, wp, wdl, fail, fn, fp, fi, 
+                                 fk, cdl, cv, cwk, objs, adl, single, wm, k, 
+                                 rt, cnt, rdy, enq, wq, unl, sdl, scn, sct, 
+                                 sldl, snear, sso, st, pn >>
 
 cd_5_ul(self) == /\ pc[self] = "cd_5_ul"
                  /\ clk' = 0
                  /\ pc' = [pc EXCEPT ![self] = "nq_6_l"]
                  /\ UNCHANGED << live, notified, exp, par, kids, wts, disc, lk, 
-                                 nww, sem, cval, cwaited, cq, nwc, cz, now, ip, 
-                                 ret, dres, called, dl0, lpar, wfor, freeing, 
-                                 badret, vcount, uaf, taint4, taint5, stack, 
-                                 cn, cp, i, klist, w, tn, p, dn, nt, xn, xcl, 
-                                 wn, wp, wdl, fail, fn, fp, fi, fk, cdl, cv, 
-                                 cwk, objs, adl, single, k, rt, cnt, rdy, enq, 
-                                 wq, sdl, scn, sct, sldl, snear, sso, st, pn >>
+                                 nww, sem, cval, cwaited, cq, nwc, cmu, badmu, 
+                                 cz, now, ip, ret, dres, called, dl0, lpar, 
+                                 wfor, freeing, badret, vcount, uaf, taint4, 
+                                 taint5, stack, cn, cp, i, klist, w, tn, p, dn, 
+                                 nt, xn, xcl, wn, wp, wdl, fail, fn, fp, fi, 
+                                 fk, cdl, cv, cwk, objs, adl, single, wm, k, 
+                                 rt, cnt, rdy, enq, wq, unl, sdl, scn, sct, 
+                                 sldl, snear, sso, st, pn >>
+
+wd_8_l(self) == /\ pc[self] = "wd_8_l"
+                /\ IF ~unl[self]
+                      THEN /\ pc' = [pc EXCEPT ![self] = "wd_9_l"]
+                      ELSE /\ pc' = [pc EXCEPT ![self] = "wu_2_lk"]
+                /\ UNCHANGED << live, notified, exp, par, kids, wts, disc, lk, 
+                                nww, sem, cval, cwaited, cq, clk, nwc, cmu, 
+                                badmu, cz, now, ip, ret, dres, called, dl0, 
+                                lpar, wfor, freeing, badret, vcount, uaf, 
+                                taint4, taint5, stack, cn, cp, i, klist, w, tn, 
+                                p, dn, nt, xn, xcl, wn, wp, wdl, fail, fn, fp, 
+                                fi, fk, cdl, cv, cwk, objs, adl, single, wm, k, 
+                                rt, cnt, rdy, enq, wq, unl, sdl, scn, sct, 
+                                sldl, snear, sso, st, pn >>
+
+wu_2_lk(self) == /\ pc[self] = "wu_2_lk"
+                 /\ cmu = 0
+                 /\ cmu' = self
+                 /\ pc' = [pc EXCEPT ![self] = "wd_9_l"]
+                 /\ UNCHANGED << live, notified, exp, par, kids, wts, disc, lk, 
+                                 nww, sem, cval, cwaited, cq, clk, nwc, badmu, 
+                                 cz, now, ip, ret, dres, called, dl0, lpar, 
+                                 wfor, freeing, badret, vcount, uaf, taint4, 
+                                 taint5, stack, cn, cp, i, klist, w, tn, p, dn, 
+                                 nt, xn, xcl, wn, wp, wdl, fail, fn, fp, fi, 
+                                 fk, cdl, cv, cwk, objs, adl, single, wm, k, 
+                                 rt, cnt, rdy, enq, wq, unl, sdl, scn, sct, 
+                                 sldl, snear, sso, st, pn >>
 
 wd_9_l(self) == /\ pc[self] = "wd_9_l"
+                /\ badmu' = (badmu \/ (wm[self] /\ cmu # self))
                 /\ badret' = (badret \/ (rdy[self] # 0 /\ (IF objs[self][rdy[self]] = CTR THEN ~cz ELSE ~Cause(objs[self][rdy[self]]))) \/ (rdy[self] = 0 /\ ~(adl[self] < NONE /\ adl[self] <= now)))
                 /\ ret' = [ret EXCEPT ![self] = IF single[self] THEN (IF rdy[self] = 0 THEN 0 ELSE 1) ELSE (IF rdy[self] = 0 THEN Len(objs[self]) ELSE rdy[self] - 1)]
                 /\ pc' = [pc EXCEPT ![self] = Head(stack[self]).pc]
@@ -2026,29 +2166,32 @@ wd_9_l(self) == /\ pc[self] = "wd_9_l"
                 /\ rdy' = [rdy EXCEPT ![self] = Head(stack[self]).rdy]
                 /\ enq' = [enq EXCEPT ![self] = Head(stack[self]).enq]
                 /\ wq' = [wq EXCEPT ![self] = Head(stack[self]).wq]
+                /\ unl' = [unl EXCEPT ![self] = Head(stack[self]).unl]
                 /\ objs' = [objs EXCEPT ![self] = Head(stack[self]).objs]
                 /\ adl' = [adl EXCEPT ![self] = Head(stack[self]).adl]
                 /\ single' = [single EXCEPT ![self] = Head(stack[self]).single]
+                /\ wm' = [wm EXCEPT ![self] = Head(stack[self]).wm]
                 /\ stack' = [stack EXCEPT ![self] = Tail(stack[self])]
                 /\ UNCHANGED << live, notified, exp, par, kids, wts, disc, lk, 
-                                nww, sem, cval, cwaited, cq, clk, nwc, cz, now, 
-                                ip, dres, called, dl0, lpar, wfor, freeing, 
-                                vcount, uaf, taint4, taint5, cn, cp, i, klist, 
-                                w, tn, p, dn, nt, xn, xcl, wn, wp, wdl, fail, 
-                                fn, fp, fi, fk, cdl, cv, cwk, sdl, scn, sct, 
-                                sldl, snear, sso, st, pn >>
+                                nww, sem, cval, cwaited, cq, clk, nwc, cmu, cz, 
+                                now, ip, dres, called, dl0, lpar, wfor, 
+                                freeing, vcount, uaf, taint4, taint5, cn, cp, 
+                                i, klist, w, tn, p, dn, nt, xn, xcl, wn, wp, 
+                                wdl, fail, fn, fp, fi, fk, cdl, cv, cwk, sdl, 
+                                scn, sct, sldl, snear, sso, st, pn >>
 
 nwaitn(self) == ws_1_l(self) \/ ws_2_l(self) \/ we_1_l(self)
                    \/ wn_1_st(self) \/ ne_1_lk(self) \/ ne_2_ld(self)
                    \/ ne_3_st(self) \/ ne_4_ul(self) \/ ne_5_l(self)
                    \/ ce_1_lk(self) \/ ce_2_ld(self) \/ ce_3_st(self)
-                   \/ ce_4_ul(self) \/ wl_0_l(self) \/ wl_1_l(self)
-                   \/ wl_2_l(self) \/ wl_3_l(self) \/ wn_7_pd(self)
-                   \/ wd_0_l(self) \/ wd_1_l(self) \/ nq_2_lk(self)
-                   \/ nq_3_ld(self) \/ nq_3_l(self) \/ nq_4_st(self)
-                   \/ nq_5_ul(self) \/ nq_6_l(self) \/ cd_1_lk(self)
-                   \/ cd_2_ld(self) \/ cd_3_ld(self) \/ cd_4_st(self)
-                   \/ cd_5_ul(self) \/ wd_9_l(self)
+                   \/ ce_4_ul(self) \/ wu_0_l(self) \/ wu_1_ul(self)
+                   \/ wl_0_l(self) \/ wl_1_l(self) \/ wl_2_l(self)
+                   \/ wl_3_l(self) \/ wn_7_pd(self) \/ wd_0_l(self)
+                   \/ wd_1_l(self) \/ nq_2_lk(self) \/ nq_3_ld(self)
+                   \/ nq_3_l(self) \/ nq_4_st(self) \/ nq_5_ul(self)
+                   \/ nq_6_l(self) \/ cd_1_lk(self) \/ cd_2_ld(self)
+                   \/ cd_3_ld(self) \/ cd_4_st(self) \/ cd_5_ul(self)
+                   \/ wd_8_l(self) \/ wu_2_lk(self) \/ wd_9_l(self)
 
 sc_0_l(self) == /\ pc[self] = "sc_0_l"
                 /\ IF scn[self] = 0
@@ -2063,13 +2206,14 @@ sc_0_l(self) == /\ pc[self] = "sc_0_l"
                            /\ nt' = [nt EXCEPT ![self] = 0]
                            /\ pc' = [pc EXCEPT ![self] = "nd_1_ld"]
                 /\ UNCHANGED << live, notified, exp, par, kids, wts, disc, lk, 
-                                nww, sem, cval, cwaited, cq, clk, nwc, cz, now, 
-                                ip, ret, dres, called, dl0, lpar, wfor, 
-                                freeing, badret, vcount, uaf, taint4, taint5, 
-                                cn, cp, i, klist, w, tn, p, xn, xcl, wn, wp, 
-                                wdl, fail, fn, fp, fi, fk, cdl, cv, cwk, objs, 
-                                adl, single, k, rt, cnt, rdy, enq, wq, sdl, 
-                                scn, sct, sldl, snear, sso, st, pn >>
+                                nww, sem, cval, cwaited, cq, clk, nwc, cmu, 
+                                badmu, cz, now, ip, ret, dres, called, dl0, 
+                                lpar, wfor, freeing, badret, vcount, uaf, 
+                                taint4, taint5, cn, cp, i, klist, w, tn, p, xn, 
+                                xcl, wn, wp, wdl, fail, fn, fp, fi, fk, cdl, 
+                                cv, cwk, objs, adl, single, wm, k, rt, cnt, 
+                                rdy, enq, wq, unl, sdl, scn, sct, sldl, snear, 
+                                sso, st, pn >>
 
 sc_1_l(self) == /\ pc[self] = "sc_1_l"
                 /\ IF dres[self] = ZERO
@@ -2078,25 +2222,27 @@ sc_1_l(self) == /\ pc[self] = "sc_1_l"
                       ELSE /\ pc' = [pc EXCEPT ![self] = "sc_2_st"]
                            /\ sso' = sso
                 /\ UNCHANGED << live, notified, exp, par, kids, wts, disc, lk, 
-                                nww, sem, cval, cwaited, cq, clk, nwc, cz, now, 
-                                ip, ret, dres, called, dl0, lpar, wfor, 
-                                freeing, badret, vcount, uaf, taint4, taint5, 
-                                stack, cn, cp, i, klist, w, tn, p, dn, nt, xn, 
-                                xcl, wn, wp, wdl, fail, fn, fp, fi, fk, cdl, 
-                                cv, cwk, objs, adl, single, k, rt, cnt, rdy, 
-                                enq, wq, sdl, scn, sct, sldl, snear, st, pn >>
+                                nww, sem, cval, cwaited, cq, clk, nwc, cmu, 
+                                badmu, cz, now, ip, ret, dres, called, dl0, 
+                                lpar, wfor, freeing, badret, vcount, uaf, 
+                                taint4, taint5, stack, cn, cp, i, klist, w, tn, 
+                                p, dn, nt, xn, xcl, wn, wp, wdl, fail, fn, fp, 
+                                fi, fk, cdl, cv, cwk, objs, adl, single, wm, k, 
+                                rt, cnt, rdy, enq, wq, unl, sdl, scn, sct, 
+                                sldl, snear, st, pn >>
 
 sc_2_st(self) == /\ pc[self] = "sc_2_st"
                  /\ nww' = [nww EXCEPT ![self][scn[self]] = 1]
                  /\ pc' = [pc EXCEPT ![self] = "sc_3_lk"]
                  /\ UNCHANGED << live, notified, exp, par, kids, wts, disc, lk, 
-                                 sem, cval, cwaited, cq, clk, nwc, cz, now, ip, 
-                                 ret, dres, called, dl0, lpar, wfor, freeing, 
-                                 badret, vcount, uaf, taint4, taint5, stack, 
-                                 cn, cp, i, klist, w, tn, p, dn, nt, xn, xcl, 
-                                 wn, wp, wdl, fail, fn, fp, fi, fk, cdl, cv, 
-                                 cwk, objs, adl, single, k, rt, cnt, rdy, enq, 
-                                 wq, sdl, scn, sct, sldl, snear, sso, st, pn >>
+                                 sem, cval, cwaited, cq, clk, nwc, cmu, badmu, 
+                                 cz, now, ip, ret, dres, called, dl0, lpar, 
+                                 wfor, freeing, badret, vcount, uaf, taint4, 
+                                 taint5, stack, cn, cp, i, klist, w, tn, p, dn, 
+                                 nt, xn, xcl, wn, wp, wdl, fail, fn, fp, fi, 
+                                 fk, cdl, cv, cwk, objs, adl, single, wm, k, 
+                                 rt, cnt, rdy, enq, wq, unl, sdl, scn, sct, 
+                                 sldl, snear, sso, st, pn >>
 
 sc_3_lk(self) == /\ pc[self] = "sc_3_lk"
                  /\ lk[scn[self]] = 0
@@ -2104,14 +2250,14 @@ sc_3_lk(self) == /\ pc[self] = "sc_3_lk"
                  /\ uaf' = (uaf \/ Touch(scn[self]))
                  /\ pc' = [pc EXCEPT ![self] = "sc_4_ld"]
                  /\ UNCHANGED << live, notified, exp, par, kids, wts, disc, 
-                                 nww, sem, cval, cwaited, cq, clk, nwc, cz, 
-                                 now, ip, ret, dres, called, dl0, lpar, wfor, 
-                                 freeing, badret, vcount, taint4, taint5, 
-                                 stack, cn, cp, i, klist, w, tn, p, dn, nt, xn, 
-                                 xcl, wn, wp, wdl, fail, fn, fp, fi, fk, cdl, 
-                                 cv, cwk, objs, adl, single, k, rt, cnt, rdy, 
-                                 enq, wq, sdl, scn, sct, sldl, snear, sso, st, 
-                                 pn >>
+                                 nww, sem, cval, cwaited, cq, clk, nwc, cmu, 
+                                 badmu, cz, now, ip, ret, dres, called, dl0, 
+                                 lpar, wfor, freeing, badret, vcount, taint4, 
+                                 taint5, stack, cn, cp, i, klist, w, tn, p, dn, 
+                                 nt, xn, xcl, wn, wp, wdl, fail, fn, fp, fi, 
+                                 fk, cdl, cv, cwk, objs, adl, single, wm, k, 
+                                 rt, cnt, rdy, enq, wq, unl, sdl, scn, sct, 
+                                 sldl, snear, sso, st, pn >>
 
 sc_4_ld(self) == /\ pc[self] = "sc_4_ld"
                  /\ sct' = [sct EXCEPT ![self] = NTime(scn[self])]
@@ -2125,26 +2271,26 @@ sc_4_ld(self) == /\ pc[self] = "sc_4_ld"
                             /\ pc' = [pc EXCEPT ![self] = "sc_9_ul"]
                             /\ UNCHANGED << wts, sldl, snear >>
                  /\ UNCHANGED << live, notified, exp, par, kids, disc, lk, nww, 
-                                 sem, cval, cwaited, cq, clk, nwc, cz, now, ip, 
-                                 ret, dres, called, dl0, lpar, wfor, freeing, 
-                                 badret, vcount, uaf, taint4, taint5, stack, 
-                                 cn, cp, i, klist, w, tn, p, dn, nt, xn, xcl, 
-                                 wn, wp, wdl, fail, fn, fp, fi, fk, cdl, cv, 
-                                 cwk, objs, adl, single, k, rt, cnt, rdy, enq, 
-                                 wq, sdl, scn, st, pn >>
+                                 sem, cval, cwaited, cq, clk, nwc, cmu, badmu, 
+                                 cz, now, ip, ret, dres, called, dl0, lpar, 
+                                 wfor, freeing, badret, vcount, uaf, taint4, 
+                                 taint5, stack, cn, cp, i, klist, w, tn, p, dn, 
+                                 nt, xn, xcl, wn, wp, wdl, fail, fn, fp, fi, 
+                                 fk, cdl, cv, cwk, objs, adl, single, wm, k, 
+                                 rt, cnt, rdy, enq, wq, unl, sdl, scn, st, pn >>
 
 sc_5_ul(self) == /\ pc[self] = "sc_5_ul"
                  /\ lk' = [lk EXCEPT ![scn[self]] = 0]
                  /\ pc' = [pc EXCEPT ![self] = "sc_6_pd"]
                  /\ UNCHANGED << live, notified, exp, par, kids, wts, disc, 
-                                 nww, sem, cval, cwaited, cq, clk, nwc, cz, 
-                                 now, ip, ret, dres, called, dl0, lpar, wfor, 
-                                 freeing, badret, vcount, uaf, taint4, taint5, 
-                                 stack, cn, cp, i, klist, w, tn, p, dn, nt, xn, 
-                                 xcl, wn, wp, wdl, fail, fn, fp, fi, fk, cdl, 
-                                 cv, cwk, objs, adl, single, k, rt, cnt, rdy, 
-                                 enq, wq, sdl, scn, sct, sldl, snear, sso, st, 
-                                 pn >>
+                                 nww, sem, cval, cwaited, cq, clk, nwc, cmu, 
+                                 badmu, cz, now, ip, ret, dres, called, dl0, 
+                                 lpar, wfor, freeing, badret, vcount, uaf, 
+                                 taint4, taint5, stack, cn, cp, i, klist, w, 
+                                 tn, p, dn, nt, xn, xcl, wn, wp, wdl, fail, fn, 
+                                 fp, fi, fk, cdl, cv, cwk, objs, adl, single, 
+                                 wm, k, rt, cnt, rdy, enq, wq, unl, sdl, scn, 
+                                 sct, sldl, snear, sso, st, pn >>
 
 sc_6_pd(self) == /\ pc[self] = "sc_6_pd"
                  /\ sem[self] > 0 \/ (sldl[self] < NONE /\ now >= sldl[self])
@@ -2155,13 +2301,14 @@ sc_6_pd(self) == /\ pc[self] = "sc_6_pd"
                             /\ sem' = sem
                  /\ pc' = [pc EXCEPT ![self] = "sc_6_l"]
                  /\ UNCHANGED << live, notified, exp, par, kids, wts, disc, lk, 
-                                 nww, cval, cwaited, cq, clk, nwc, cz, now, ip, 
-                                 ret, dres, called, dl0, lpar, wfor, freeing, 
-                                 badret, vcount, uaf, taint4, taint5, stack, 
-                                 cn, cp, i, klist, w, tn, p, dn, nt, xn, xcl, 
-                                 wn, wp, wdl, fail, fn, fp, fi, fk, cdl, cv, 
-                                 cwk, objs, adl, single, k, rt, cnt, rdy, enq, 
-                                 wq, sdl, scn, sct, sldl, snear, st, pn >>
+                                 nww, cval, cwaited, cq, clk, nwc, cmu, badmu, 
+                                 cz, now, ip, ret, dres, called, dl0, lpar, 
+                                 wfor, freeing, badret, vcount, uaf, taint4, 
+                                 taint5, stack, cn, cp, i, klist, w, tn, p, dn, 
+                                 nt, xn, xcl, wn, wp, wdl, fail, fn, fp, fi, 
+                                 fk, cdl, cv, cwk, objs, adl, single, wm, k, 
+                                 rt, cnt, rdy, enq, wq, unl, sdl, scn, sct, 
+                                 sldl, snear, st, pn >>
 
 sc_6_l(self) == /\ pc[self] = "sc_6_l"
                 /\ IF sso[self] = ETIMEDOUT /\ ~snear[self]
@@ -2177,13 +2324,14 @@ sc_6_l(self) == /\ pc[self] = "sc_6_l"
                       ELSE /\ pc' = [pc EXCEPT ![self] = "sc_7_lk"]
                            /\ UNCHANGED << stack, xn, xcl, sso >>
                 /\ UNCHANGED << live, notified, exp, par, kids, wts, disc, lk, 
-                                nww, sem, cval, cwaited, cq, clk, nwc, cz, now, 
-                                ip, ret, dres, called, dl0, lpar, wfor, 
-                                freeing, badret, vcount, uaf, taint4, taint5, 
-                                cn, cp, i, klist, w, tn, p, dn, nt, wn, wp, 
-                                wdl, fail, fn, fp, fi, fk, cdl, cv, cwk, objs, 
-                                adl, single, k, rt, cnt, rdy, enq, wq, sdl, 
-                                scn, sct, sldl, snear, st, pn >>
+                                nww, sem, cval, cwaited, cq, clk, nwc, cmu, 
+                                badmu, cz, now, ip, ret, dres, called, dl0, 
+                                lpar, wfor, freeing, badret, vcount, uaf, 
+                                taint4, taint5, cn, cp, i, klist, w, tn, p, dn, 
+                                nt, wn, wp, wdl, fail, fn, fp, fi, fk, cdl, cv, 
+                                cwk, objs, adl, single, wm, k, rt, cnt, rdy, 
+                                enq, wq, unl, sdl, scn, sct, sldl, snear, st, 
+                                pn >>
 
 sc_7_lk(self) == /\ pc[self] = "sc_7_lk"
                  /\ lk[scn[self]] = 0
@@ -2191,14 +2339,14 @@ sc_7_lk(self) == /\ pc[self] = "sc_7_lk"
                  /\ uaf' = (uaf \/ Touch(scn[self]))
                  /\ pc' = [pc EXCEPT ![self] = "sc_8_ld"]
                  /\ UNCHANGED << live, notified, exp, par, kids, wts, disc, 
-                                 nww, sem, cval, cwaited, cq, clk, nwc, cz, 
-                                 now, ip, ret, dres, called, dl0, lpar, wfor, 
-                                 freeing, badret, vcount, taint4, taint5, 
-                                 stack, cn, cp, i, klist, w, tn, p, dn, nt, xn, 
-                                 xcl, wn, wp, wdl, fail, fn, fp, fi, fk, cdl, 
-                                 cv, cwk, objs, adl, single, k, rt, cnt, rdy, 
-                                 enq, wq, sdl, scn, sct, sldl, snear, sso, st, 
-                                 pn >>
+                                 nww, sem, cval, cwaited, cq, clk, nwc, cmu, 
+                                 badmu, cz, now, ip, ret, dres, called, dl0, 
+                                 lpar, wfor, freeing, badret, vcount, taint4, 
+                                 taint5, stack, cn, cp, i, klist, w, tn, p, dn, 
+                                 nt, xn, xcl, wn, wp, wdl, fail, fn, fp, fi, 
+                                 fk, cdl, cv, cwk, objs, adl, single, wm, k, 
+                                 rt, cnt, rdy, enq, wq, unl, sdl, scn, sct, 
+                                 sldl, snear, sso, st, pn >>
 
 sc_8_ld(self) == /\ pc[self] = "sc_8_ld"
                  /\ IF NTime(scn[self]) > ZERO
@@ -2207,26 +2355,27 @@ sc_8_ld(self) == /\ pc[self] = "sc_8_ld"
                             /\ wts' = wts
                  /\ pc' = [pc EXCEPT ![self] = "sc_9_ul"]
                  /\ UNCHANGED << live, notified, exp, par, kids, disc, lk, nww, 
-                                 sem, cval, cwaited, cq, clk, nwc, cz, now, ip, 
-                                 ret, dres, called, dl0, lpar, wfor, freeing, 
-                                 badret, vcount, uaf, taint4, taint5, stack, 
-                                 cn, cp, i, klist, w, tn, p, dn, nt, xn, xcl, 
-                                 wn, wp, wdl, fail, fn, fp, fi, fk, cdl, cv, 
-                                 cwk, objs, adl, single, k, rt, cnt, rdy, enq, 
-                                 wq, sdl, scn, sct, sldl, snear, sso, st, pn >>
+                                 sem, cval, cwaited, cq, clk, nwc, cmu, badmu, 
+                                 cz, now, ip, ret, dres, called, dl0, lpar, 
+                                 wfor, freeing, badret, vcount, uaf, taint4, 
+                                 taint5, stack, cn, cp, i, klist, w, tn, p, dn, 
+                                 nt, xn, xcl, wn, wp, wdl, fail, fn, fp, fi, 
+                                 fk, cdl, cv, cwk, objs, adl, single, wm, k, 
+                                 rt, cnt, rdy, enq, wq, unl, sdl, scn, sct, 
+                                 sldl, snear, sso, st, pn >>
 
 sc_9_ul(self) == /\ pc[self] = "sc_9_ul"
                  /\ lk' = [lk EXCEPT ![scn[self]] = 0]
                  /\ pc' = [pc EXCEPT ![self] = "sc_r_l"]
                  /\ UNCHANGED << live, notified, exp, par, kids, wts, disc, 
-                                 nww, sem, cval, cwaited, cq, clk, nwc, cz, 
-                                 now, ip, ret, dres, called, dl0, lpar, wfor, 
-                                 freeing, badret, vcount, uaf, taint4, taint5, 
-                                 stack, cn, cp, i, klist, w, tn, p, dn, nt, xn, 
-                                 xcl, wn, wp, wdl, fail, fn, fp, fi, fk, cdl, 
-                                 cv, cwk, objs, adl, single, k, rt, cnt, rdy, 
-                                 enq, wq, sdl, scn, sct, sldl, snear, sso, st, 
-                                 pn >>
+                                 nww, sem, cval, cwaited, cq, clk, nwc, cmu, 
+                                 badmu, cz, now, ip, ret, dres, called, dl0, 
+                                 lpar, wfor, freeing, badret, vcount, uaf, 
+                                 taint4, taint5, stack, cn, cp, i, klist, w, 
+                                 tn, p, dn, nt, xn, xcl, wn, wp, wdl, fail, fn, 
+                                 fp, fi, fk, cdl, cv, cwk, objs, adl, single, 
+                                 wm, k, rt, cnt, rdy, enq, wq, unl, sdl, scn, 
+                                 sct, sldl, snear, sso, st, pn >>
 
 sc_r_l(self) == /\ pc[self] = "sc_r_l"
                 /\ ret' = [ret EXCEPT ![self] = sso[self]]
@@ -2248,12 +2397,13 @@ sc_r_l(self) == /\ pc[self] = "sc_r_l"
                 /\ scn' = [scn EXCEPT ![self] = Head(stack[self]).scn]
                 /\ stack' = [stack EXCEPT ![self] = Tail(stack[self])]
                 /\ UNCHANGED << live, notified, exp, par, kids, wts, disc, lk, 
-                                sem, cval, cwaited, cq, clk, nwc, cz, now, ip, 
-                                dres, called, dl0, lpar, wfor, freeing, uaf, 
-                                taint4, taint5, cn, cp, i, klist, w, tn, p, dn, 
-                                nt, xn, xcl, wn, wp, wdl, fail, fn, fp, fi, fk, 
-                                cdl, cv, cwk, objs, adl, single, k, rt, cnt, 
-                                rdy, enq, wq, st, pn >>
+                                sem, cval, cwaited, cq, clk, nwc, cmu, badmu, 
+                                cz, now, ip, dres, called, dl0, lpar, wfor, 
+                                freeing, uaf, taint4, taint5, cn, cp, i, klist, 
+                                w, tn, p, dn, nt, xn, xcl, wn, wp, wdl, fail, 
+                                fn, fp, fi, fk, cdl, cv, cwk, objs, adl, 
+                                single, wm, k, rt, cnt, rdy, enq, wq, unl, st, 
+                                pn >>
 
 sc_p_pd(self) == /\ pc[self] = "sc_p_pd"
                  /\ sem[self] > 0 \/ (sdl[self] < NONE /\ now >= sdl[self])
@@ -2264,13 +2414,14 @@ sc_p_pd(self) == /\ pc[self] = "sc_p_pd"
                             /\ sem' = sem
                  /\ pc' = [pc EXCEPT ![self] = "sc_r_l"]
                  /\ UNCHANGED << live, notified, exp, par, kids, wts, disc, lk, 
-                                 nww, cval, cwaited, cq, clk, nwc, cz, now, ip, 
-                                 ret, dres, called, dl0, lpar, wfor, freeing, 
-                                 badret, vcount, uaf, taint4, taint5, stack, 
-                                 cn, cp, i, klist, w, tn, p, dn, nt, xn, xcl, 
-                                 wn, wp, wdl, fail, fn, fp, fi, fk, cdl, cv, 
-                                 cwk, objs, adl, single, k, rt, cnt, rdy, enq, 
-                                 wq, sdl, scn, sct, sldl, snear, st, pn >>
+                                 nww, cval, cwaited, cq, clk, nwc, cmu, badmu, 
+                                 cz, now, ip, ret, dres, called, dl0, lpar, 
+                                 wfor, freeing, badret, vcount, uaf, taint4, 
+                                 taint5, stack, cn, cp, i, klist, w, tn, p, dn, 
+                                 nt, xn, xcl, wn, wp, wdl, fail, fn, fp, fi, 
+                                 fk, cdl, cv, cwk, objs, adl, single, wm, k, 
+                                 rt, cnt, rdy, enq, wq, unl, sdl, scn, sct, 
+                                 sldl, snear, st, pn >>
 
 swc(self) == sc_0_l(self) \/ sc_1_l(self) \/ sc_2_st(self) \/ sc_3_lk(self)
                 \/ sc_4_ld(self) \/ sc_5_ul(self) \/ sc_6_pd(self)
@@ -2285,15 +2436,50 @@ sv_1_v(self) == /\ pc[self] = "sv_1_v"
                 /\ st' = [st EXCEPT ![self] = Head(stack[self]).st]
                 /\ stack' = [stack EXCEPT ![self] = Tail(stack[self])]
                 /\ UNCHANGED << live, notified, exp, par, kids, wts, disc, lk, 
-                                nww, cval, cwaited, cq, clk, nwc, cz, now, ip, 
-                                dres, called, dl0, lpar, wfor, freeing, badret, 
-                                uaf, taint4, taint5, cn, cp, i, klist, w, tn, 
-                                p, dn, nt, xn, xcl, wn, wp, wdl, fail, fn, fp, 
-                                fi, fk, cdl, cv, cwk, objs, adl, single, k, rt, 
-                                cnt, rdy, enq, wq, sdl, scn, sct, sldl, snear, 
-                                sso, pn >>
+                                nww, cval, cwaited, cq, clk, nwc, cmu, badmu, 
+                                cz, now, ip, dres, called, dl0, lpar, wfor, 
+                                freeing, badret, uaf, taint4, taint5, cn, cp, 
+                                i, klist, w, tn, p, dn, nt, xn, xcl, wn, wp, 
+                                wdl, fail, fn, fp, fi, fk, cdl, cv, cwk, objs, 
+                                adl, single, wm, k, rt, cnt, rdy, enq, wq, unl, 
+                                sdl, scn, sct, sldl, snear, sso, pn >>
 
 semv(self) == sv_1_v(self)
+
+ml_1_lk(self) == /\ pc[self] = "ml_1_lk"
+                 /\ cmu = 0
+                 /\ cmu' = self
+                 /\ ret' = [ret EXCEPT ![self] = 0]
+                 /\ pc' = [pc EXCEPT ![self] = Head(stack[self]).pc]
+                 /\ stack' = [stack EXCEPT ![self] = Tail(stack[self])]
+                 /\ UNCHANGED << live, notified, exp, par, kids, wts, disc, lk, 
+                                 nww, sem, cval, cwaited, cq, clk, nwc, badmu, 
+                                 cz, now, ip, dres, called, dl0, lpar, wfor, 
+                                 freeing, badret, vcount, uaf, taint4, taint5, 
+                                 cn, cp, i, klist, w, tn, p, dn, nt, xn, xcl, 
+                                 wn, wp, wdl, fail, fn, fp, fi, fk, cdl, cv, 
+                                 cwk, objs, adl, single, wm, k, rt, cnt, rdy, 
+                                 enq, wq, unl, sdl, scn, sct, sldl, snear, sso, 
+                                 st, pn >>
+
+mlock(self) == ml_1_lk(self)
+
+ml_2_ul(self) == /\ pc[self] = "ml_2_ul"
+                 /\ cmu' = 0
+                 /\ ret' = [ret EXCEPT ![self] = 0]
+                 /\ pc' = [pc EXCEPT ![self] = Head(stack[self]).pc]
+                 /\ stack' = [stack EXCEPT ![self] = Tail(stack[self])]
+                 /\ UNCHANGED << live, notified, exp, par, kids, wts, disc, lk, 
+                                 nww, sem, cval, cwaited, cq, clk, nwc, badmu, 
+                                 cz, now, ip, dres, called, dl0, lpar, wfor, 
+                                 freeing, badret, vcount, uaf, taint4, taint5, 
+                                 cn, cp, i, klist, w, tn, p, dn, nt, xn, xcl, 
+                                 wn, wp, wdl, fail, fn, fp, fi, fk, cdl, cv, 
+                                 cwk, objs, adl, single, wm, k, rt, cnt, rdy, 
+                                 enq, wq, unl, sdl, scn, sct, sldl, snear, sso, 
+                                 st, pn >>
+
+munlock(self) == ml_2_ul(self)
 
 np_0_l(self) == /\ pc[self] = "np_0_l"
                 /\ /\ dn' = [dn EXCEPT ![self] = pn[self]]
@@ -2305,13 +2491,14 @@ np_0_l(self) == /\ pc[self] = "np_0_l"
                 /\ nt' = [nt EXCEPT ![self] = 0]
                 /\ pc' = [pc EXCEPT ![self] = "nd_1_ld"]
                 /\ UNCHANGED << live, notified, exp, par, kids, wts, disc, lk, 
-                                nww, sem, cval, cwaited, cq, clk, nwc, cz, now, 
-                                ip, ret, dres, called, dl0, lpar, wfor, 
-                                freeing, badret, vcount, uaf, taint4, taint5, 
-                                cn, cp, i, klist, w, tn, p, xn, xcl, wn, wp, 
-                                wdl, fail, fn, fp, fi, fk, cdl, cv, cwk, objs, 
-                                adl, single, k, rt, cnt, rdy, enq, wq, sdl, 
-                                scn, sct, sldl, snear, sso, st, pn >>
+                                nww, sem, cval, cwaited, cq, clk, nwc, cmu, 
+                                badmu, cz, now, ip, ret, dres, called, dl0, 
+                                lpar, wfor, freeing, badret, vcount, uaf, 
+                                taint4, taint5, cn, cp, i, klist, w, tn, p, xn, 
+                                xcl, wn, wp, wdl, fail, fn, fp, fi, fk, cdl, 
+                                cv, cwk, objs, adl, single, wm, k, rt, cnt, 
+                                rdy, enq, wq, unl, sdl, scn, sct, sldl, snear, 
+                                sso, st, pn >>
 
 np_1_l(self) == /\ pc[self] = "np_1_l"
                 /\ ret' = [ret EXCEPT ![self] = IF dres[self] = ZERO THEN 1 ELSE 0]
@@ -2319,13 +2506,14 @@ np_1_l(self) == /\ pc[self] = "np_1_l"
                 /\ pn' = [pn EXCEPT ![self] = Head(stack[self]).pn]
                 /\ stack' = [stack EXCEPT ![self] = Tail(stack[self])]
                 /\ UNCHANGED << live, notified, exp, par, kids, wts, disc, lk, 
-                                nww, sem, cval, cwaited, cq, clk, nwc, cz, now, 
-                                ip, dres, called, dl0, lpar, wfor, freeing, 
-                                badret, vcount, uaf, taint4, taint5, cn, cp, i, 
-                                klist, w, tn, p, dn, nt, xn, xcl, wn, wp, wdl, 
-                                fail, fn, fp, fi, fk, cdl, cv, cwk, objs, adl, 
-                                single, k, rt, cnt, rdy, enq, wq, sdl, scn, 
-                                sct, sldl, snear, sso, st >>
+                                nww, sem, cval, cwaited, cq, clk, nwc, cmu, 
+                                badmu, cz, now, ip, dres, called, dl0, lpar, 
+                                wfor, freeing, badret, vcount, uaf, taint4, 
+                                taint5, cn, cp, i, klist, w, tn, p, dn, nt, xn, 
+                                xcl, wn, wp, wdl, fail, fn, fp, fi, fk, cdl, 
+                                cv, cwk, objs, adl, single, wm, k, rt, cnt, 
+                                rdy, enq, wq, unl, sdl, scn, sct, sldl, snear, 
+                                sso, st >>
 
 npoll(self) == np_0_l(self) \/ np_1_l(self)
 
@@ -2343,9 +2531,10 @@ c0(self) == /\ pc[self] = "c0"
                                   /\ pc' = [pc EXCEPT ![self] = "nx_0_l"]
                                   /\ UNCHANGED << wn, wp, wdl, fail, fn, fp, 
                                                   fi, fk, cdl, cv, cwk, objs, 
-                                                  adl, single, k, rt, cnt, rdy, 
-                                                  enq, wq, sdl, scn, sct, sldl, 
-                                                  snear, sso, st, pn >>
+                                                  adl, single, wm, k, rt, cnt, 
+                                                  rdy, enq, wq, unl, sdl, scn, 
+                                                  sct, sldl, snear, sso, st, 
+                                                  pn >>
                              ELSE /\ IF CurOp(self).op = "poll"
                                         THEN /\ ip' = [ip EXCEPT ![self] = ip[self] + 1]
                                              /\ /\ pn' = [pn EXCEPT ![self] = CurOp(self).a]
@@ -2358,10 +2547,11 @@ c0(self) == /\ pc[self] = "c0"
                                                              fn, fp, fi, fk, 
                                                              cdl, cv, cwk, 
                                                              objs, adl, single, 
-                                                             k, rt, cnt, rdy, 
-                                                             enq, wq, sdl, scn, 
-                                                             sct, sldl, snear, 
-                                                             sso, st >>
+                                                             wm, k, rt, cnt, 
+                                                             rdy, enq, wq, unl, 
+                                                             sdl, scn, sct, 
+                                                             sldl, snear, sso, 
+                                                             st >>
                                         ELSE /\ IF CurOp(self).op = "new"
                                                    THEN /\ ip' = [ip EXCEPT ![self] = ip[self] + 1]
                                                         /\ /\ fail' = [fail EXCEPT ![self] = CurOp(self).x = 1]
@@ -2384,11 +2574,13 @@ c0(self) == /\ pc[self] = "c0"
                                                                         objs, 
                                                                         adl, 
                                                                         single, 
-                                                                        k, rt, 
+                                                                        wm, k, 
+                                                                        rt, 
                                                                         cnt, 
                                                                         rdy, 
                                                                         enq, 
                                                                         wq, 
+                                                                        unl, 
                                                                         sdl, 
                                                                         scn, 
                                                                         sct, 
@@ -2416,12 +2608,14 @@ c0(self) == /\ pc[self] = "c0"
                                                                                    objs, 
                                                                                    adl, 
                                                                                    single, 
+                                                                                   wm, 
                                                                                    k, 
                                                                                    rt, 
                                                                                    cnt, 
                                                                                    rdy, 
                                                                                    enq, 
                                                                                    wq, 
+                                                                                   unl, 
                                                                                    sdl, 
                                                                                    scn, 
                                                                                    sct, 
@@ -2442,16 +2636,20 @@ c0(self) == /\ pc[self] = "c0"
                                                                                                                           rdy       |->  rdy[self],
                                                                                                                           enq       |->  enq[self],
                                                                                                                           wq        |->  wq[self],
+                                                                                                                          unl       |->  unl[self],
                                                                                                                           objs      |->  objs[self],
                                                                                                                           adl       |->  adl[self],
-                                                                                                                          single    |->  single[self] ] >>
+                                                                                                                          single    |->  single[self],
+                                                                                                                          wm        |->  wm[self] ] >>
                                                                                                                       \o stack[self]]
+                                                                                 /\ wm' = [wm EXCEPT ![self] = FALSE]
                                                                               /\ k' = [k EXCEPT ![self] = 1]
                                                                               /\ rt' = [rt EXCEPT ![self] = 0]
                                                                               /\ cnt' = [cnt EXCEPT ![self] = 0]
                                                                               /\ rdy' = [rdy EXCEPT ![self] = 0]
                                                                               /\ enq' = [enq EXCEPT ![self] = FALSE]
                                                                               /\ wq' = [wq EXCEPT ![self] = FALSE]
+                                                                              /\ unl' = [unl EXCEPT ![self] = FALSE]
                                                                               /\ pc' = [pc EXCEPT ![self] = "ws_1_l"]
                                                                               /\ UNCHANGED << cdl, 
                                                                                               cv, 
@@ -2476,16 +2674,20 @@ c0(self) == /\ pc[self] = "c0"
                                                                                                                                      rdy       |->  rdy[self],
                                                                                                                                      enq       |->  enq[self],
                                                                                                                                      wq        |->  wq[self],
+                                                                                                                                     unl       |->  unl[self],
                                                                                                                                      objs      |->  objs[self],
                                                                                                                                      adl       |->  adl[self],
-                                                                                                                                     single    |->  single[self] ] >>
+                                                                                                                                     single    |->  single[self],
+                                                                                                                                     wm        |->  wm[self] ] >>
                                                                                                                                  \o stack[self]]
+                                                                                            /\ wm' = [wm EXCEPT ![self] = CurOp(self).x = 2]
                                                                                          /\ k' = [k EXCEPT ![self] = 1]
                                                                                          /\ rt' = [rt EXCEPT ![self] = 0]
                                                                                          /\ cnt' = [cnt EXCEPT ![self] = 0]
                                                                                          /\ rdy' = [rdy EXCEPT ![self] = 0]
                                                                                          /\ enq' = [enq EXCEPT ![self] = FALSE]
                                                                                          /\ wq' = [wq EXCEPT ![self] = FALSE]
+                                                                                         /\ unl' = [unl EXCEPT ![self] = FALSE]
                                                                                          /\ pc' = [pc EXCEPT ![self] = "ws_1_l"]
                                                                                          /\ UNCHANGED << cdl, 
                                                                                                          cv, 
@@ -2497,74 +2699,108 @@ c0(self) == /\ pc[self] = "c0"
                                                                                                          snear, 
                                                                                                          sso, 
                                                                                                          st >>
-                                                                                    ELSE /\ IF CurOp(self).op = "cadd"
+                                                                                    ELSE /\ IF CurOp(self).op = "mlock"
                                                                                                THEN /\ ip' = [ip EXCEPT ![self] = ip[self] + 1]
-                                                                                                    /\ /\ cdl' = [cdl EXCEPT ![self] = CurOp(self).a]
-                                                                                                       /\ stack' = [stack EXCEPT ![self] = << [ procedure |->  "cadd",
-                                                                                                                                                pc        |->  "c0",
-                                                                                                                                                cv        |->  cv[self],
-                                                                                                                                                cwk       |->  cwk[self],
-                                                                                                                                                cdl       |->  cdl[self] ] >>
-                                                                                                                                            \o stack[self]]
-                                                                                                    /\ cv' = [cv EXCEPT ![self] = 0]
-                                                                                                    /\ cwk' = [cwk EXCEPT ![self] = 0]
-                                                                                                    /\ pc' = [pc EXCEPT ![self] = "ca_1_lk"]
-                                                                                                    /\ UNCHANGED << sdl, 
+                                                                                                    /\ stack' = [stack EXCEPT ![self] = << [ procedure |->  "mlock",
+                                                                                                                                             pc        |->  "c0" ] >>
+                                                                                                                                         \o stack[self]]
+                                                                                                    /\ pc' = [pc EXCEPT ![self] = "ml_1_lk"]
+                                                                                                    /\ UNCHANGED << cdl, 
+                                                                                                                    cv, 
+                                                                                                                    cwk, 
+                                                                                                                    sdl, 
                                                                                                                     scn, 
                                                                                                                     sct, 
                                                                                                                     sldl, 
                                                                                                                     snear, 
                                                                                                                     sso, 
                                                                                                                     st >>
-                                                                                               ELSE /\ IF CurOp(self).op = "swc"
+                                                                                               ELSE /\ IF CurOp(self).op = "munlock"
                                                                                                           THEN /\ ip' = [ip EXCEPT ![self] = ip[self] + 1]
-                                                                                                               /\ /\ scn' = [scn EXCEPT ![self] = CurOp(self).a]
-                                                                                                                  /\ sdl' = [sdl EXCEPT ![self] = CurOp(self).dl]
-                                                                                                                  /\ stack' = [stack EXCEPT ![self] = << [ procedure |->  "swc",
-                                                                                                                                                           pc        |->  "c0",
-                                                                                                                                                           sct       |->  sct[self],
-                                                                                                                                                           sldl      |->  sldl[self],
-                                                                                                                                                           snear     |->  snear[self],
-                                                                                                                                                           sso       |->  sso[self],
-                                                                                                                                                           sdl       |->  sdl[self],
-                                                                                                                                                           scn       |->  scn[self] ] >>
-                                                                                                                                                       \o stack[self]]
-                                                                                                               /\ sct' = [sct EXCEPT ![self] = 0]
-                                                                                                               /\ sldl' = [sldl EXCEPT ![self] = 0]
-                                                                                                               /\ snear' = [snear EXCEPT ![self] = FALSE]
-                                                                                                               /\ sso' = [sso EXCEPT ![self] = 0]
-                                                                                                               /\ pc' = [pc EXCEPT ![self] = "sc_0_l"]
-                                                                                                               /\ st' = st
-                                                                                                          ELSE /\ IF CurOp(self).op = "semv"
-                                                                                                                     THEN /\ ip' = [ip EXCEPT ![self] = ip[self] + 1]
-                                                                                                                          /\ /\ st' = [st EXCEPT ![self] = CurOp(self).a]
-                                                                                                                             /\ stack' = [stack EXCEPT ![self] = << [ procedure |->  "semv",
-                                                                                                                                                                      pc        |->  "c0",
-                                                                                                                                                                      st        |->  st[self] ] >>
-                                                                                                                                                                  \o stack[self]]
-                                                                                                                          /\ pc' = [pc EXCEPT ![self] = "sv_1_v"]
-                                                                                                                     ELSE /\ ip' = [ip EXCEPT ![self] = ip[self] + 1]
-                                                                                                                          /\ pc' = [pc EXCEPT ![self] = "c0"]
-                                                                                                                          /\ UNCHANGED << stack, 
-                                                                                                                                          st >>
-                                                                                                               /\ UNCHANGED << sdl, 
+                                                                                                               /\ stack' = [stack EXCEPT ![self] = << [ procedure |->  "munlock",
+                                                                                                                                                        pc        |->  "c0" ] >>
+                                                                                                                                                    \o stack[self]]
+                                                                                                               /\ pc' = [pc EXCEPT ![self] = "ml_2_ul"]
+                                                                                                               /\ UNCHANGED << cdl, 
+                                                                                                                               cv, 
+                                                                                                                               cwk, 
+                                                                                                                               sdl, 
                                                                                                                                scn, 
                                                                                                                                sct, 
                                                                                                                                sldl, 
                                                                                                                                snear, 
-                                                                                                                               sso >>
-                                                                                                    /\ UNCHANGED << cdl, 
-                                                                                                                    cv, 
-                                                                                                                    cwk >>
+                                                                                                                               sso, 
+                                                                                                                               st >>
+                                                                                                          ELSE /\ IF CurOp(self).op = "cadd"
+                                                                                                                     THEN /\ ip' = [ip EXCEPT ![self] = ip[self] + 1]
+                                                                                                                          /\ /\ cdl' = [cdl EXCEPT ![self] = CurOp(self).a]
+                                                                                                                             /\ stack' = [stack EXCEPT ![self] = << [ procedure |->  "cadd",
+                                                                                                                                                                      pc        |->  "c0",
+                                                                                                                                                                      cv        |->  cv[self],
+                                                                                                                                                                      cwk       |->  cwk[self],
+                                                                                                                                                                      cdl       |->  cdl[self] ] >>
+                                                                                                                                                                  \o stack[self]]
+                                                                                                                          /\ cv' = [cv EXCEPT ![self] = 0]
+                                                                                                                          /\ cwk' = [cwk EXCEPT ![self] = 0]
+                                                                                                                          /\ pc' = [pc EXCEPT ![self] = "ca_1_lk"]
+                                                                                                                          /\ UNCHANGED << sdl, 
+                                                                                                                                          scn, 
+                                                                                                                                          sct, 
+                                                                                                                                          sldl, 
+                                                                                                                                          snear, 
+                                                                                                                                          sso, 
+                                                                                                                                          st >>
+                                                                                                                     ELSE /\ IF CurOp(self).op = "swc"
+                                                                                                                                THEN /\ ip' = [ip EXCEPT ![self] = ip[self] + 1]
+                                                                                                                                     /\ /\ scn' = [scn EXCEPT ![self] = CurOp(self).a]
+                                                                                                                                        /\ sdl' = [sdl EXCEPT ![self] = CurOp(self).dl]
+                                                                                                                                        /\ stack' = [stack EXCEPT ![self] = << [ procedure |->  "swc",
+                                                                                                                                                                                 pc        |->  "c0",
+                                                                                                                                                                                 sct       |->  sct[self],
+                                                                                                                                                                                 sldl      |->  sldl[self],
+                                                                                                                                                                                 snear     |->  snear[self],
+                                                                                                                                                                                 sso       |->  sso[self],
+                                                                                                                                                                                 sdl       |->  sdl[self],
+                                                                                                                                                                                 scn       |->  scn[self] ] >>
+                                                                                                                                                                             \o stack[self]]
+                                                                                                                                     /\ sct' = [sct EXCEPT ![self] = 0]
+                                                                                                                                     /\ sldl' = [sldl EXCEPT ![self] = 0]
+                                                                                                                                     /\ snear' = [snear EXCEPT ![self] = FALSE]
+                                                                                                                                     /\ sso' = [sso EXCEPT ![self] = 0]
+                                                                                                                                     /\ pc' = [pc EXCEPT ![self] = "sc_0_l"]
+                                                                                                                                     /\ st' = st
+                                                                                                                                ELSE /\ IF CurOp(self).op = "semv"
+                                                                                                                                           THEN /\ ip' = [ip EXCEPT ![self] = ip[self] + 1]
+                                                                                                                                                /\ /\ st' = [st EXCEPT ![self] = CurOp(self).a]
+                                                                                                                                                   /\ stack' = [stack EXCEPT ![self] = << [ procedure |->  "semv",
+                                                                                                                                                                                            pc        |->  "c0",
+                                                                                                                                                                                            st        |->  st[self] ] >>
+                                                                                                                                                                                        \o stack[self]]
+                                                                                                                                                /\ pc' = [pc EXCEPT ![self] = "sv_1_v"]
+                                                                                                                                           ELSE /\ ip' = [ip EXCEPT ![self] = ip[self] + 1]
+                                                                                                                                                /\ pc' = [pc EXCEPT ![self] = "c0"]
+                                                                                                                                                /\ UNCHANGED << stack, 
+                                                                                                                                                                st >>
+                                                                                                                                     /\ UNCHANGED << sdl, 
+                                                                                                                                                     scn, 
+                                                                                                                                                     sct, 
+                                                                                                                                                     sldl, 
+                                                                                                                                                     snear, 
+                                                                                                                                                     sso >>
+                                                                                                                          /\ UNCHANGED << cdl, 
+                                                                                                                                          cv, 
+                                                                                                                                          cwk >>
                                                                                          /\ UNCHANGED << objs, 
                                                                                                          adl, 
                                                                                                          single, 
+                                                                                                         wm, 
                                                                                                          k, 
                                                                                                          rt, 
                                                                                                          cnt, 
                                                                                                          rdy, 
                                                                                                          enq, 
-                                                                                                         wq >>
+                                                                                                         wq, 
+                                                                                                         unl >>
                                                                    /\ UNCHANGED << fn, 
                                                                                    fp, 
                                                                                    fi, 
@@ -2577,13 +2813,14 @@ c0(self) == /\ pc[self] = "c0"
                   ELSE /\ pc' = [pc EXCEPT ![self] = "Done"]
                        /\ UNCHANGED << ip, stack, xn, xcl, wn, wp, wdl, fail, 
                                        fn, fp, fi, fk, cdl, cv, cwk, objs, adl, 
-                                       single, k, rt, cnt, rdy, enq, wq, sdl, 
-                                       scn, sct, sldl, snear, sso, st, pn >>
+                                       single, wm, k, rt, cnt, rdy, enq, wq, 
+                                       unl, sdl, scn, sct, sldl, snear, sso, 
+                                       st, pn >>
             /\ UNCHANGED << live, notified, exp, par, kids, wts, disc, lk, nww, 
-                            sem, cval, cwaited, cq, clk, nwc, cz, now, ret, 
-                            dres, called, dl0, lpar, wfor, freeing, badret, 
-                            vcount, uaf, taint4, taint5, cn, cp, i, klist, w, 
-                            tn, p, dn, nt >>
+                            sem, cval, cwaited, cq, clk, nwc, cmu, badmu, cz, 
+                            now, ret, dres, called, dl0, lpar, wfor, freeing, 
+                            badret, vcount, uaf, taint4, taint5, cn, cp, i, 
+                            klist, w, tn, p, dn, nt >>
 
 thr(self) == c0(self)
 
@@ -2595,7 +2832,8 @@ Next == (\E self \in ProcSet:  \/ notify_child(self) \/ notify(self)
                                \/ ndeadline(self) \/ nnotify(self)
                                \/ nnew(self) \/ nfree(self) \/ cready(self)
                                \/ cadd(self) \/ nwaitn(self) \/ swc(self)
-                               \/ semv(self) \/ npoll(self))
+                               \/ semv(self) \/ mlock(self) \/ munlock(self)
+                               \/ npoll(self))
            \/ (\E self \in Threads: thr(self))
            \/ Terminating
 
@@ -2605,8 +2843,8 @@ Termination == <>(\A self \in ProcSet: pc[self] = "Done")
 
 \* END TRANSLATION
 
-LocalLabels == {"ca_4_l", "ca_5_l", "nc_5_l", "nc_9_l", "nc_k_l", "nc_w_l", "nd_5_l", "ne_5_l", "nf_10_l", "nf_12_l", "nf_1_l", "nf_5_l", "nf_6_l", "nf_k_l", "nn_0_l", "nn_1_l", "nn_2_l", "np_0_l", "np_1_l", "nq_3_l", "nq_6_l", "nt_2_l", "nt_7_l", "nt_7b_l", "nt_7c_l", "nx_0_l", "nx_1_l", "nx_2_l", "sc_0_l", "sc_1_l", "sc_6_l", "sc_r_l", "wd_0_l", "wd_1_l", "wd_9_l", "we_1_l", "wl_0_l", "wl_1_l", "wl_2_l", "wl_3_l", "ws_1_l", "ws_2_l"}
-Step(self) == notify_child(self) \/ notify(self) \/ ndeadline(self) \/ nnotify(self) \/ nnew(self) \/ nfree(self) \/ cready(self) \/ cadd(self) \/ nwaitn(self) \/ swc(self) \/ semv(self) \/ npoll(self) \/ thr(self)
+LocalLabels == {"ca_4_l", "ca_5_l", "nc_5_l", "nc_9_l", "nc_k_l", "nc_w_l", "nd_5_l", "ne_5_l", "nf_10_l", "nf_12_l", "nf_1_l", "nf_5_l", "nf_6_l", "nf_k_l", "nn_0_l", "nn_1_l", "nn_2_l", "np_0_l", "np_1_l", "nq_3_l", "nq_6_l", "nt_2_l", "nt_7_l", "nt_7b_l", "nt_7c_l", "nx_0_l", "nx_1_l", "nx_2_l", "sc_0_l", "sc_1_l", "sc_6_l", "sc_r_l", "wd_0_l", "wd_1_l", "wd_8_l", "wd_9_l", "we_1_l", "wl_0_l", "wl_1_l", "wl_2_l", "wl_3_l", "ws_1_l", "ws_2_l", "wu_0_l"}
+Step(self) == notify_child(self) \/ notify(self) \/ ndeadline(self) \/ nnotify(self) \/ nnew(self) \/ nfree(self) \/ cready(self) \/ cadd(self) \/ mlock(self) \/ munlock(self) \/ nwaitn(self) \/ swc(self) \/ semv(self) \/ npoll(self) \/ thr(self)
 \* the clock matters to a sleeper with a deadline still ahead, and to notes whose own expiry is ahead (lazy expiry at the next poll)
 TickUseful == \/ \E u \in Threads : pc[u] = "wn_7_pd" /\ rt[u] < NONE /\ rt[u] > now
               \/ \E u \in Threads : pc[u] = "sc_6_pd" /\ sldl[u] < NONE /\ sldl[u] > now
@@ -2614,7 +2852,7 @@ TickUseful == \/ \E u \in Threads : pc[u] = "wn_7_pd" /\ rt[u] < NONE /\ rt[u] >
               \/ \E n \in Notes : live[n] = "live" /\ notified[n] = 0 /\ exp[n] < NONE /\ exp[n] > now
 Tick == /\ now < MaxNow /\ TickUseful
         /\ now' = now + 1
-        /\ UNCHANGED <<pc, live, notified, exp, par, kids, wts, disc, lk, nww, sem, cval, cwaited, cq, clk, nwc, cz, ip, ret, dres, called, dl0, lpar, wfor, freeing, badret, vcount, uaf, taint4, taint5, stack, cn, cp, i, klist, w, tn, p, dn, nt, xn, xcl, wn, wp, wdl, fail, fn, fp, fi, fk, cdl, cv, cwk, objs, adl, single, k, rt, cnt, rdy, enq, wq, sdl, scn, sct, sldl, snear, sso, st, pn>>
+        /\ UNCHANGED <<pc, live, notified, exp, par, kids, wts, disc, lk, nww, sem, cval, cwaited, cq, clk, nwc, cmu, badmu, cz, ip, ret, dres, called, dl0, lpar, wfor, freeing, badret, vcount, uaf, taint4, taint5, stack, cn, cp, i, klist, w, tn, p, dn, nt, xn, xcl, wn, wp, wdl, fail, fn, fp, fi, fk, cdl, cv, cwk, objs, adl, single, wm, k, rt, cnt, rdy, enq, wq, unl, sdl, scn, sct, sldl, snear, sso, st, pn>>
 LocalPending == {u \in Threads : pc[u] \in LocalLabels}
 NextU == IF LocalPending # {} THEN Step(CHOOSE u \in LocalPending : TRUE)
          ELSE (\E self \in Threads : Step(self)) \/ Tick
@@ -2637,6 +2875,7 @@ ExpiryIsMin == \A n \in Notes : (live[n] = "live" /\ par[n] # 0 /\ live[par[n]] 
 NoUseAfterFree == ~uaf
 \* ---- C05 / C13 (waits on notes) ----
 RetHonest == ~badret
+MutexKept == ~badmu
 InWait(u) == \E j \in 1..Len(stack[u]) : stack[u][j].procedure \in {"nwaitn", "swc"}
 \* a wait record is on a note's waiter list, or in a notifier's hands, only while the call that owns it is still in progress
 NoDeadRecord == /\ \A n \in Notes : live[n] = "live" => \A j \in 1..Len(wts[n]) : InWait(wts[n][j])
@@ -2644,7 +2883,8 @@ NoDeadRecord == /\ \A n \in Notes : live[n] = "live" => \A j \in 1..Len(wts[n]) 
                 /\ \A u \in Threads : pc[u] \in {"ca_5_st", "ca_6_v"} => InWait(cwk[u])
                 /\ \A u \in Threads : pc[u] \in {"nc_3_st", "nc_4_v"} => InWait(w[u])
 AdoptionKeepsTree == \A n \in Notes : (live[n] = "live" /\ par[n] # 0) => live[par[n]] # "none"
-BadSet == {x \in {"NotifiedHasCause", "DescendantsNotified", "ExpiryIsMin", "NoUseAfterFree", "RetHonest", "NoDeadRecord"} :
+BadSet == {x \in {"NotifiedHasCause", "DescendantsNotified", "ExpiryIsMin", "NoUseAfterFree", "RetHonest", "NoDeadRecord", "MutexKept"} :
+             \/ (x = "MutexKept" /\ ~MutexKept)
              \/ (x = "RetHonest" /\ ~RetHonest) \/ (x = "NoDeadRecord" /\ ~NoDeadRecord)
              \/ (x = "NotifiedHasCause" /\ ~NotifiedHasCause) \/ (x = "DescendantsNotified" /\ ~DescendantsNotified)
              \/ (x = "ExpiryIsMin" /\ ~ExpiryIsMin) \/ (x = "NoUseAfterFree" /\ ~NoUseAfterFree)}
@@ -2661,7 +2901,7 @@ Obs == [live |-> [n \in Notes |-> IF live'[n] = "live" THEN 1 ELSE IF live'[n] =
         disc |-> [n \in Notes |-> IF L(n) THEN disc'[n] ELSE 0],
         lk |-> [n \in Notes |-> IF L(n) THEN lk'[n] ELSE 0],
         nww |-> nww', sem |-> sem', now |-> now', ret |-> ret',
-        cval |-> cval', cq |-> cq', clk |-> clk', nwc |-> nwc',
+        cval |-> cval', cq |-> cq', clk |-> clk', nwc |-> nwc', cmu |-> cmu',
         bad |-> BadSet', done |-> AllDone', taint4 |-> taint4', taint5 |-> taint5']
 Edge == (vars # vars') =>
           PrintT(ToJson(<<"E", TLCFP(vars), TLCFP(<<vars, 1>>), TLCFP(vars'), TLCFP(<<vars', 1>>),
